@@ -5,967 +5,1759 @@ import Refinery.Model.Locks
 namespace Refinery.Gen.Access
 open Refinery.Locks
 
-def declaredFields : List String := [
-  "InMemCollector.Config",
-  "InMemCollector.Logger",
-  "InMemCollector.Clock",
-  "InMemCollector.Tracer",
-  "InMemCollector.Health",
-  "InMemCollector.Sharder",
-  "InMemCollector.Transmission",
-  "InMemCollector.PeerTransmission",
-  "InMemCollector.PubSub",
-  "InMemCollector.Metrics",
-  "InMemCollector.SamplerFactory",
-  "InMemCollector.StressRelief",
-  "InMemCollector.Peers",
-  "InMemCollector.TestMode",
-  "InMemCollector.BlockOnAddSpan",
-  "InMemCollector.workers",
-  "InMemCollector.mutex",
-  "InMemCollector.monitorWG",
-  "InMemCollector.workersWG",
-  "InMemCollector.sendTracesWG",
-  "InMemCollector.reload",
-  "InMemCollector.tracesToSend",
-  "InMemCollector.done",
-  "InMemCollector.hostname",
-  "InMemCollector.memMetricSample",
-  "CollectorWorker.ID",
-  "CollectorWorker.parent",
-  "CollectorWorker.incoming",
-  "CollectorWorker.fromPeer",
-  "CollectorWorker.sendEarly",
-  "CollectorWorker.pause",
-  "CollectorWorker.reload",
-  "CollectorWorker.cache",
-  "CollectorWorker.sampleCache",
-  "CollectorWorker.datasetSamplers",
-  "CollectorWorker.lastCacheSize",
-  "CollectorWorker.localSpansWaiting",
-  "CollectorWorker.localSpanReceived",
-  "CollectorWorker.localSpanProcessed",
-  "CollectorWorker.healthCheckInAt",
-  "StressRelief.RefineryMetrics",
-  "StressRelief.Config",
-  "StressRelief.Logger",
-  "StressRelief.Health",
-  "StressRelief.PubSub",
-  "StressRelief.Peer",
-  "StressRelief.Clock",
-  "StressRelief.Done",
-  "StressRelief.mode",
-  "StressRelief.hostID",
-  "StressRelief.activateLevel",
-  "StressRelief.deactivateLevel",
-  "StressRelief.sampleRate",
-  "StressRelief.upperBound",
-  "StressRelief.overallStressLevel",
-  "StressRelief.reason",
-  "StressRelief.formula",
-  "StressRelief.stressed",
-  "StressRelief.stayOnUntil",
-  "StressRelief.minDuration",
-  "StressRelief.topic",
-  "StressRelief.algorithms",
-  "StressRelief.lock",
-  "StressRelief.stressLevels",
-  "StressRelief.disableStressLevelReport",
-  "CuckooTraceChecker.current",
-  "CuckooTraceChecker.current*",
-  "CuckooTraceChecker.future",
-  "CuckooTraceChecker.future*",
-  "CuckooTraceChecker.mut",
-  "CuckooTraceChecker.capacity",
-  "CuckooTraceChecker.met",
-  "CuckooTraceChecker.addch",
-  "CuckooTraceChecker.done",
-  "CuckooTraceChecker.shutdownWG",
-  "cuckooSentCache.met",
-  "cuckooSentCache.kept",
-  "cuckooSentCache.dropped",
-  "cuckooSentCache.recentDroppedIDs",
-  "cuckooSentCache.cfg",
-  "cuckooSentCache.done",
-  "cuckooSentCache.shutdownWG",
-  "cuckooSentCache.keptReasons",
-  "Router.Config",
-  "Router.Logger",
-  "Router.Health",
-  "Router.HTTPTransport",
-  "Router.UpstreamTransmission",
-  "Router.PeerTransmission",
-  "Router.Sharder",
-  "Router.Collector",
-  "Router.Metrics",
-  "Router.Tracer",
-  "Router.versionStr",
-  "Router.proxyClient",
-  "Router.routerType",
-  "Router.iopLogger",
-  "Router.zstdDecoder",
-  "Router.server",
-  "Router.grpcServer",
-  "Router.doneWG",
-  "Router.donech",
-  "Router.environmentCache",
-  "Router.hsrv",
-  "Router.metricsNames",
-  "environmentCache.mutex",
-  "environmentCache.items",
-  "environmentCache.ttl",
-  "environmentCache.getFn",
-  "eventBatch.mutex",
-  "eventBatch.events",
-  "eventBatch.startTime",
-  "DirectTransmission.Config",
-  "DirectTransmission.Logger",
-  "DirectTransmission.Version",
-  "DirectTransmission.Metrics",
-  "DirectTransmission.Transport",
-  "DirectTransmission.Clock",
-  "DirectTransmission.transmitType",
-  "DirectTransmission.enableCompression",
-  "DirectTransmission.maxBatchSize",
-  "DirectTransmission.batchTimeout",
-  "DirectTransmission.batchSendTimeout",
-  "DirectTransmission.additionalHeaders",
-  "DirectTransmission.eventBatches",
-  "DirectTransmission.batchMutex",
-  "DirectTransmission.dispatchPool",
-  "DirectTransmission.stop",
-  "DirectTransmission.stopWG",
-  "DirectTransmission.httpClient",
-  "DirectTransmission.userAgent",
-  "DirectTransmission.metricKeys",
-  "RedisPubsubPeers.Config",
-  "RedisPubsubPeers.Metrics",
-  "RedisPubsubPeers.Logger",
-  "RedisPubsubPeers.PubSub",
-  "RedisPubsubPeers.Clock",
-  "RedisPubsubPeers.InstanceID",
-  "RedisPubsubPeers.Done",
-  "RedisPubsubPeers.peers",
-  "RedisPubsubPeers.hash",
-  "RedisPubsubPeers.callbacks",
-  "RedisPubsubPeers.sub",
-  "RedisPubsubPeers.topic",
-  "fileConfig.mainConfig",
-  "fileConfig.mainHash",
-  "fileConfig.rulesConfig",
-  "fileConfig.rulesHash",
-  "fileConfig.opts",
-  "fileConfig.callbacks",
-  "fileConfig.mux",
-  "fileConfig.lastLoadTime",
-  "ConfigWatcher.Config",
-  "ConfigWatcher.Logger",
-  "ConfigWatcher.PubSub",
-  "ConfigWatcher.Tracer",
-  "ConfigWatcher.Clock",
-  "ConfigWatcher.subscr",
-  "ConfigWatcher.msgTime",
-  "ConfigWatcher.done",
-  "ConfigWatcher.mut",
-  "ConfigWatcher.topic",
-  "ConfigWatcher.Starter",
-  "ConfigWatcher.Stopper",
-  "MultiMetrics.Config",
-  "MultiMetrics.PromMetrics",
-  "MultiMetrics.OTelMetrics",
-  "MultiMetrics.children",
-  "MultiMetrics.counters",
-  "MultiMetrics.gauges",
-  "MultiMetrics.updowns",
-  "MultiMetrics.stores",
-  "MultiMetrics.metricTypes"]
+/-! Locations: `Struct.field` of the tracked structs (`Struct.field*` = the object the field refers
+    to, `Struct.method()` = call sites of a method that requires a mutex). -/
+namespace L
+def «InMemCollector.Config» : Nat := 0
+def «InMemCollector.Logger» : Nat := 1
+def «InMemCollector.Clock» : Nat := 2
+def «InMemCollector.Tracer» : Nat := 3
+def «InMemCollector.Health» : Nat := 4
+def «InMemCollector.Sharder» : Nat := 5
+def «InMemCollector.Transmission» : Nat := 6
+def «InMemCollector.PeerTransmission» : Nat := 7
+def «InMemCollector.PubSub» : Nat := 8
+def «InMemCollector.Metrics» : Nat := 9
+def «InMemCollector.SamplerFactory» : Nat := 10
+def «InMemCollector.StressRelief» : Nat := 11
+def «InMemCollector.Peers» : Nat := 12
+def «InMemCollector.TestMode» : Nat := 13
+def «InMemCollector.BlockOnAddSpan» : Nat := 14
+def «InMemCollector.workers» : Nat := 15
+def «InMemCollector.mutex» : Nat := 16
+def «InMemCollector.monitorWG» : Nat := 17
+def «InMemCollector.workersWG» : Nat := 18
+def «InMemCollector.sendTracesWG» : Nat := 19
+def «InMemCollector.reload» : Nat := 20
+def «InMemCollector.tracesToSend» : Nat := 21
+def «InMemCollector.done» : Nat := 22
+def «InMemCollector.hostname» : Nat := 23
+def «InMemCollector.memMetricSample» : Nat := 24
+def «CollectorWorker.ID» : Nat := 25
+def «CollectorWorker.parent» : Nat := 26
+def «CollectorWorker.incoming» : Nat := 27
+def «CollectorWorker.fromPeer» : Nat := 28
+def «CollectorWorker.sendEarly» : Nat := 29
+def «CollectorWorker.pause» : Nat := 30
+def «CollectorWorker.reload» : Nat := 31
+def «CollectorWorker.cache» : Nat := 32
+def «CollectorWorker.sampleCache» : Nat := 33
+def «CollectorWorker.datasetSamplers» : Nat := 34
+def «CollectorWorker.lastCacheSize» : Nat := 35
+def «CollectorWorker.localSpansWaiting» : Nat := 36
+def «CollectorWorker.localSpanReceived» : Nat := 37
+def «CollectorWorker.localSpanProcessed» : Nat := 38
+def «CollectorWorker.healthCheckInAt» : Nat := 39
+def «StressRelief.RefineryMetrics» : Nat := 40
+def «StressRelief.Config» : Nat := 41
+def «StressRelief.Logger» : Nat := 42
+def «StressRelief.Health» : Nat := 43
+def «StressRelief.PubSub» : Nat := 44
+def «StressRelief.Peer» : Nat := 45
+def «StressRelief.Clock» : Nat := 46
+def «StressRelief.Done» : Nat := 47
+def «StressRelief.mode» : Nat := 48
+def «StressRelief.hostID» : Nat := 49
+def «StressRelief.activateLevel» : Nat := 50
+def «StressRelief.deactivateLevel» : Nat := 51
+def «StressRelief.sampleRate» : Nat := 52
+def «StressRelief.upperBound» : Nat := 53
+def «StressRelief.overallStressLevel» : Nat := 54
+def «StressRelief.reason» : Nat := 55
+def «StressRelief.formula» : Nat := 56
+def «StressRelief.stressed» : Nat := 57
+def «StressRelief.stayOnUntil» : Nat := 58
+def «StressRelief.minDuration» : Nat := 59
+def «StressRelief.topic» : Nat := 60
+def «StressRelief.algorithms» : Nat := 61
+def «StressRelief.lock» : Nat := 62
+def «StressRelief.stressLevels» : Nat := 63
+def «StressRelief.disableStressLevelReport» : Nat := 64
+def «CuckooTraceChecker.current» : Nat := 65
+def «CuckooTraceChecker.current*» : Nat := 66
+def «CuckooTraceChecker.future» : Nat := 67
+def «CuckooTraceChecker.future*» : Nat := 68
+def «CuckooTraceChecker.mut» : Nat := 69
+def «CuckooTraceChecker.capacity» : Nat := 70
+def «CuckooTraceChecker.met» : Nat := 71
+def «CuckooTraceChecker.addch» : Nat := 72
+def «CuckooTraceChecker.done» : Nat := 73
+def «CuckooTraceChecker.shutdownWG» : Nat := 74
+def «cuckooSentCache.met» : Nat := 75
+def «cuckooSentCache.kept» : Nat := 76
+def «cuckooSentCache.dropped» : Nat := 77
+def «cuckooSentCache.recentDroppedIDs» : Nat := 78
+def «cuckooSentCache.cfg» : Nat := 79
+def «cuckooSentCache.done» : Nat := 80
+def «cuckooSentCache.shutdownWG» : Nat := 81
+def «cuckooSentCache.keptReasons» : Nat := 82
+def «Router.Config» : Nat := 83
+def «Router.Logger» : Nat := 84
+def «Router.Health» : Nat := 85
+def «Router.HTTPTransport» : Nat := 86
+def «Router.UpstreamTransmission» : Nat := 87
+def «Router.PeerTransmission» : Nat := 88
+def «Router.Sharder» : Nat := 89
+def «Router.Collector» : Nat := 90
+def «Router.Metrics» : Nat := 91
+def «Router.Tracer» : Nat := 92
+def «Router.versionStr» : Nat := 93
+def «Router.proxyClient» : Nat := 94
+def «Router.routerType» : Nat := 95
+def «Router.iopLogger» : Nat := 96
+def «Router.zstdDecoder» : Nat := 97
+def «Router.server» : Nat := 98
+def «Router.grpcServer» : Nat := 99
+def «Router.doneWG» : Nat := 100
+def «Router.donech» : Nat := 101
+def «Router.environmentCache» : Nat := 102
+def «Router.hsrv» : Nat := 103
+def «Router.metricsNames» : Nat := 104
+def «environmentCache.mutex» : Nat := 105
+def «environmentCache.items» : Nat := 106
+def «environmentCache.ttl» : Nat := 107
+def «environmentCache.getFn» : Nat := 108
+def «eventBatch.mutex» : Nat := 109
+def «eventBatch.events» : Nat := 110
+def «eventBatch.startTime» : Nat := 111
+def «DirectTransmission.Config» : Nat := 112
+def «DirectTransmission.Logger» : Nat := 113
+def «DirectTransmission.Version» : Nat := 114
+def «DirectTransmission.Metrics» : Nat := 115
+def «DirectTransmission.Transport» : Nat := 116
+def «DirectTransmission.Clock» : Nat := 117
+def «DirectTransmission.transmitType» : Nat := 118
+def «DirectTransmission.enableCompression» : Nat := 119
+def «DirectTransmission.maxBatchSize» : Nat := 120
+def «DirectTransmission.batchTimeout» : Nat := 121
+def «DirectTransmission.batchSendTimeout» : Nat := 122
+def «DirectTransmission.additionalHeaders» : Nat := 123
+def «DirectTransmission.eventBatches» : Nat := 124
+def «DirectTransmission.batchMutex» : Nat := 125
+def «DirectTransmission.dispatchPool» : Nat := 126
+def «DirectTransmission.stop» : Nat := 127
+def «DirectTransmission.stopWG» : Nat := 128
+def «DirectTransmission.httpClient» : Nat := 129
+def «DirectTransmission.userAgent» : Nat := 130
+def «DirectTransmission.metricKeys» : Nat := 131
+def «RedisPubsubPeers.Config» : Nat := 132
+def «RedisPubsubPeers.Metrics» : Nat := 133
+def «RedisPubsubPeers.Logger» : Nat := 134
+def «RedisPubsubPeers.PubSub» : Nat := 135
+def «RedisPubsubPeers.Clock» : Nat := 136
+def «RedisPubsubPeers.InstanceID» : Nat := 137
+def «RedisPubsubPeers.Done» : Nat := 138
+def «RedisPubsubPeers.peers» : Nat := 139
+def «RedisPubsubPeers.hash» : Nat := 140
+def «RedisPubsubPeers.callbacks» : Nat := 141
+def «RedisPubsubPeers.sub» : Nat := 142
+def «RedisPubsubPeers.topic» : Nat := 143
+def «fileConfig.mainConfig» : Nat := 144
+def «fileConfig.mainHash» : Nat := 145
+def «fileConfig.rulesConfig» : Nat := 146
+def «fileConfig.rulesHash» : Nat := 147
+def «fileConfig.opts» : Nat := 148
+def «fileConfig.callbacks» : Nat := 149
+def «fileConfig.mux» : Nat := 150
+def «fileConfig.lastLoadTime» : Nat := 151
+def «ConfigWatcher.Config» : Nat := 152
+def «ConfigWatcher.Logger» : Nat := 153
+def «ConfigWatcher.PubSub» : Nat := 154
+def «ConfigWatcher.Tracer» : Nat := 155
+def «ConfigWatcher.Clock» : Nat := 156
+def «ConfigWatcher.subscr» : Nat := 157
+def «ConfigWatcher.msgTime» : Nat := 158
+def «ConfigWatcher.done» : Nat := 159
+def «ConfigWatcher.mut» : Nat := 160
+def «ConfigWatcher.topic» : Nat := 161
+def «ConfigWatcher.Starter» : Nat := 162
+def «ConfigWatcher.Stopper» : Nat := 163
+def «MultiMetrics.Config» : Nat := 164
+def «MultiMetrics.PromMetrics» : Nat := 165
+def «MultiMetrics.OTelMetrics» : Nat := 166
+def «MultiMetrics.children» : Nat := 167
+def «MultiMetrics.counters» : Nat := 168
+def «MultiMetrics.gauges» : Nat := 169
+def «MultiMetrics.updowns» : Nat := 170
+def «MultiMetrics.stores» : Nat := 171
+def «MultiMetrics.metricTypes» : Nat := 172
+def «environmentCache.addItem()» : Nat := 173
+end L
+
+/-! Functions and function literals (`Outer$n`) of the analysed packages. -/
+namespace F
+def «AccessKeyConfig.GetReplaceKey» : Nat := 0
+def «AccessKeyConfig.HasKeyIDs» : Nat := 1
+def «AccessKeyConfig.IsAccepted» : Nat := 2
+def «CmdEnv.ApplyTags» : Nat := 3
+def «CmdEnv.GetDelimiter» : Nat := 4
+def «CmdEnv.GetField» : Nat := 5
+def «CollectionConfig.GetIncomingQueueSizePerWorker» : Nat := 6
+def «CollectionConfig.GetMaxAlloc» : Nat := 7
+def «CollectionConfig.GetPeerQueueSizePerWorker» : Nat := 8
+def «CollectionConfig.GetWorkerCount» : Nat := 9
+def «CollectorWorker.GetCacheSize» : Nat := 10
+def «CollectorWorker.IsHealthy» : Nat := 11
+def «CollectorWorker.Stop» : Nat := 12
+def «CollectorWorker.addSpan» : Nat := 13
+def «CollectorWorker.addSpanFromPeer» : Nat := 14
+def «CollectorWorker.collect» : Nat := 15
+def «CollectorWorker.getLastSpanProcessed» : Nat := 16
+def «CollectorWorker.makeDecision» : Nat := 17
+def «CollectorWorker.processSpan» : Nat := 18
+def «CollectorWorker.processSpan$1» : Nat := 19
+def «CollectorWorker.sendExpiredTracesInCache» : Nat := 20
+def «CollectorWorker.sendExpiredTracesInCache$1» : Nat := 21
+def «CollectorWorker.sendTracesEarly» : Nat := 22
+def «CollectorWorker.sendTracesEarly$1» : Nat := 23
+def «ConfigHashMetrics» : Nat := 24
+def «ConfigWatcher.ReloadCallback» : Nat := 25
+def «ConfigWatcher.Start» : Nat := 26
+def «ConfigWatcher.Stop» : Nat := 27
+def «ConfigWatcher.SubscriptionListener» : Nat := 28
+def «ConfigWatcher.monitor» : Nat := 29
+def «ConvertBoolToFloat» : Nat := 30
+def «CuckooTraceChecker.Add» : Nat := 31
+def «CuckooTraceChecker.Check» : Nat := 32
+def «CuckooTraceChecker.Maintain» : Nat := 33
+def «CuckooTraceChecker.SetNextCapacity» : Nat := 34
+def «CuckooTraceChecker.Stop» : Nat := 35
+def «CuckooTraceChecker.drain» : Nat := 36
+def «DefaultInMemCache.Get» : Nat := 37
+def «DefaultInMemCache.GetAll» : Nat := 38
+def «DefaultInMemCache.GetCacheCapacity» : Nat := 39
+def «DefaultInMemCache.GetCacheEntryCount» : Nat := 40
+def «DefaultInMemCache.RemoveTraces» : Nat := 41
+def «DefaultInMemCache.Set» : Nat := 42
+def «DefaultInMemCache.TakeExpiredTraces» : Nat := 43
+def «DefaultTransmission.EnqueueEvent» : Nat := 44
+def «DefaultTransmission.EnqueueSpan» : Nat := 45
+def «DefaultTransmission.RegisterMetrics» : Nat := 46
+def «DefaultTransmission.Start» : Nat := 47
+def «DefaultTransmission.Start$1» : Nat := 48
+def «DefaultTransmission.Start$2» : Nat := 49
+def «DefaultTransmission.Stop» : Nat := 50
+def «DefaultTransmission.processResponses» : Nat := 51
+def «DefaultTransmission.reloadTransmissionBuilder» : Nat := 52
+def «DefaultTrue.Get» : Nat := 53
+def «DefaultTrue.MarshalText» : Nat := 54
+def «DefaultTrue.UnmarshalText» : Nat := 55
+def «Deprecation.GetDeprecationText» : Nat := 56
+def «Deprecation.GetLastVersion» : Nat := 57
+def «DeterministicSamplerConfig.GetSamplingFields» : Nat := 58
+def «DirectTransmission.EnqueueEvent» : Nat := 59
+def «DirectTransmission.EnqueueEvent$1» : Nat := 60
+def «DirectTransmission.EnqueueSpan» : Nat := 61
+def «DirectTransmission.Start» : Nat := 62
+def «DirectTransmission.Stop» : Nat := 63
+def «DirectTransmission.Stop$1» : Nat := 64
+def «DirectTransmission.dispatchStaleBatches» : Nat := 65
+def «DirectTransmission.dispatchStaleBatches$1» : Nat := 66
+def «DirectTransmission.handleBatchFailure» : Nat := 67
+def «DirectTransmission.handleError» : Nat := 68
+def «DirectTransmission.handleEventError» : Nat := 69
+def «DirectTransmission.registerMetrics» : Nat := 70
+def «DirectTransmission.sendBatch» : Nat := 71
+def «Duration.MarshalText» : Nat := 72
+def «Duration.UnmarshalText» : Nat := 73
+def «DynamicSamplerConfig.GetSamplingFields» : Nat := 74
+def «EMADynamicSamplerConfig.GetSamplingFields» : Nat := 75
+def «EMAThroughputSamplerConfig.GetSamplingFields» : Nat := 76
+def «FileConfigError.Error» : Nat := 77
+def «FileConfigError.HasErrors» : Nat := 78
+def «FilePeers.GetInstanceID» : Nat := 79
+def «FilePeers.GetPeers» : Nat := 80
+def «FilePeers.Ready» : Nat := 81
+def «FilePeers.RegisterUpdatedPeersCallback» : Nat := 82
+def «FilePeers.Start» : Nat := 83
+def «FilePeers.Start$1» : Nat := 84
+def «GetCollectorImplementation» : Nat := 85
+def «GetKeyFields» : Nat := 86
+def «GetMetricsImplementation» : Nat := 87
+def «Group.GetDeprecationVersion» : Nat := 88
+def «Group.IsDeprecated» : Nat := 89
+def «HoneycombLoggerConfig.GetSamplerEnabled» : Nat := 90
+def «InMemCollector.AddSpan» : Nat := 91
+def «InMemCollector.AddSpanFromPeer» : Nat := 92
+def «InMemCollector.GetStressedSampleRate» : Nat := 93
+def «InMemCollector.IsMyTrace» : Nat := 94
+def «InMemCollector.ProcessSpanImmediately» : Nat := 95
+def «InMemCollector.Start» : Nat := 96
+def «InMemCollector.Start$1» : Nat := 97
+def «InMemCollector.Stop» : Nat := 98
+def «InMemCollector.Stressed» : Nat := 99
+def «InMemCollector.addAdditionalAttributes» : Nat := 100
+def «InMemCollector.checkAlloc» : Nat := 101
+def «InMemCollector.dealWithSentTrace» : Nat := 102
+def «InMemCollector.getWorkerIDForTrace» : Nat := 103
+def «InMemCollector.isReady» : Nat := 104
+def «InMemCollector.monitor» : Nat := 105
+def «InMemCollector.reloadConfigs» : Nat := 106
+def «InMemCollector.send» : Nat := 107
+def «InMemCollector.sendReloadSignal» : Nat := 108
+def «InMemCollector.sendTraces» : Nat := 109
+def «IsLegacyAPIKey» : Nat := 110
+def «KeptReasonsCache.Get» : Nat := 111
+def «KeptReasonsCache.Set» : Nat := 112
+def «Level.MarshalText» : Nat := 113
+def «Level.String» : Nat := 114
+def «Level.UnmarshalText» : Nat := 115
+def «LoadConfigMetadata» : Nat := 116
+def «LoadRulesMetadata» : Nat := 117
+def «LogsServer.Export» : Nat := 118
+def «MemorySize.MarshalText» : Nat := 119
+def «MemorySize.UnmarshalFlag» : Nat := 120
+def «MemorySize.UnmarshalText» : Nat := 121
+def «Metadata.ClosestNamesTo» : Nat := 122
+def «Metadata.ClosestNamesTo$1» : Nat := 123
+def «Metadata.GetField» : Nat := 124
+def «Metadata.GetGroup» : Nat := 125
+def «Metadata.LoadFrom» : Nat := 126
+def «Metadata.Validate» : Nat := 127
+def «Metadata.ValidateRules» : Nat := 128
+def «MetricType.String» : Nat := 129
+def «MockCollector.AddSpan» : Nat := 130
+def «MockCollector.AddSpanFromPeer» : Nat := 131
+def «MockCollector.Flush» : Nat := 132
+def «MockCollector.GetStressedSampleRate» : Nat := 133
+def «MockCollector.ProcessSpanImmediately» : Nat := 134
+def «MockCollector.Stressed» : Nat := 135
+def «MockConfig.DetermineSamplerKey» : Nat := 136
+def «MockConfig.GetAccessKeyConfig» : Nat := 137
+def «MockConfig.GetAddCountsToRoot» : Nat := 138
+def «MockConfig.GetAddHostMetadataToTrace» : Nat := 139
+def «MockConfig.GetAddRuleReasonToTrace» : Nat := 140
+def «MockConfig.GetAddSpanCountToRoot» : Nat := 141
+def «MockConfig.GetAdditionalAttributes» : Nat := 142
+def «MockConfig.GetAdditionalErrorFields» : Nat := 143
+def «MockConfig.GetAdditionalHeaders» : Nat := 144
+def «MockConfig.GetAllSamplerRules» : Nat := 145
+def «MockConfig.GetCollectionConfig» : Nat := 146
+def «MockConfig.GetCollectorType» : Nat := 147
+def «MockConfig.GetCompressPeerCommunication» : Nat := 148
+def «MockConfig.GetConfigMetadata» : Nat := 149
+def «MockConfig.GetDatasetPrefix» : Nat := 150
+def «MockConfig.GetDebugServiceAddr» : Nat := 151
+def «MockConfig.GetEnvironmentCacheTTL» : Nat := 152
+def «MockConfig.GetGRPCConfig» : Nat := 153
+def «MockConfig.GetGRPCEnabled» : Nat := 154
+def «MockConfig.GetGRPCListenAddr» : Nat := 155
+def «MockConfig.GetGeneralConfig» : Nat := 156
+def «MockConfig.GetHTTPIdleTimeout» : Nat := 157
+def «MockConfig.GetHashes» : Nat := 158
+def «MockConfig.GetHealthCheckTimeout» : Nat := 159
+def «MockConfig.GetHoneycombAPI» : Nat := 160
+def «MockConfig.GetHoneycombLoggerConfig» : Nat := 161
+def «MockConfig.GetIdentifierInterfaceName» : Nat := 162
+def «MockConfig.GetIsDryRun» : Nat := 163
+def «MockConfig.GetListenAddr» : Nat := 164
+def «MockConfig.GetLoggerLevel» : Nat := 165
+def «MockConfig.GetLoggerType» : Nat := 166
+def «MockConfig.GetOTelMetricsConfig» : Nat := 167
+def «MockConfig.GetOTelTracingConfig» : Nat := 168
+def «MockConfig.GetOpAMPConfig» : Nat := 169
+def «MockConfig.GetParentIdFieldNames» : Nat := 170
+def «MockConfig.GetPeerListenAddr» : Nat := 171
+def «MockConfig.GetPeerManagementType» : Nat := 172
+def «MockConfig.GetPeerTimeout» : Nat := 173
+def «MockConfig.GetPeers» : Nat := 174
+def «MockConfig.GetPrometheusMetricsConfig» : Nat := 175
+def «MockConfig.GetQueryAuthToken» : Nat := 176
+def «MockConfig.GetRedisIdentifier» : Nat := 177
+def «MockConfig.GetRedisPeerManagement» : Nat := 178
+def «MockConfig.GetSampleCacheConfig» : Nat := 179
+def «MockConfig.GetSamplerConfigForDestName» : Nat := 180
+def «MockConfig.GetSamplingKeyFieldsForDestName» : Nat := 181
+def «MockConfig.GetStdoutLoggerConfig» : Nat := 182
+def «MockConfig.GetStressReliefConfig» : Nat := 183
+def «MockConfig.GetTraceIdFieldNames» : Nat := 184
+def «MockConfig.GetTracesConfig» : Nat := 185
+def «MockConfig.GetUseIPV6Identifier» : Nat := 186
+def «MockConfig.RegisterReloadCallback» : Nat := 187
+def «MockConfig.Reload» : Nat := 188
+def «MockConfig.SetMaxAlloc» : Nat := 189
+def «MockGRPCHealthWatchServer.GetSentMessages» : Nat := 190
+def «MockGRPCHealthWatchServer.Send» : Nat := 191
+def «MockMetrics.Count» : Nat := 192
+def «MockMetrics.Down» : Nat := 193
+def «MockMetrics.Gauge» : Nat := 194
+def «MockMetrics.Get» : Nat := 195
+def «MockMetrics.GetHistogramCount» : Nat := 196
+def «MockMetrics.Histogram» : Nat := 197
+def «MockMetrics.Increment» : Nat := 198
+def «MockMetrics.Register» : Nat := 199
+def «MockMetrics.Start» : Nat := 200
+def «MockMetrics.Stop» : Nat := 201
+def «MockMetrics.Store» : Nat := 202
+def «MockMetrics.Up» : Nat := 203
+def «MockPeers.GetInstanceID» : Nat := 204
+def «MockPeers.GetPeers» : Nat := 205
+def «MockPeers.Ready» : Nat := 206
+def «MockPeers.RegisterUpdatedPeersCallback» : Nat := 207
+def «MockPeers.Start» : Nat := 208
+def «MockPeers.UpdatePeers» : Nat := 209
+def «MockStressReliever.GetSampleRate» : Nat := 210
+def «MockStressReliever.Recalc» : Nat := 211
+def «MockStressReliever.ShouldSampleDeterministically» : Nat := 212
+def «MockStressReliever.Start» : Nat := 213
+def «MockStressReliever.Stressed» : Nat := 214
+def «MockStressReliever.UpdateFromConfig» : Nat := 215
+def «MockTransmission.EnqueueEvent» : Nat := 216
+def «MockTransmission.EnqueueSpan» : Nat := 217
+def «MockTransmission.GetBlock» : Nat := 218
+def «MockTransmission.RegisterMetrics» : Nat := 219
+def «MockTransmission.Start» : Nat := 220
+def «MockTransmission.Stop» : Nat := 221
+def «MultiMetrics.AddChild» : Nat := 222
+def «MultiMetrics.Children» : Nat := 223
+def «MultiMetrics.Count» : Nat := 224
+def «MultiMetrics.Down» : Nat := 225
+def «MultiMetrics.Gauge» : Nat := 226
+def «MultiMetrics.Get» : Nat := 227
+def «MultiMetrics.Histogram» : Nat := 228
+def «MultiMetrics.Increment» : Nat := 229
+def «MultiMetrics.Register» : Nat := 230
+def «MultiMetrics.Start» : Nat := 231
+def «MultiMetrics.Store» : Nat := 232
+def «MultiMetrics.Up» : Nat := 233
+def «NewCmdEnvOptions» : Nat := 234
+def «NewCollectorWorker» : Nat := 235
+def «NewConfig» : Nat := 236
+def «NewConfigData» : Nat := 237
+def «NewCuckooSentCache» : Nat := 238
+def «NewCuckooTraceChecker» : Nat := 239
+def «NewCuckooTraceChecker$1» : Nat := 240
+def «NewDefaultTransmission» : Nat := 241
+def «NewDirectTransmission» : Nat := 242
+def «NewInMemCache» : Nat := 243
+def «NewInMemCache$1» : Nat := 244
+def «NewInMemCache$2» : Nat := 245
+def «NewKeptReasonsCache» : Nat := 246
+def «NewKeptTraceCacheEntry» : Nat := 247
+def «NewLogsServer» : Nat := 248
+def «NewMockCollector» : Nat := 249
+def «NewMockPeers» : Nat := 250
+def «NewMultiMetrics» : Nat := 251
+def «NewTraceServer» : Nat := 252
+def «NullMetrics.Count» : Nat := 253
+def «NullMetrics.Down» : Nat := 254
+def «NullMetrics.Gauge» : Nat := 255
+def «NullMetrics.Get» : Nat := 256
+def «NullMetrics.Histogram» : Nat := 257
+def «NullMetrics.Increment» : Nat := 258
+def «NullMetrics.Register» : Nat := 259
+def «NullMetrics.Start» : Nat := 260
+def «NullMetrics.Stop» : Nat := 261
+def «NullMetrics.Store» : Nat := 262
+def «NullMetrics.Up» : Nat := 263
+def «OTelMetrics.Count» : Nat := 264
+def «OTelMetrics.Down» : Nat := 265
+def «OTelMetrics.Gauge» : Nat := 266
+def «OTelMetrics.Histogram» : Nat := 267
+def «OTelMetrics.Increment» : Nat := 268
+def «OTelMetrics.Register» : Nat := 269
+def «OTelMetrics.Start» : Nat := 270
+def «OTelMetrics.Start$1» : Nat := 271
+def «OTelMetrics.Start$2» : Nat := 272
+def «OTelMetrics.Start$3» : Nat := 273
+def «OTelMetrics.Start$4» : Nat := 274
+def «OTelMetrics.Stop» : Nat := 275
+def «OTelMetrics.Up» : Nat := 276
+def «OTelMetrics.getOrInitCounter» : Nat := 277
+def «OTelMetrics.getOrInitGauge» : Nat := 278
+def «OTelMetrics.getOrInitHistogram» : Nat := 279
+def «OTelMetrics.getOrInitUpDown» : Nat := 280
+def «ParseLevel» : Nat := 281
+def «PrefixMetricName» : Nat := 282
+def «PromMetrics.Count» : Nat := 283
+def «PromMetrics.Down» : Nat := 284
+def «PromMetrics.Gauge» : Nat := 285
+def «PromMetrics.Histogram» : Nat := 286
+def «PromMetrics.Increment» : Nat := 287
+def «PromMetrics.Register» : Nat := 288
+def «PromMetrics.Start» : Nat := 289
+def «PromMetrics.Start$1» : Nat := 290
+def «PromMetrics.Up» : Nat := 291
+def «RedisPubsubPeers.GetInstanceID» : Nat := 292
+def «RedisPubsubPeers.GetPeers» : Nat := 293
+def «RedisPubsubPeers.Ready» : Nat := 294
+def «RedisPubsubPeers.Ready$1» : Nat := 295
+def «RedisPubsubPeers.RegisterUpdatedPeersCallback» : Nat := 296
+def «RedisPubsubPeers.Start» : Nat := 297
+def «RedisPubsubPeers.checkHash» : Nat := 298
+def «RedisPubsubPeers.listen» : Nat := 299
+def «RedisPubsubPeers.stop» : Nat := 300
+def «Router.AddOTLPMuxxer» : Nat := 301
+def «Router.Check» : Nat := 302
+def «Router.LnS» : Nat := 303
+def «Router.LnS$1» : Nat := 304
+def «Router.SetEnvironmentCache» : Nat := 305
+def «Router.SetEnvironmentCache$1» : Nat := 306
+def «Router.SetType» : Nat := 307
+def «Router.SetVersion» : Nat := 308
+def «Router.Stop» : Nat := 309
+def «Router.Watch» : Nat := 310
+def «Router.alive» : Nat := 311
+def «Router.apiKeyProcessor» : Nat := 312
+def «Router.apiKeyProcessor$1» : Nat := 313
+def «Router.batch» : Nat := 314
+def «Router.debugTrace» : Nat := 315
+def «Router.event» : Nat := 316
+def «Router.getAllSamplerRules» : Nat := 317
+def «Router.getConfigMetadata» : Nat := 318
+def «Router.getEnvironmentName» : Nat := 319
+def «Router.getKeyID» : Nat := 320
+def «Router.getSamplerRules» : Nat := 321
+def «Router.handleOTLPFailureResponse» : Nat := 322
+def «Router.handlerReturnWithError» : Nat := 323
+def «Router.lookupEnvironment» : Nat := 324
+def «Router.marshalToFormat» : Nat := 325
+def «Router.panic» : Nat := 326
+def «Router.panicCatcher» : Nat := 327
+def «Router.panicCatcher$1» : Nat := 328
+def «Router.panicCatcher$2» : Nat := 329
+def «Router.postOTLPLogs» : Nat := 330
+def «Router.postOTLPTrace» : Nat := 331
+def «Router.processEvent» : Nat := 332
+def «Router.processOTLPRequest» : Nat := 333
+def «Router.processOTLPRequestBatchMsgp» : Nat := 334
+def «Router.processOTLPRequestWithMsgp» : Nat := 335
+def «Router.proxy» : Nat := 336
+def «Router.queryTokenChecker» : Nat := 337
+def «Router.queryTokenChecker$1» : Nat := 338
+def «Router.readAndCloseMaybeCompressedBody» : Nat := 339
+def «Router.readBodyToBuffer» : Nat := 340
+def «Router.readGzipBody» : Nat := 341
+def «Router.readUncompressedBody» : Nat := 342
+def «Router.readZstdBody» : Nat := 343
+def «Router.ready» : Nat := 344
+def «Router.registerMetricNames» : Nat := 345
+def «Router.requestLogger» : Nat := 346
+def «Router.requestLogger$1» : Nat := 347
+def «Router.requestToEvent» : Nat := 348
+def «Router.setResponseHeaders» : Nat := 349
+def «Router.setResponseHeaders$1» : Nat := 350
+def «Router.startGRPCHealthMonitor» : Nat := 351
+def «Router.startGRPCHealthMonitor$1» : Nat := 352
+def «Router.startGRPCHealthMonitor$2» : Nat := 353
+def «Router.version» : Nat := 354
+def «RulesBasedDownstreamSampler.GetSamplingFields» : Nat := 355
+def «RulesBasedDownstreamSampler.NameMeaningfulRate» : Nat := 356
+def «RulesBasedSamplerCondition.GetComputedField» : Nat := 357
+def «RulesBasedSamplerCondition.Init» : Nat := 358
+def «RulesBasedSamplerCondition.Init$1» : Nat := 359
+def «RulesBasedSamplerCondition.String» : Nat := 360
+def «RulesBasedSamplerCondition.setMatchesFunction» : Nat := 361
+def «RulesBasedSamplerCondition.setMatchesFunction$1» : Nat := 362
+def «RulesBasedSamplerCondition.setMatchesFunction$2» : Nat := 363
+def «RulesBasedSamplerConfig.GetSamplingFields» : Nat := 364
+def «RulesBasedSamplerConfig.String» : Nat := 365
+def «RulesBasedSamplerRule.String» : Nat := 366
+def «SampleCacheConfig.GetDroppedSizePerWorker» : Nat := 367
+def «SampleCacheConfig.GetKeptSizePerWorker» : Nat := 368
+def «SerializeToYAML» : Nat := 369
+def «StressRelief.GetSampleRate» : Nat := 370
+def «StressRelief.Recalc» : Nat := 371
+def «StressRelief.Start» : Nat := 372
+def «StressRelief.Start$1» : Nat := 373
+def «StressRelief.Start$2» : Nat := 374
+def «StressRelief.Stressed» : Nat := 375
+def «StressRelief.UpdateFromConfig» : Nat := 376
+def «StressRelief.clusterStressLevel» : Nat := 377
+def «StressRelief.linear» : Nat := 378
+def «StressRelief.onStressLevelUpdate» : Nat := 379
+def «StressRelief.ratio» : Nat := 380
+def «StressRelief.sigmoid» : Nat := 381
+def «StressRelief.sqrt» : Nat := 382
+def «StressRelief.square» : Nat := 383
+def «TotalThroughputSamplerConfig.GetSamplingFields» : Nat := 384
+def «TraceServer.ExportTraceData» : Nat := 385
+def «TracesConfig.GetBatchTimeout» : Nat := 386
+def «TracesConfig.GetMaxBatchSize» : Nat := 387
+def «TracesConfig.GetMaxExpiredTraces» : Nat := 388
+def «TracesConfig.GetSendDelay» : Nat := 389
+def «TracesConfig.GetSendTickerValue» : Nat := 390
+def «TracesConfig.GetTraceTimeout» : Nat := 391
+def «TryConvertToBool» : Nat := 392
+def «V2SamplerChoice.GetSamplingFields» : Nat := 393
+def «V2SamplerChoice.NameMeaningfulSamplers» : Nat := 394
+def «V2SamplerChoice.Sampler» : Nat := 395
+def «Validation.GetArgAsStringSlice» : Nat := 396
+def «ValidationResult.IsError» : Nat := 397
+def «ValidationResult.isEmpty» : Nat := 398
+def «ValidationResults.HasErrors» : Nat := 399
+def «WindowedThroughputSamplerConfig.GetSamplingFields» : Nat := 400
+def «WithConfigData» : Nat := 401
+def «WithConfigData$1» : Nat := 402
+def «WithRulesData» : Nat := 403
+def «WithRulesData$1» : Nat := 404
+def «addIncomingUserAgent» : Nat := 405
+def «applyCmdEnvTags» : Nat := 406
+def «applyConfigInto» : Nat := 407
+def «asFloat» : Nat := 408
+def «batchedEvent.MarshalMsg» : Nat := 409
+def «batchedEvent.UnmarshalMsg» : Nat := 410
+def «batchedEvent.getEventTime» : Nat := 411
+def «batchedEvent.getSampleRate» : Nat := 412
+def «batchedEvents.MarshalJSON» : Nat := 413
+def «batchedEvents.UnmarshalJSON» : Nat := 414
+def «batchedEvents.UnmarshalMsg» : Nat := 415
+def «batchedEvents.unmarshalBatchedEventFromFastJSON» : Nat := 416
+def «batchedEvents.unmarshalBatchedEventFromFastJSON$1» : Nat := 417
+def «batchedEvents.unmarshalBatchedEventFromFastJSON$2» : Nat := 418
+def «buildRequestURL» : Nat := 419
+def «checkForDeprecation» : Nat := 420
+def «clamp» : Nat := 421
+def «compareVersions» : Nat := 422
+def «convertToString» : Nat := 423
+def «cuckooDroppedRecord.Count» : Nat := 424
+def «cuckooDroppedRecord.DescendantCount» : Nat := 425
+def «cuckooDroppedRecord.Kept» : Nat := 426
+def «cuckooDroppedRecord.Rate» : Nat := 427
+def «cuckooDroppedRecord.Reason» : Nat := 428
+def «cuckooDroppedRecord.SpanCount» : Nat := 429
+def «cuckooDroppedRecord.SpanEventCount» : Nat := 430
+def «cuckooDroppedRecord.SpanLinkCount» : Nat := 431
+def «cuckooSentCache.CheckSpan» : Nat := 432
+def «cuckooSentCache.CheckTrace» : Nat := 433
+def «cuckooSentCache.Record» : Nat := 434
+def «cuckooSentCache.Resize» : Nat := 435
+def «cuckooSentCache.Stop» : Nat := 436
+def «cuckooSentCache.monitor» : Nat := 437
+def «customTraceExportHandler» : Nat := 438
+def «customTraceExportHandler$1» : Nat := 439
+def «envGetterFunc» : Nat := 440
+def «environmentCache.addItem» : Nat := 441
+def «environmentCache.get» : Nat := 442
+def «expandEnvVarsInConfig» : Nat := 443
+def «expandEnvVarsInString» : Nat := 444
+def «expandEnvVarsInString$1» : Nat := 445
+def «expandEnvVarsInValues» : Nat := 446
+def «fileConfig.DetermineSamplerKey» : Nat := 447
+def «fileConfig.GetAccessKeyConfig» : Nat := 448
+def «fileConfig.GetAddCountsToRoot» : Nat := 449
+def «fileConfig.GetAddHostMetadataToTrace» : Nat := 450
+def «fileConfig.GetAddRuleReasonToTrace» : Nat := 451
+def «fileConfig.GetAddSpanCountToRoot» : Nat := 452
+def «fileConfig.GetAdditionalAttributes» : Nat := 453
+def «fileConfig.GetAdditionalErrorFields» : Nat := 454
+def «fileConfig.GetAdditionalHeaders» : Nat := 455
+def «fileConfig.GetAllSamplerRules» : Nat := 456
+def «fileConfig.GetCollectionConfig» : Nat := 457
+def «fileConfig.GetCompressPeerCommunication» : Nat := 458
+def «fileConfig.GetConfigMetadata» : Nat := 459
+def «fileConfig.GetDatasetPrefix» : Nat := 460
+def «fileConfig.GetDebugServiceAddr» : Nat := 461
+def «fileConfig.GetEnvironmentCacheTTL» : Nat := 462
+def «fileConfig.GetGRPCConfig» : Nat := 463
+def «fileConfig.GetGRPCEnabled» : Nat := 464
+def «fileConfig.GetGRPCListenAddr» : Nat := 465
+def «fileConfig.GetGeneralConfig» : Nat := 466
+def «fileConfig.GetHTTPIdleTimeout» : Nat := 467
+def «fileConfig.GetHashes» : Nat := 468
+def «fileConfig.GetHealthCheckTimeout» : Nat := 469
+def «fileConfig.GetHoneycombAPI» : Nat := 470
+def «fileConfig.GetHoneycombLoggerConfig» : Nat := 471
+def «fileConfig.GetIdentifierInterfaceName» : Nat := 472
+def «fileConfig.GetIsDryRun» : Nat := 473
+def «fileConfig.GetListenAddr» : Nat := 474
+def «fileConfig.GetLoggerLevel» : Nat := 475
+def «fileConfig.GetLoggerType» : Nat := 476
+def «fileConfig.GetOTelMetricsConfig» : Nat := 477
+def «fileConfig.GetOTelTracingConfig» : Nat := 478
+def «fileConfig.GetOpAMPConfig» : Nat := 479
+def «fileConfig.GetParentIdFieldNames» : Nat := 480
+def «fileConfig.GetPeerListenAddr» : Nat := 481
+def «fileConfig.GetPeerManagementType» : Nat := 482
+def «fileConfig.GetPeerTimeout» : Nat := 483
+def «fileConfig.GetPeers» : Nat := 484
+def «fileConfig.GetPrometheusMetricsConfig» : Nat := 485
+def «fileConfig.GetQueryAuthToken» : Nat := 486
+def «fileConfig.GetRedisAuthCode» : Nat := 487
+def «fileConfig.GetRedisClusterHosts» : Nat := 488
+def «fileConfig.GetRedisDatabase» : Nat := 489
+def «fileConfig.GetRedisHost» : Nat := 490
+def «fileConfig.GetRedisIdentifier» : Nat := 491
+def «fileConfig.GetRedisPassword» : Nat := 492
+def «fileConfig.GetRedisPeerManagement» : Nat := 493
+def «fileConfig.GetRedisPrefix» : Nat := 494
+def «fileConfig.GetRedisUsername» : Nat := 495
+def «fileConfig.GetSampleCacheConfig» : Nat := 496
+def «fileConfig.GetSamplerConfigForDestName» : Nat := 497
+def «fileConfig.GetSamplingKeyFieldsForDestName» : Nat := 498
+def «fileConfig.GetStdoutLoggerConfig» : Nat := 499
+def «fileConfig.GetStressReliefConfig» : Nat := 500
+def «fileConfig.GetTraceIdFieldNames» : Nat := 501
+def «fileConfig.GetTracesConfig» : Nat := 502
+def «fileConfig.GetUseIPV6Identifier» : Nat := 503
+def «fileConfig.GetUseTLS» : Nat := 504
+def «fileConfig.GetUseTLSInsecure» : Nat := 505
+def «fileConfig.RegisterReloadCallback» : Nat := 506
+def «fileConfig.Reload» : Nat := 507
+def «flatten» : Nat := 508
+def «formatFromFilename» : Nat := 509
+def «formatFromResponse» : Nat := 510
+def «getAPIKeyAndDatasetFromMetadata» : Nat := 511
+def «getBytesFor» : Nat := 512
+def «getConfigDataForLocations» : Nat := 513
+def «getDatasetFromRequest» : Nat := 514
+def «getDefaultTrueValue» : Nat := 515
+def «getEventTime» : Nat := 516
+def «getFirstValueFromMetadata» : Nat := 517
+def «getIdentifierFromInterface» : Nat := 518
+def «getPeerManagementConfig» : Nat := 519
+def «getRefineryTelemetryConfig» : Nat := 520
+def «getUserAgentFromRequest» : Nat := 521
+def «hashList» : Nat := 522
+def «init» : Nat := 523
+def «iopLogger.Debug» : Nat := 524
+def «iopLogger.Error» : Nat := 525
+def «iopLogger.Info» : Nat := 526
+def «isString» : Nat := 527
+def «isVersionDeprecated» : Nat := 528
+def «keptTraceCacheEntry.Count» : Nat := 529
+def «keptTraceCacheEntry.DescendantCount» : Nat := 530
+def «keptTraceCacheEntry.Kept» : Nat := 531
+def «keptTraceCacheEntry.Rate» : Nat := 532
+def «keptTraceCacheEntry.SpanCount» : Nat := 533
+def «keptTraceCacheEntry.SpanEventCount» : Nat := 534
+def «keptTraceCacheEntry.SpanLinkCount» : Nat := 535
+def «load» : Nat := 536
+def «loadConfigsInto» : Nat := 537
+def «loadConfigsIntoMap» : Nat := 538
+def «loadNamedMetadata» : Nat := 539
+def «makeDecoders» : Nat := 540
+def «maskString» : Nat := 541
+def «mergeTraceAndSpanSampleRates» : Nat := 542
+def «mustFloat» : Nat := 543
+def «newBatchedEvents» : Nat := 544
+def «newConfigAndRules» : Nat := 545
+def «newEnvironmentCache» : Nat := 546
+def «newFileConfig» : Nat := 547
+def «newPeerCommand» : Nat := 548
+def «newStressReliefMessage» : Nat := 549
+def «parseFractionalEpoch» : Nat := 550
+def «peerCommand.marshal» : Nat := 551
+def «peerCommand.unmarshal» : Nat := 552
+def «populateConfigContents» : Nat := 553
+def «publicAddr» : Nat := 554
+def «randStringBytes» : Nat := 555
+def «recycleHTTPBodyBuffer» : Nat := 556
+def «registerCustomTraceService» : Nat := 557
+def «selectIPFromAddrs» : Nat := 558
+def «setCompareOperators» : Nat := 559
+def «setCompareOperators$1» : Nat := 560
+def «setCompareOperators$10» : Nat := 561
+def «setCompareOperators$11» : Nat := 562
+def «setCompareOperators$12» : Nat := 563
+def «setCompareOperators$13» : Nat := 564
+def «setCompareOperators$14» : Nat := 565
+def «setCompareOperators$15» : Nat := 566
+def «setCompareOperators$16» : Nat := 567
+def «setCompareOperators$17» : Nat := 568
+def «setCompareOperators$18» : Nat := 569
+def «setCompareOperators$19» : Nat := 570
+def «setCompareOperators$2» : Nat := 571
+def «setCompareOperators$20» : Nat := 572
+def «setCompareOperators$3» : Nat := 573
+def «setCompareOperators$4» : Nat := 574
+def «setCompareOperators$5» : Nat := 575
+def «setCompareOperators$6» : Nat := 576
+def «setCompareOperators$7» : Nat := 577
+def «setCompareOperators$8» : Nat := 578
+def «setCompareOperators$9» : Nat := 579
+def «setInBasedOperators» : Nat := 580
+def «setInBasedOperators$1» : Nat := 581
+def «setInBasedOperators$2» : Nat := 582
+def «setInBasedOperators$3» : Nat := 583
+def «setInBasedOperators$4» : Nat := 584
+def «setMatchStringBasedOperators» : Nat := 585
+def «setMatchStringBasedOperators$1» : Nat := 586
+def «setMatchStringBasedOperators$2» : Nat := 587
+def «setMatchStringBasedOperators$3» : Nat := 588
+def «setRegexStringMatchOperator» : Nat := 589
+def «setRegexStringMatchOperator$1» : Nat := 590
+def «statusRecorder.WriteHeader» : Nat := 591
+def «stressReliefMessage.String» : Nat := 592
+def «translatedTraceServiceRequest.ProtoMessage» : Nat := 593
+def «translatedTraceServiceRequest.Reset» : Nat := 594
+def «translatedTraceServiceRequest.String» : Nat := 595
+def «translatedTraceServiceRequest.Unmarshal» : Nat := 596
+def «tryConvertToFloat» : Nat := 597
+def «tryConvertToInt» : Nat := 598
+def «unmarshal» : Nat := 599
+def «unmarshalStressReliefMessage» : Nat := 600
+def «validateConfigs» : Nat := 601
+def «validateDatatype» : Nat := 602
+def «validateRules» : Nat := 603
+def «writeYAMLToFile» : Nat := 604
+end F
+
+def locNames : List String := ["InMemCollector.Config", "InMemCollector.Logger", "InMemCollector.Clock", "InMemCollector.Tracer", "InMemCollector.Health", "InMemCollector.Sharder", "InMemCollector.Transmission", "InMemCollector.PeerTransmission", "InMemCollector.PubSub", "InMemCollector.Metrics", "InMemCollector.SamplerFactory", "InMemCollector.StressRelief", "InMemCollector.Peers", "InMemCollector.TestMode", "InMemCollector.BlockOnAddSpan", "InMemCollector.workers", "InMemCollector.mutex", "InMemCollector.monitorWG", "InMemCollector.workersWG", "InMemCollector.sendTracesWG", "InMemCollector.reload", "InMemCollector.tracesToSend", "InMemCollector.done", "InMemCollector.hostname", "InMemCollector.memMetricSample", "CollectorWorker.ID", "CollectorWorker.parent", "CollectorWorker.incoming", "CollectorWorker.fromPeer", "CollectorWorker.sendEarly", "CollectorWorker.pause", "CollectorWorker.reload", "CollectorWorker.cache", "CollectorWorker.sampleCache", "CollectorWorker.datasetSamplers", "CollectorWorker.lastCacheSize", "CollectorWorker.localSpansWaiting", "CollectorWorker.localSpanReceived", "CollectorWorker.localSpanProcessed", "CollectorWorker.healthCheckInAt", "StressRelief.RefineryMetrics", "StressRelief.Config", "StressRelief.Logger", "StressRelief.Health", "StressRelief.PubSub", "StressRelief.Peer", "StressRelief.Clock", "StressRelief.Done", "StressRelief.mode", "StressRelief.hostID", "StressRelief.activateLevel", "StressRelief.deactivateLevel", "StressRelief.sampleRate", "StressRelief.upperBound", "StressRelief.overallStressLevel", "StressRelief.reason", "StressRelief.formula", "StressRelief.stressed", "StressRelief.stayOnUntil", "StressRelief.minDuration", "StressRelief.topic", "StressRelief.algorithms", "StressRelief.lock", "StressRelief.stressLevels", "StressRelief.disableStressLevelReport", "CuckooTraceChecker.current", "CuckooTraceChecker.current*", "CuckooTraceChecker.future", "CuckooTraceChecker.future*", "CuckooTraceChecker.mut", "CuckooTraceChecker.capacity", "CuckooTraceChecker.met", "CuckooTraceChecker.addch", "CuckooTraceChecker.done", "CuckooTraceChecker.shutdownWG", "cuckooSentCache.met", "cuckooSentCache.kept", "cuckooSentCache.dropped", "cuckooSentCache.recentDroppedIDs", "cuckooSentCache.cfg", "cuckooSentCache.done", "cuckooSentCache.shutdownWG", "cuckooSentCache.keptReasons", "Router.Config", "Router.Logger", "Router.Health", "Router.HTTPTransport", "Router.UpstreamTransmission", "Router.PeerTransmission", "Router.Sharder", "Router.Collector", "Router.Metrics", "Router.Tracer", "Router.versionStr", "Router.proxyClient", "Router.routerType", "Router.iopLogger", "Router.zstdDecoder", "Router.server", "Router.grpcServer", "Router.doneWG", "Router.donech", "Router.environmentCache", "Router.hsrv", "Router.metricsNames", "environmentCache.mutex", "environmentCache.items", "environmentCache.ttl", "environmentCache.getFn", "eventBatch.mutex", "eventBatch.events", "eventBatch.startTime", "DirectTransmission.Config", "DirectTransmission.Logger", "DirectTransmission.Version", "DirectTransmission.Metrics", "DirectTransmission.Transport", "DirectTransmission.Clock", "DirectTransmission.transmitType", "DirectTransmission.enableCompression", "DirectTransmission.maxBatchSize", "DirectTransmission.batchTimeout", "DirectTransmission.batchSendTimeout", "DirectTransmission.additionalHeaders", "DirectTransmission.eventBatches", "DirectTransmission.batchMutex", "DirectTransmission.dispatchPool", "DirectTransmission.stop", "DirectTransmission.stopWG", "DirectTransmission.httpClient", "DirectTransmission.userAgent", "DirectTransmission.metricKeys", "RedisPubsubPeers.Config", "RedisPubsubPeers.Metrics", "RedisPubsubPeers.Logger", "RedisPubsubPeers.PubSub", "RedisPubsubPeers.Clock", "RedisPubsubPeers.InstanceID", "RedisPubsubPeers.Done", "RedisPubsubPeers.peers", "RedisPubsubPeers.hash", "RedisPubsubPeers.callbacks", "RedisPubsubPeers.sub", "RedisPubsubPeers.topic", "fileConfig.mainConfig", "fileConfig.mainHash", "fileConfig.rulesConfig", "fileConfig.rulesHash", "fileConfig.opts", "fileConfig.callbacks", "fileConfig.mux", "fileConfig.lastLoadTime", "ConfigWatcher.Config", "ConfigWatcher.Logger", "ConfigWatcher.PubSub", "ConfigWatcher.Tracer", "ConfigWatcher.Clock", "ConfigWatcher.subscr", "ConfigWatcher.msgTime", "ConfigWatcher.done", "ConfigWatcher.mut", "ConfigWatcher.topic", "ConfigWatcher.Starter", "ConfigWatcher.Stopper", "MultiMetrics.Config", "MultiMetrics.PromMetrics", "MultiMetrics.OTelMetrics", "MultiMetrics.children", "MultiMetrics.counters", "MultiMetrics.gauges", "MultiMetrics.updowns", "MultiMetrics.stores", "MultiMetrics.metricTypes", "environmentCache.addItem()"]
+
+def fnNames : List String := ["AccessKeyConfig.GetReplaceKey", "AccessKeyConfig.HasKeyIDs", "AccessKeyConfig.IsAccepted", "CmdEnv.ApplyTags", "CmdEnv.GetDelimiter", "CmdEnv.GetField", "CollectionConfig.GetIncomingQueueSizePerWorker", "CollectionConfig.GetMaxAlloc", "CollectionConfig.GetPeerQueueSizePerWorker", "CollectionConfig.GetWorkerCount", "CollectorWorker.GetCacheSize", "CollectorWorker.IsHealthy", "CollectorWorker.Stop", "CollectorWorker.addSpan", "CollectorWorker.addSpanFromPeer", "CollectorWorker.collect", "CollectorWorker.getLastSpanProcessed", "CollectorWorker.makeDecision", "CollectorWorker.processSpan", "CollectorWorker.processSpan$1", "CollectorWorker.sendExpiredTracesInCache", "CollectorWorker.sendExpiredTracesInCache$1", "CollectorWorker.sendTracesEarly", "CollectorWorker.sendTracesEarly$1", "ConfigHashMetrics", "ConfigWatcher.ReloadCallback", "ConfigWatcher.Start", "ConfigWatcher.Stop", "ConfigWatcher.SubscriptionListener", "ConfigWatcher.monitor", "ConvertBoolToFloat", "CuckooTraceChecker.Add", "CuckooTraceChecker.Check", "CuckooTraceChecker.Maintain", "CuckooTraceChecker.SetNextCapacity", "CuckooTraceChecker.Stop", "CuckooTraceChecker.drain", "DefaultInMemCache.Get", "DefaultInMemCache.GetAll", "DefaultInMemCache.GetCacheCapacity", "DefaultInMemCache.GetCacheEntryCount", "DefaultInMemCache.RemoveTraces", "DefaultInMemCache.Set", "DefaultInMemCache.TakeExpiredTraces", "DefaultTransmission.EnqueueEvent", "DefaultTransmission.EnqueueSpan", "DefaultTransmission.RegisterMetrics", "DefaultTransmission.Start", "DefaultTransmission.Start$1", "DefaultTransmission.Start$2", "DefaultTransmission.Stop", "DefaultTransmission.processResponses", "DefaultTransmission.reloadTransmissionBuilder", "DefaultTrue.Get", "DefaultTrue.MarshalText", "DefaultTrue.UnmarshalText", "Deprecation.GetDeprecationText", "Deprecation.GetLastVersion", "DeterministicSamplerConfig.GetSamplingFields", "DirectTransmission.EnqueueEvent", "DirectTransmission.EnqueueEvent$1", "DirectTransmission.EnqueueSpan", "DirectTransmission.Start", "DirectTransmission.Stop", "DirectTransmission.Stop$1", "DirectTransmission.dispatchStaleBatches", "DirectTransmission.dispatchStaleBatches$1", "DirectTransmission.handleBatchFailure", "DirectTransmission.handleError", "DirectTransmission.handleEventError", "DirectTransmission.registerMetrics", "DirectTransmission.sendBatch", "Duration.MarshalText", "Duration.UnmarshalText", "DynamicSamplerConfig.GetSamplingFields", "EMADynamicSamplerConfig.GetSamplingFields", "EMAThroughputSamplerConfig.GetSamplingFields", "FileConfigError.Error", "FileConfigError.HasErrors", "FilePeers.GetInstanceID", "FilePeers.GetPeers", "FilePeers.Ready", "FilePeers.RegisterUpdatedPeersCallback", "FilePeers.Start", "FilePeers.Start$1", "GetCollectorImplementation", "GetKeyFields", "GetMetricsImplementation", "Group.GetDeprecationVersion", "Group.IsDeprecated", "HoneycombLoggerConfig.GetSamplerEnabled", "InMemCollector.AddSpan", "InMemCollector.AddSpanFromPeer", "InMemCollector.GetStressedSampleRate", "InMemCollector.IsMyTrace", "InMemCollector.ProcessSpanImmediately", "InMemCollector.Start", "InMemCollector.Start$1", "InMemCollector.Stop", "InMemCollector.Stressed", "InMemCollector.addAdditionalAttributes", "InMemCollector.checkAlloc", "InMemCollector.dealWithSentTrace", "InMemCollector.getWorkerIDForTrace", "InMemCollector.isReady", "InMemCollector.monitor", "InMemCollector.reloadConfigs", "InMemCollector.send", "InMemCollector.sendReloadSignal", "InMemCollector.sendTraces", "IsLegacyAPIKey", "KeptReasonsCache.Get", "KeptReasonsCache.Set", "Level.MarshalText", "Level.String", "Level.UnmarshalText", "LoadConfigMetadata", "LoadRulesMetadata", "LogsServer.Export", "MemorySize.MarshalText", "MemorySize.UnmarshalFlag", "MemorySize.UnmarshalText", "Metadata.ClosestNamesTo", "Metadata.ClosestNamesTo$1", "Metadata.GetField", "Metadata.GetGroup", "Metadata.LoadFrom", "Metadata.Validate", "Metadata.ValidateRules", "MetricType.String", "MockCollector.AddSpan", "MockCollector.AddSpanFromPeer", "MockCollector.Flush", "MockCollector.GetStressedSampleRate", "MockCollector.ProcessSpanImmediately", "MockCollector.Stressed", "MockConfig.DetermineSamplerKey", "MockConfig.GetAccessKeyConfig", "MockConfig.GetAddCountsToRoot", "MockConfig.GetAddHostMetadataToTrace", "MockConfig.GetAddRuleReasonToTrace", "MockConfig.GetAddSpanCountToRoot", "MockConfig.GetAdditionalAttributes", "MockConfig.GetAdditionalErrorFields", "MockConfig.GetAdditionalHeaders", "MockConfig.GetAllSamplerRules", "MockConfig.GetCollectionConfig", "MockConfig.GetCollectorType", "MockConfig.GetCompressPeerCommunication", "MockConfig.GetConfigMetadata", "MockConfig.GetDatasetPrefix", "MockConfig.GetDebugServiceAddr", "MockConfig.GetEnvironmentCacheTTL", "MockConfig.GetGRPCConfig", "MockConfig.GetGRPCEnabled", "MockConfig.GetGRPCListenAddr", "MockConfig.GetGeneralConfig", "MockConfig.GetHTTPIdleTimeout", "MockConfig.GetHashes", "MockConfig.GetHealthCheckTimeout", "MockConfig.GetHoneycombAPI", "MockConfig.GetHoneycombLoggerConfig", "MockConfig.GetIdentifierInterfaceName", "MockConfig.GetIsDryRun", "MockConfig.GetListenAddr", "MockConfig.GetLoggerLevel", "MockConfig.GetLoggerType", "MockConfig.GetOTelMetricsConfig", "MockConfig.GetOTelTracingConfig", "MockConfig.GetOpAMPConfig", "MockConfig.GetParentIdFieldNames", "MockConfig.GetPeerListenAddr", "MockConfig.GetPeerManagementType", "MockConfig.GetPeerTimeout", "MockConfig.GetPeers", "MockConfig.GetPrometheusMetricsConfig", "MockConfig.GetQueryAuthToken", "MockConfig.GetRedisIdentifier", "MockConfig.GetRedisPeerManagement", "MockConfig.GetSampleCacheConfig", "MockConfig.GetSamplerConfigForDestName", "MockConfig.GetSamplingKeyFieldsForDestName", "MockConfig.GetStdoutLoggerConfig", "MockConfig.GetStressReliefConfig", "MockConfig.GetTraceIdFieldNames", "MockConfig.GetTracesConfig", "MockConfig.GetUseIPV6Identifier", "MockConfig.RegisterReloadCallback", "MockConfig.Reload", "MockConfig.SetMaxAlloc", "MockGRPCHealthWatchServer.GetSentMessages", "MockGRPCHealthWatchServer.Send", "MockMetrics.Count", "MockMetrics.Down", "MockMetrics.Gauge", "MockMetrics.Get", "MockMetrics.GetHistogramCount", "MockMetrics.Histogram", "MockMetrics.Increment", "MockMetrics.Register", "MockMetrics.Start", "MockMetrics.Stop", "MockMetrics.Store", "MockMetrics.Up", "MockPeers.GetInstanceID", "MockPeers.GetPeers", "MockPeers.Ready", "MockPeers.RegisterUpdatedPeersCallback", "MockPeers.Start", "MockPeers.UpdatePeers", "MockStressReliever.GetSampleRate", "MockStressReliever.Recalc", "MockStressReliever.ShouldSampleDeterministically", "MockStressReliever.Start", "MockStressReliever.Stressed", "MockStressReliever.UpdateFromConfig", "MockTransmission.EnqueueEvent", "MockTransmission.EnqueueSpan", "MockTransmission.GetBlock", "MockTransmission.RegisterMetrics", "MockTransmission.Start", "MockTransmission.Stop", "MultiMetrics.AddChild", "MultiMetrics.Children", "MultiMetrics.Count", "MultiMetrics.Down", "MultiMetrics.Gauge", "MultiMetrics.Get", "MultiMetrics.Histogram", "MultiMetrics.Increment", "MultiMetrics.Register", "MultiMetrics.Start", "MultiMetrics.Store", "MultiMetrics.Up", "NewCmdEnvOptions", "NewCollectorWorker", "NewConfig", "NewConfigData", "NewCuckooSentCache", "NewCuckooTraceChecker", "NewCuckooTraceChecker$1", "NewDefaultTransmission", "NewDirectTransmission", "NewInMemCache", "NewInMemCache$1", "NewInMemCache$2", "NewKeptReasonsCache", "NewKeptTraceCacheEntry", "NewLogsServer", "NewMockCollector", "NewMockPeers", "NewMultiMetrics", "NewTraceServer", "NullMetrics.Count", "NullMetrics.Down", "NullMetrics.Gauge", "NullMetrics.Get", "NullMetrics.Histogram", "NullMetrics.Increment", "NullMetrics.Register", "NullMetrics.Start", "NullMetrics.Stop", "NullMetrics.Store", "NullMetrics.Up", "OTelMetrics.Count", "OTelMetrics.Down", "OTelMetrics.Gauge", "OTelMetrics.Histogram", "OTelMetrics.Increment", "OTelMetrics.Register", "OTelMetrics.Start", "OTelMetrics.Start$1", "OTelMetrics.Start$2", "OTelMetrics.Start$3", "OTelMetrics.Start$4", "OTelMetrics.Stop", "OTelMetrics.Up", "OTelMetrics.getOrInitCounter", "OTelMetrics.getOrInitGauge", "OTelMetrics.getOrInitHistogram", "OTelMetrics.getOrInitUpDown", "ParseLevel", "PrefixMetricName", "PromMetrics.Count", "PromMetrics.Down", "PromMetrics.Gauge", "PromMetrics.Histogram", "PromMetrics.Increment", "PromMetrics.Register", "PromMetrics.Start", "PromMetrics.Start$1", "PromMetrics.Up", "RedisPubsubPeers.GetInstanceID", "RedisPubsubPeers.GetPeers", "RedisPubsubPeers.Ready", "RedisPubsubPeers.Ready$1", "RedisPubsubPeers.RegisterUpdatedPeersCallback", "RedisPubsubPeers.Start", "RedisPubsubPeers.checkHash", "RedisPubsubPeers.listen", "RedisPubsubPeers.stop", "Router.AddOTLPMuxxer", "Router.Check", "Router.LnS", "Router.LnS$1", "Router.SetEnvironmentCache", "Router.SetEnvironmentCache$1", "Router.SetType", "Router.SetVersion", "Router.Stop", "Router.Watch", "Router.alive", "Router.apiKeyProcessor", "Router.apiKeyProcessor$1", "Router.batch", "Router.debugTrace", "Router.event", "Router.getAllSamplerRules", "Router.getConfigMetadata", "Router.getEnvironmentName", "Router.getKeyID", "Router.getSamplerRules", "Router.handleOTLPFailureResponse", "Router.handlerReturnWithError", "Router.lookupEnvironment", "Router.marshalToFormat", "Router.panic", "Router.panicCatcher", "Router.panicCatcher$1", "Router.panicCatcher$2", "Router.postOTLPLogs", "Router.postOTLPTrace", "Router.processEvent", "Router.processOTLPRequest", "Router.processOTLPRequestBatchMsgp", "Router.processOTLPRequestWithMsgp", "Router.proxy", "Router.queryTokenChecker", "Router.queryTokenChecker$1", "Router.readAndCloseMaybeCompressedBody", "Router.readBodyToBuffer", "Router.readGzipBody", "Router.readUncompressedBody", "Router.readZstdBody", "Router.ready", "Router.registerMetricNames", "Router.requestLogger", "Router.requestLogger$1", "Router.requestToEvent", "Router.setResponseHeaders", "Router.setResponseHeaders$1", "Router.startGRPCHealthMonitor", "Router.startGRPCHealthMonitor$1", "Router.startGRPCHealthMonitor$2", "Router.version", "RulesBasedDownstreamSampler.GetSamplingFields", "RulesBasedDownstreamSampler.NameMeaningfulRate", "RulesBasedSamplerCondition.GetComputedField", "RulesBasedSamplerCondition.Init", "RulesBasedSamplerCondition.Init$1", "RulesBasedSamplerCondition.String", "RulesBasedSamplerCondition.setMatchesFunction", "RulesBasedSamplerCondition.setMatchesFunction$1", "RulesBasedSamplerCondition.setMatchesFunction$2", "RulesBasedSamplerConfig.GetSamplingFields", "RulesBasedSamplerConfig.String", "RulesBasedSamplerRule.String", "SampleCacheConfig.GetDroppedSizePerWorker", "SampleCacheConfig.GetKeptSizePerWorker", "SerializeToYAML", "StressRelief.GetSampleRate", "StressRelief.Recalc", "StressRelief.Start", "StressRelief.Start$1", "StressRelief.Start$2", "StressRelief.Stressed", "StressRelief.UpdateFromConfig", "StressRelief.clusterStressLevel", "StressRelief.linear", "StressRelief.onStressLevelUpdate", "StressRelief.ratio", "StressRelief.sigmoid", "StressRelief.sqrt", "StressRelief.square", "TotalThroughputSamplerConfig.GetSamplingFields", "TraceServer.ExportTraceData", "TracesConfig.GetBatchTimeout", "TracesConfig.GetMaxBatchSize", "TracesConfig.GetMaxExpiredTraces", "TracesConfig.GetSendDelay", "TracesConfig.GetSendTickerValue", "TracesConfig.GetTraceTimeout", "TryConvertToBool", "V2SamplerChoice.GetSamplingFields", "V2SamplerChoice.NameMeaningfulSamplers", "V2SamplerChoice.Sampler", "Validation.GetArgAsStringSlice", "ValidationResult.IsError", "ValidationResult.isEmpty", "ValidationResults.HasErrors", "WindowedThroughputSamplerConfig.GetSamplingFields", "WithConfigData", "WithConfigData$1", "WithRulesData", "WithRulesData$1", "addIncomingUserAgent", "applyCmdEnvTags", "applyConfigInto", "asFloat", "batchedEvent.MarshalMsg", "batchedEvent.UnmarshalMsg", "batchedEvent.getEventTime", "batchedEvent.getSampleRate", "batchedEvents.MarshalJSON", "batchedEvents.UnmarshalJSON", "batchedEvents.UnmarshalMsg", "batchedEvents.unmarshalBatchedEventFromFastJSON", "batchedEvents.unmarshalBatchedEventFromFastJSON$1", "batchedEvents.unmarshalBatchedEventFromFastJSON$2", "buildRequestURL", "checkForDeprecation", "clamp", "compareVersions", "convertToString", "cuckooDroppedRecord.Count", "cuckooDroppedRecord.DescendantCount", "cuckooDroppedRecord.Kept", "cuckooDroppedRecord.Rate", "cuckooDroppedRecord.Reason", "cuckooDroppedRecord.SpanCount", "cuckooDroppedRecord.SpanEventCount", "cuckooDroppedRecord.SpanLinkCount", "cuckooSentCache.CheckSpan", "cuckooSentCache.CheckTrace", "cuckooSentCache.Record", "cuckooSentCache.Resize", "cuckooSentCache.Stop", "cuckooSentCache.monitor", "customTraceExportHandler", "customTraceExportHandler$1", "envGetterFunc", "environmentCache.addItem", "environmentCache.get", "expandEnvVarsInConfig", "expandEnvVarsInString", "expandEnvVarsInString$1", "expandEnvVarsInValues", "fileConfig.DetermineSamplerKey", "fileConfig.GetAccessKeyConfig", "fileConfig.GetAddCountsToRoot", "fileConfig.GetAddHostMetadataToTrace", "fileConfig.GetAddRuleReasonToTrace", "fileConfig.GetAddSpanCountToRoot", "fileConfig.GetAdditionalAttributes", "fileConfig.GetAdditionalErrorFields", "fileConfig.GetAdditionalHeaders", "fileConfig.GetAllSamplerRules", "fileConfig.GetCollectionConfig", "fileConfig.GetCompressPeerCommunication", "fileConfig.GetConfigMetadata", "fileConfig.GetDatasetPrefix", "fileConfig.GetDebugServiceAddr", "fileConfig.GetEnvironmentCacheTTL", "fileConfig.GetGRPCConfig", "fileConfig.GetGRPCEnabled", "fileConfig.GetGRPCListenAddr", "fileConfig.GetGeneralConfig", "fileConfig.GetHTTPIdleTimeout", "fileConfig.GetHashes", "fileConfig.GetHealthCheckTimeout", "fileConfig.GetHoneycombAPI", "fileConfig.GetHoneycombLoggerConfig", "fileConfig.GetIdentifierInterfaceName", "fileConfig.GetIsDryRun", "fileConfig.GetListenAddr", "fileConfig.GetLoggerLevel", "fileConfig.GetLoggerType", "fileConfig.GetOTelMetricsConfig", "fileConfig.GetOTelTracingConfig", "fileConfig.GetOpAMPConfig", "fileConfig.GetParentIdFieldNames", "fileConfig.GetPeerListenAddr", "fileConfig.GetPeerManagementType", "fileConfig.GetPeerTimeout", "fileConfig.GetPeers", "fileConfig.GetPrometheusMetricsConfig", "fileConfig.GetQueryAuthToken", "fileConfig.GetRedisAuthCode", "fileConfig.GetRedisClusterHosts", "fileConfig.GetRedisDatabase", "fileConfig.GetRedisHost", "fileConfig.GetRedisIdentifier", "fileConfig.GetRedisPassword", "fileConfig.GetRedisPeerManagement", "fileConfig.GetRedisPrefix", "fileConfig.GetRedisUsername", "fileConfig.GetSampleCacheConfig", "fileConfig.GetSamplerConfigForDestName", "fileConfig.GetSamplingKeyFieldsForDestName", "fileConfig.GetStdoutLoggerConfig", "fileConfig.GetStressReliefConfig", "fileConfig.GetTraceIdFieldNames", "fileConfig.GetTracesConfig", "fileConfig.GetUseIPV6Identifier", "fileConfig.GetUseTLS", "fileConfig.GetUseTLSInsecure", "fileConfig.RegisterReloadCallback", "fileConfig.Reload", "flatten", "formatFromFilename", "formatFromResponse", "getAPIKeyAndDatasetFromMetadata", "getBytesFor", "getConfigDataForLocations", "getDatasetFromRequest", "getDefaultTrueValue", "getEventTime", "getFirstValueFromMetadata", "getIdentifierFromInterface", "getPeerManagementConfig", "getRefineryTelemetryConfig", "getUserAgentFromRequest", "hashList", "init", "iopLogger.Debug", "iopLogger.Error", "iopLogger.Info", "isString", "isVersionDeprecated", "keptTraceCacheEntry.Count", "keptTraceCacheEntry.DescendantCount", "keptTraceCacheEntry.Kept", "keptTraceCacheEntry.Rate", "keptTraceCacheEntry.SpanCount", "keptTraceCacheEntry.SpanEventCount", "keptTraceCacheEntry.SpanLinkCount", "load", "loadConfigsInto", "loadConfigsIntoMap", "loadNamedMetadata", "makeDecoders", "maskString", "mergeTraceAndSpanSampleRates", "mustFloat", "newBatchedEvents", "newConfigAndRules", "newEnvironmentCache", "newFileConfig", "newPeerCommand", "newStressReliefMessage", "parseFractionalEpoch", "peerCommand.marshal", "peerCommand.unmarshal", "populateConfigContents", "publicAddr", "randStringBytes", "recycleHTTPBodyBuffer", "registerCustomTraceService", "selectIPFromAddrs", "setCompareOperators", "setCompareOperators$1", "setCompareOperators$10", "setCompareOperators$11", "setCompareOperators$12", "setCompareOperators$13", "setCompareOperators$14", "setCompareOperators$15", "setCompareOperators$16", "setCompareOperators$17", "setCompareOperators$18", "setCompareOperators$19", "setCompareOperators$2", "setCompareOperators$20", "setCompareOperators$3", "setCompareOperators$4", "setCompareOperators$5", "setCompareOperators$6", "setCompareOperators$7", "setCompareOperators$8", "setCompareOperators$9", "setInBasedOperators", "setInBasedOperators$1", "setInBasedOperators$2", "setInBasedOperators$3", "setInBasedOperators$4", "setMatchStringBasedOperators", "setMatchStringBasedOperators$1", "setMatchStringBasedOperators$2", "setMatchStringBasedOperators$3", "setRegexStringMatchOperator", "setRegexStringMatchOperator$1", "statusRecorder.WriteHeader", "stressReliefMessage.String", "translatedTraceServiceRequest.ProtoMessage", "translatedTraceServiceRequest.Reset", "translatedTraceServiceRequest.String", "translatedTraceServiceRequest.Unmarshal", "tryConvertToFloat", "tryConvertToInt", "unmarshal", "unmarshalStressReliefMessage", "validateConfigs", "validateDatatype", "validateRules", "writeYAMLToFile"]
+
+def declaredFields : List Nat := [
+  L.«InMemCollector.Config»,
+  L.«InMemCollector.Logger»,
+  L.«InMemCollector.Clock»,
+  L.«InMemCollector.Tracer»,
+  L.«InMemCollector.Health»,
+  L.«InMemCollector.Sharder»,
+  L.«InMemCollector.Transmission»,
+  L.«InMemCollector.PeerTransmission»,
+  L.«InMemCollector.PubSub»,
+  L.«InMemCollector.Metrics»,
+  L.«InMemCollector.SamplerFactory»,
+  L.«InMemCollector.StressRelief»,
+  L.«InMemCollector.Peers»,
+  L.«InMemCollector.TestMode»,
+  L.«InMemCollector.BlockOnAddSpan»,
+  L.«InMemCollector.workers»,
+  L.«InMemCollector.mutex»,
+  L.«InMemCollector.monitorWG»,
+  L.«InMemCollector.workersWG»,
+  L.«InMemCollector.sendTracesWG»,
+  L.«InMemCollector.reload»,
+  L.«InMemCollector.tracesToSend»,
+  L.«InMemCollector.done»,
+  L.«InMemCollector.hostname»,
+  L.«InMemCollector.memMetricSample»,
+  L.«CollectorWorker.ID»,
+  L.«CollectorWorker.parent»,
+  L.«CollectorWorker.incoming»,
+  L.«CollectorWorker.fromPeer»,
+  L.«CollectorWorker.sendEarly»,
+  L.«CollectorWorker.pause»,
+  L.«CollectorWorker.reload»,
+  L.«CollectorWorker.cache»,
+  L.«CollectorWorker.sampleCache»,
+  L.«CollectorWorker.datasetSamplers»,
+  L.«CollectorWorker.lastCacheSize»,
+  L.«CollectorWorker.localSpansWaiting»,
+  L.«CollectorWorker.localSpanReceived»,
+  L.«CollectorWorker.localSpanProcessed»,
+  L.«CollectorWorker.healthCheckInAt»,
+  L.«StressRelief.RefineryMetrics»,
+  L.«StressRelief.Config»,
+  L.«StressRelief.Logger»,
+  L.«StressRelief.Health»,
+  L.«StressRelief.PubSub»,
+  L.«StressRelief.Peer»,
+  L.«StressRelief.Clock»,
+  L.«StressRelief.Done»,
+  L.«StressRelief.mode»,
+  L.«StressRelief.hostID»,
+  L.«StressRelief.activateLevel»,
+  L.«StressRelief.deactivateLevel»,
+  L.«StressRelief.sampleRate»,
+  L.«StressRelief.upperBound»,
+  L.«StressRelief.overallStressLevel»,
+  L.«StressRelief.reason»,
+  L.«StressRelief.formula»,
+  L.«StressRelief.stressed»,
+  L.«StressRelief.stayOnUntil»,
+  L.«StressRelief.minDuration»,
+  L.«StressRelief.topic»,
+  L.«StressRelief.algorithms»,
+  L.«StressRelief.lock»,
+  L.«StressRelief.stressLevels»,
+  L.«StressRelief.disableStressLevelReport»,
+  L.«CuckooTraceChecker.current»,
+  L.«CuckooTraceChecker.current*»,
+  L.«CuckooTraceChecker.future»,
+  L.«CuckooTraceChecker.future*»,
+  L.«CuckooTraceChecker.mut»,
+  L.«CuckooTraceChecker.capacity»,
+  L.«CuckooTraceChecker.met»,
+  L.«CuckooTraceChecker.addch»,
+  L.«CuckooTraceChecker.done»,
+  L.«CuckooTraceChecker.shutdownWG»,
+  L.«cuckooSentCache.met»,
+  L.«cuckooSentCache.kept»,
+  L.«cuckooSentCache.dropped»,
+  L.«cuckooSentCache.recentDroppedIDs»,
+  L.«cuckooSentCache.cfg»,
+  L.«cuckooSentCache.done»,
+  L.«cuckooSentCache.shutdownWG»,
+  L.«cuckooSentCache.keptReasons»,
+  L.«Router.Config»,
+  L.«Router.Logger»,
+  L.«Router.Health»,
+  L.«Router.HTTPTransport»,
+  L.«Router.UpstreamTransmission»,
+  L.«Router.PeerTransmission»,
+  L.«Router.Sharder»,
+  L.«Router.Collector»,
+  L.«Router.Metrics»,
+  L.«Router.Tracer»,
+  L.«Router.versionStr»,
+  L.«Router.proxyClient»,
+  L.«Router.routerType»,
+  L.«Router.iopLogger»,
+  L.«Router.zstdDecoder»,
+  L.«Router.server»,
+  L.«Router.grpcServer»,
+  L.«Router.doneWG»,
+  L.«Router.donech»,
+  L.«Router.environmentCache»,
+  L.«Router.hsrv»,
+  L.«Router.metricsNames»,
+  L.«environmentCache.mutex»,
+  L.«environmentCache.items»,
+  L.«environmentCache.ttl»,
+  L.«environmentCache.getFn»,
+  L.«eventBatch.mutex»,
+  L.«eventBatch.events»,
+  L.«eventBatch.startTime»,
+  L.«DirectTransmission.Config»,
+  L.«DirectTransmission.Logger»,
+  L.«DirectTransmission.Version»,
+  L.«DirectTransmission.Metrics»,
+  L.«DirectTransmission.Transport»,
+  L.«DirectTransmission.Clock»,
+  L.«DirectTransmission.transmitType»,
+  L.«DirectTransmission.enableCompression»,
+  L.«DirectTransmission.maxBatchSize»,
+  L.«DirectTransmission.batchTimeout»,
+  L.«DirectTransmission.batchSendTimeout»,
+  L.«DirectTransmission.additionalHeaders»,
+  L.«DirectTransmission.eventBatches»,
+  L.«DirectTransmission.batchMutex»,
+  L.«DirectTransmission.dispatchPool»,
+  L.«DirectTransmission.stop»,
+  L.«DirectTransmission.stopWG»,
+  L.«DirectTransmission.httpClient»,
+  L.«DirectTransmission.userAgent»,
+  L.«DirectTransmission.metricKeys»,
+  L.«RedisPubsubPeers.Config»,
+  L.«RedisPubsubPeers.Metrics»,
+  L.«RedisPubsubPeers.Logger»,
+  L.«RedisPubsubPeers.PubSub»,
+  L.«RedisPubsubPeers.Clock»,
+  L.«RedisPubsubPeers.InstanceID»,
+  L.«RedisPubsubPeers.Done»,
+  L.«RedisPubsubPeers.peers»,
+  L.«RedisPubsubPeers.hash»,
+  L.«RedisPubsubPeers.callbacks»,
+  L.«RedisPubsubPeers.sub»,
+  L.«RedisPubsubPeers.topic»,
+  L.«fileConfig.mainConfig»,
+  L.«fileConfig.mainHash»,
+  L.«fileConfig.rulesConfig»,
+  L.«fileConfig.rulesHash»,
+  L.«fileConfig.opts»,
+  L.«fileConfig.callbacks»,
+  L.«fileConfig.mux»,
+  L.«fileConfig.lastLoadTime»,
+  L.«ConfigWatcher.Config»,
+  L.«ConfigWatcher.Logger»,
+  L.«ConfigWatcher.PubSub»,
+  L.«ConfigWatcher.Tracer»,
+  L.«ConfigWatcher.Clock»,
+  L.«ConfigWatcher.subscr»,
+  L.«ConfigWatcher.msgTime»,
+  L.«ConfigWatcher.done»,
+  L.«ConfigWatcher.mut»,
+  L.«ConfigWatcher.topic»,
+  L.«ConfigWatcher.Starter»,
+  L.«ConfigWatcher.Stopper»,
+  L.«MultiMetrics.Config»,
+  L.«MultiMetrics.PromMetrics»,
+  L.«MultiMetrics.OTelMetrics»,
+  L.«MultiMetrics.children»,
+  L.«MultiMetrics.counters»,
+  L.«MultiMetrics.gauges»,
+  L.«MultiMetrics.updowns»,
+  L.«MultiMetrics.stores»,
+  L.«MultiMetrics.metricTypes»]
 
 def accessFacts : List Fact := [
-  ⟨"CollectorWorker.ID", "CollectorWorker.IsHealthy", .read, [], false⟩,
-  ⟨"CollectorWorker.ID", "CollectorWorker.collect", .read, [], false⟩,
-  ⟨"CollectorWorker.ID", "CollectorWorker.processSpan", .read, [], false⟩,
-  ⟨"CollectorWorker.ID", "CollectorWorker.sendExpiredTracesInCache", .read, [], false⟩,
-  ⟨"CollectorWorker.cache", "CollectorWorker.collect", .read, [], false⟩,
-  ⟨"CollectorWorker.cache", "CollectorWorker.processSpan", .read, [], false⟩,
-  ⟨"CollectorWorker.cache", "CollectorWorker.sendExpiredTracesInCache", .read, [], false⟩,
-  ⟨"CollectorWorker.cache", "CollectorWorker.sendTracesEarly", .read, [], false⟩,
-  ⟨"CollectorWorker.datasetSamplers", "CollectorWorker.collect", .write, [], false⟩,
-  ⟨"CollectorWorker.datasetSamplers", "CollectorWorker.makeDecision", .read, [], false⟩,
-  ⟨"CollectorWorker.datasetSamplers", "CollectorWorker.makeDecision", .write, [], false⟩,
-  ⟨"CollectorWorker.fromPeer", "CollectorWorker.addSpanFromPeer", .read, [], false⟩,
-  ⟨"CollectorWorker.fromPeer", "CollectorWorker.collect", .read, [], false⟩,
-  ⟨"CollectorWorker.fromPeer", "InMemCollector.Stop", .read, [], false⟩,
-  ⟨"CollectorWorker.fromPeer", "InMemCollector.monitor", .read, [], false⟩,
-  ⟨"CollectorWorker.healthCheckInAt", "CollectorWorker.IsHealthy", .atomic, [], false⟩,
-  ⟨"CollectorWorker.healthCheckInAt", "CollectorWorker.collect", .atomic, [], false⟩,
-  ⟨"CollectorWorker.incoming", "CollectorWorker.addSpan", .read, [], false⟩,
-  ⟨"CollectorWorker.incoming", "CollectorWorker.collect", .read, [], false⟩,
-  ⟨"CollectorWorker.incoming", "InMemCollector.Stop", .read, [], false⟩,
-  ⟨"CollectorWorker.incoming", "InMemCollector.monitor", .read, [], false⟩,
-  ⟨"CollectorWorker.lastCacheSize", "CollectorWorker.GetCacheSize", .atomic, [], false⟩,
-  ⟨"CollectorWorker.lastCacheSize", "CollectorWorker.collect", .atomic, [], false⟩,
-  ⟨"CollectorWorker.lastCacheSize", "CollectorWorker.sendTracesEarly", .atomic, [], false⟩,
-  ⟨"CollectorWorker.localSpanProcessed", "CollectorWorker.getLastSpanProcessed", .read, [], false⟩,
-  ⟨"CollectorWorker.localSpanProcessed", "CollectorWorker.getLastSpanProcessed", .write, [], false⟩,
-  ⟨"CollectorWorker.localSpanProcessed", "CollectorWorker.processSpan$1", .write, [], false⟩,
-  ⟨"CollectorWorker.localSpanReceived", "CollectorWorker.addSpan", .atomic, [], false⟩,
-  ⟨"CollectorWorker.localSpanReceived", "CollectorWorker.addSpanFromPeer", .atomic, [], false⟩,
-  ⟨"CollectorWorker.localSpanReceived", "InMemCollector.monitor", .atomic, [], false⟩,
-  ⟨"CollectorWorker.localSpansWaiting", "CollectorWorker.addSpan", .atomic, [], false⟩,
-  ⟨"CollectorWorker.localSpansWaiting", "CollectorWorker.addSpanFromPeer", .atomic, [], false⟩,
-  ⟨"CollectorWorker.localSpansWaiting", "CollectorWorker.processSpan$1", .atomic, [], false⟩,
-  ⟨"CollectorWorker.localSpansWaiting", "InMemCollector.monitor", .atomic, [], false⟩,
-  ⟨"CollectorWorker.parent", "CollectorWorker.IsHealthy", .read, [], false⟩,
-  ⟨"CollectorWorker.parent", "CollectorWorker.addSpan", .read, [], false⟩,
-  ⟨"CollectorWorker.parent", "CollectorWorker.addSpanFromPeer", .read, [], false⟩,
-  ⟨"CollectorWorker.parent", "CollectorWorker.collect", .read, [], false⟩,
-  ⟨"CollectorWorker.parent", "CollectorWorker.makeDecision", .read, [], false⟩,
-  ⟨"CollectorWorker.parent", "CollectorWorker.processSpan", .read, [], false⟩,
-  ⟨"CollectorWorker.parent", "CollectorWorker.sendExpiredTracesInCache", .read, [], false⟩,
-  ⟨"CollectorWorker.parent", "CollectorWorker.sendExpiredTracesInCache$1", .read, [], false⟩,
-  ⟨"CollectorWorker.parent", "CollectorWorker.sendTracesEarly", .read, [], false⟩,
-  ⟨"CollectorWorker.pause", "CollectorWorker.collect", .read, [], false⟩,
-  ⟨"CollectorWorker.reload", "CollectorWorker.collect", .read, [], false⟩,
-  ⟨"CollectorWorker.reload", "InMemCollector.reloadConfigs", .read, [], false⟩,
-  ⟨"CollectorWorker.sampleCache", "CollectorWorker.Stop", .read, [], false⟩,
-  ⟨"CollectorWorker.sampleCache", "CollectorWorker.collect", .read, [], false⟩,
-  ⟨"CollectorWorker.sampleCache", "CollectorWorker.makeDecision", .read, [], false⟩,
-  ⟨"CollectorWorker.sampleCache", "CollectorWorker.processSpan", .read, [], false⟩,
-  ⟨"CollectorWorker.sampleCache", "InMemCollector.ProcessSpanImmediately", .read, [], false⟩,
-  ⟨"CollectorWorker.sendEarly", "CollectorWorker.collect", .read, [], false⟩,
-  ⟨"CollectorWorker.sendEarly", "InMemCollector.checkAlloc", .read, [], false⟩,
-  ⟨"ConfigWatcher.Config", "ConfigWatcher.ReloadCallback", .read, [], false⟩,
-  ⟨"ConfigWatcher.Config", "ConfigWatcher.Start", .read, [], false⟩,
-  ⟨"ConfigWatcher.Config", "ConfigWatcher.SubscriptionListener", .read, [], false⟩,
-  ⟨"ConfigWatcher.Config", "ConfigWatcher.monitor", .read, [], false⟩,
-  ⟨"ConfigWatcher.Logger", "ConfigWatcher.SubscriptionListener", .read, [], false⟩,
-  ⟨"ConfigWatcher.Logger", "ConfigWatcher.monitor", .read, [], false⟩,
-  ⟨"ConfigWatcher.PubSub", "ConfigWatcher.ReloadCallback", .read, [], false⟩,
-  ⟨"ConfigWatcher.PubSub", "ConfigWatcher.Start", .read, [], false⟩,
-  ⟨"ConfigWatcher.Tracer", "ConfigWatcher.ReloadCallback", .read, [], false⟩,
-  ⟨"ConfigWatcher.Tracer", "ConfigWatcher.Start", .read, [], false⟩,
-  ⟨"ConfigWatcher.Tracer", "ConfigWatcher.Start", .write, [], false⟩,
-  ⟨"ConfigWatcher.Tracer", "ConfigWatcher.SubscriptionListener", .read, [], false⟩,
-  ⟨"ConfigWatcher.done", "ConfigWatcher.Stop", .read, [], false⟩,
-  ⟨"ConfigWatcher.done", "ConfigWatcher.monitor", .read, [], false⟩,
-  ⟨"ConfigWatcher.done", "ConfigWatcher.monitor", .write, [], false⟩,
-  ⟨"ConfigWatcher.msgTime", "ConfigWatcher.ReloadCallback", .read, [("ConfigWatcher.mut", .sh)], false⟩,
-  ⟨"ConfigWatcher.msgTime", "ConfigWatcher.SubscriptionListener", .write, [("ConfigWatcher.mut", .ex)], false⟩,
-  ⟨"ConfigWatcher.mut", "ConfigWatcher.ReloadCallback", .atomic, [("ConfigWatcher.mut", .sh)], false⟩,
-  ⟨"ConfigWatcher.mut", "ConfigWatcher.ReloadCallback", .atomic, [], false⟩,
-  ⟨"ConfigWatcher.mut", "ConfigWatcher.SubscriptionListener", .atomic, [("ConfigWatcher.mut", .ex)], false⟩,
-  ⟨"ConfigWatcher.mut", "ConfigWatcher.SubscriptionListener", .atomic, [], false⟩,
-  ⟨"ConfigWatcher.subscr", "ConfigWatcher.Start", .write, [], false⟩,
-  ⟨"ConfigWatcher.subscr", "ConfigWatcher.Stop", .read, [], false⟩,
-  ⟨"ConfigWatcher.topic", "ConfigWatcher.ReloadCallback", .read, [], false⟩,
-  ⟨"ConfigWatcher.topic", "ConfigWatcher.Start", .read, [], false⟩,
-  ⟨"ConfigWatcher.topic", "ConfigWatcher.Start", .write, [], false⟩,
-  ⟨"CuckooTraceChecker.addch", "CuckooTraceChecker.Add", .read, [], false⟩,
-  ⟨"CuckooTraceChecker.addch", "CuckooTraceChecker.Stop", .read, [], false⟩,
-  ⟨"CuckooTraceChecker.addch", "CuckooTraceChecker.drain", .read, [("CuckooTraceChecker.mut", .ex)], false⟩,
-  ⟨"CuckooTraceChecker.addch", "CuckooTraceChecker.drain", .read, [], false⟩,
-  ⟨"CuckooTraceChecker.addch", "NewCuckooTraceChecker$1", .read, [], false⟩,
-  ⟨"CuckooTraceChecker.capacity", "CuckooTraceChecker.Maintain", .read, [("CuckooTraceChecker.mut", .ex)], false⟩,
-  ⟨"CuckooTraceChecker.capacity", "CuckooTraceChecker.Maintain", .read, [("CuckooTraceChecker.mut", .sh)], false⟩,
-  ⟨"CuckooTraceChecker.capacity", "CuckooTraceChecker.SetNextCapacity", .write, [("CuckooTraceChecker.mut", .ex)], false⟩,
-  ⟨"CuckooTraceChecker.current", "CuckooTraceChecker.Check", .read, [("CuckooTraceChecker.mut", .sh)], false⟩,
-  ⟨"CuckooTraceChecker.current", "CuckooTraceChecker.Maintain", .read, [("CuckooTraceChecker.mut", .sh)], false⟩,
-  ⟨"CuckooTraceChecker.current", "CuckooTraceChecker.Maintain", .write, [("CuckooTraceChecker.mut", .ex)], false⟩,
-  ⟨"CuckooTraceChecker.current", "CuckooTraceChecker.drain", .read, [("CuckooTraceChecker.mut", .ex)], false⟩,
-  ⟨"CuckooTraceChecker.current*", "CuckooTraceChecker.Check", .read, [("CuckooTraceChecker.mut", .sh)], false⟩,
-  ⟨"CuckooTraceChecker.current*", "CuckooTraceChecker.Maintain", .read, [("CuckooTraceChecker.mut", .sh)], false⟩,
-  ⟨"CuckooTraceChecker.current*", "CuckooTraceChecker.drain", .write, [("CuckooTraceChecker.mut", .ex)], false⟩,
-  ⟨"CuckooTraceChecker.done", "CuckooTraceChecker.Stop", .read, [], false⟩,
-  ⟨"CuckooTraceChecker.done", "NewCuckooTraceChecker$1", .read, [], false⟩,
-  ⟨"CuckooTraceChecker.future", "CuckooTraceChecker.Maintain", .read, [("CuckooTraceChecker.mut", .ex)], false⟩,
-  ⟨"CuckooTraceChecker.future", "CuckooTraceChecker.Maintain", .read, [("CuckooTraceChecker.mut", .sh)], false⟩,
-  ⟨"CuckooTraceChecker.future", "CuckooTraceChecker.Maintain", .read, [], false⟩,
-  ⟨"CuckooTraceChecker.future", "CuckooTraceChecker.Maintain", .write, [("CuckooTraceChecker.mut", .ex)], false⟩,
-  ⟨"CuckooTraceChecker.future", "CuckooTraceChecker.drain", .read, [("CuckooTraceChecker.mut", .ex)], false⟩,
-  ⟨"CuckooTraceChecker.future*", "CuckooTraceChecker.Maintain", .read, [("CuckooTraceChecker.mut", .sh)], false⟩,
-  ⟨"CuckooTraceChecker.future*", "CuckooTraceChecker.drain", .write, [("CuckooTraceChecker.mut", .ex)], false⟩,
-  ⟨"CuckooTraceChecker.met", "CuckooTraceChecker.Add", .read, [], false⟩,
-  ⟨"CuckooTraceChecker.met", "CuckooTraceChecker.Maintain", .read, [("CuckooTraceChecker.mut", .sh)], false⟩,
-  ⟨"CuckooTraceChecker.met", "CuckooTraceChecker.drain", .read, [], false⟩,
-  ⟨"CuckooTraceChecker.mut", "CuckooTraceChecker.Check", .atomic, [("CuckooTraceChecker.mut", .sh)], false⟩,
-  ⟨"CuckooTraceChecker.mut", "CuckooTraceChecker.Check", .atomic, [], false⟩,
-  ⟨"CuckooTraceChecker.mut", "CuckooTraceChecker.Maintain", .atomic, [("CuckooTraceChecker.mut", .ex)], false⟩,
-  ⟨"CuckooTraceChecker.mut", "CuckooTraceChecker.Maintain", .atomic, [("CuckooTraceChecker.mut", .sh)], false⟩,
-  ⟨"CuckooTraceChecker.mut", "CuckooTraceChecker.Maintain", .atomic, [], false⟩,
-  ⟨"CuckooTraceChecker.mut", "CuckooTraceChecker.SetNextCapacity", .atomic, [("CuckooTraceChecker.mut", .ex)], false⟩,
-  ⟨"CuckooTraceChecker.mut", "CuckooTraceChecker.SetNextCapacity", .atomic, [], false⟩,
-  ⟨"CuckooTraceChecker.mut", "CuckooTraceChecker.drain", .atomic, [("CuckooTraceChecker.mut", .ex)], false⟩,
-  ⟨"CuckooTraceChecker.mut", "CuckooTraceChecker.drain", .atomic, [], false⟩,
-  ⟨"CuckooTraceChecker.shutdownWG", "CuckooTraceChecker.Stop", .atomic, [], false⟩,
-  ⟨"CuckooTraceChecker.shutdownWG", "NewCuckooTraceChecker", .atomic, [], true⟩,
-  ⟨"CuckooTraceChecker.shutdownWG", "NewCuckooTraceChecker$1", .atomic, [], false⟩,
-  ⟨"DirectTransmission.Clock", "DirectTransmission.EnqueueEvent", .read, [], false⟩,
-  ⟨"DirectTransmission.Clock", "DirectTransmission.dispatchStaleBatches", .read, [], false⟩,
-  ⟨"DirectTransmission.Clock", "DirectTransmission.sendBatch", .read, [], false⟩,
-  ⟨"DirectTransmission.Config", "DirectTransmission.handleError", .read, [], false⟩,
-  ⟨"DirectTransmission.Logger", "DirectTransmission.EnqueueEvent", .read, [], false⟩,
-  ⟨"DirectTransmission.Logger", "DirectTransmission.Start", .read, [], false⟩,
-  ⟨"DirectTransmission.Logger", "DirectTransmission.handleError", .read, [], false⟩,
-  ⟨"DirectTransmission.Logger", "DirectTransmission.sendBatch", .read, [], false⟩,
-  ⟨"DirectTransmission.Metrics", "DirectTransmission.EnqueueEvent", .read, [], false⟩,
-  ⟨"DirectTransmission.Metrics", "DirectTransmission.dispatchStaleBatches", .read, [], false⟩,
-  ⟨"DirectTransmission.Metrics", "DirectTransmission.handleBatchFailure", .read, [], false⟩,
-  ⟨"DirectTransmission.Metrics", "DirectTransmission.handleEventError", .read, [], false⟩,
-  ⟨"DirectTransmission.Metrics", "DirectTransmission.registerMetrics", .read, [], false⟩,
-  ⟨"DirectTransmission.Metrics", "DirectTransmission.sendBatch", .read, [], false⟩,
-  ⟨"DirectTransmission.Transport", "DirectTransmission.Start", .read, [], false⟩,
-  ⟨"DirectTransmission.Version", "DirectTransmission.Start", .read, [], false⟩,
-  ⟨"DirectTransmission.additionalHeaders", "DirectTransmission.sendBatch", .read, [], false⟩,
-  ⟨"DirectTransmission.batchMutex", "DirectTransmission.EnqueueEvent", .atomic, [("DirectTransmission.batchMutex", .ex)], false⟩,
-  ⟨"DirectTransmission.batchMutex", "DirectTransmission.EnqueueEvent", .atomic, [("DirectTransmission.batchMutex", .sh)], false⟩,
-  ⟨"DirectTransmission.batchMutex", "DirectTransmission.EnqueueEvent", .atomic, [], false⟩,
-  ⟨"DirectTransmission.batchMutex", "DirectTransmission.dispatchStaleBatches", .atomic, [("DirectTransmission.batchMutex", .sh)], false⟩,
-  ⟨"DirectTransmission.batchMutex", "DirectTransmission.dispatchStaleBatches", .atomic, [], false⟩,
-  ⟨"DirectTransmission.batchSendTimeout", "DirectTransmission.Start", .read, [], false⟩,
-  ⟨"DirectTransmission.batchTimeout", "DirectTransmission.dispatchStaleBatches", .read, [], false⟩,
-  ⟨"DirectTransmission.dispatchPool", "DirectTransmission.EnqueueEvent", .read, [], false⟩,
-  ⟨"DirectTransmission.dispatchPool", "DirectTransmission.Start", .write, [], false⟩,
-  ⟨"DirectTransmission.dispatchPool", "DirectTransmission.Stop", .read, [], false⟩,
-  ⟨"DirectTransmission.dispatchPool", "DirectTransmission.Stop", .write, [], false⟩,
-  ⟨"DirectTransmission.dispatchPool", "DirectTransmission.dispatchStaleBatches", .read, [], false⟩,
-  ⟨"DirectTransmission.enableCompression", "DirectTransmission.sendBatch", .read, [], false⟩,
-  ⟨"DirectTransmission.eventBatches", "DirectTransmission.EnqueueEvent", .read, [("DirectTransmission.batchMutex", .ex)], false⟩,
-  ⟨"DirectTransmission.eventBatches", "DirectTransmission.EnqueueEvent", .read, [("DirectTransmission.batchMutex", .sh)], false⟩,
-  ⟨"DirectTransmission.eventBatches", "DirectTransmission.EnqueueEvent", .write, [("DirectTransmission.batchMutex", .ex)], false⟩,
-  ⟨"DirectTransmission.eventBatches", "DirectTransmission.Stop", .read, [], false⟩,
-  ⟨"DirectTransmission.eventBatches", "DirectTransmission.Stop", .write, [], false⟩,
-  ⟨"DirectTransmission.eventBatches", "DirectTransmission.dispatchStaleBatches", .read, [("DirectTransmission.batchMutex", .sh)], false⟩,
-  ⟨"DirectTransmission.httpClient", "DirectTransmission.Start", .write, [], false⟩,
-  ⟨"DirectTransmission.httpClient", "DirectTransmission.sendBatch", .read, [], false⟩,
-  ⟨"DirectTransmission.maxBatchSize", "DirectTransmission.EnqueueEvent", .read, [], false⟩,
-  ⟨"DirectTransmission.metricKeys", "DirectTransmission.EnqueueEvent", .read, [], false⟩,
-  ⟨"DirectTransmission.metricKeys", "DirectTransmission.dispatchStaleBatches", .read, [], false⟩,
-  ⟨"DirectTransmission.metricKeys", "DirectTransmission.handleBatchFailure", .read, [], false⟩,
-  ⟨"DirectTransmission.metricKeys", "DirectTransmission.handleEventError", .read, [], false⟩,
-  ⟨"DirectTransmission.metricKeys", "DirectTransmission.registerMetrics", .write, [], false⟩,
-  ⟨"DirectTransmission.metricKeys", "DirectTransmission.sendBatch", .read, [], false⟩,
-  ⟨"DirectTransmission.stop", "DirectTransmission.Stop", .read, [], false⟩,
-  ⟨"DirectTransmission.stop", "DirectTransmission.Stop", .write, [], false⟩,
-  ⟨"DirectTransmission.stop", "DirectTransmission.dispatchStaleBatches", .read, [], false⟩,
-  ⟨"DirectTransmission.stopWG", "DirectTransmission.Start", .atomic, [], false⟩,
-  ⟨"DirectTransmission.stopWG", "DirectTransmission.Stop", .atomic, [], false⟩,
-  ⟨"DirectTransmission.stopWG", "DirectTransmission.dispatchStaleBatches", .atomic, [], false⟩,
-  ⟨"DirectTransmission.transmitType", "DirectTransmission.Start", .read, [], false⟩,
-  ⟨"DirectTransmission.transmitType", "DirectTransmission.registerMetrics", .read, [], false⟩,
-  ⟨"DirectTransmission.userAgent", "DirectTransmission.Start", .write, [], false⟩,
-  ⟨"DirectTransmission.userAgent", "DirectTransmission.sendBatch", .read, [], false⟩,
-  ⟨"InMemCollector.BlockOnAddSpan", "CollectorWorker.addSpan", .read, [], false⟩,
-  ⟨"InMemCollector.BlockOnAddSpan", "CollectorWorker.addSpanFromPeer", .read, [], false⟩,
-  ⟨"InMemCollector.Clock", "CollectorWorker.collect", .read, [], false⟩,
-  ⟨"InMemCollector.Clock", "CollectorWorker.makeDecision", .read, [], false⟩,
-  ⟨"InMemCollector.Clock", "CollectorWorker.processSpan", .read, [], false⟩,
-  ⟨"InMemCollector.Clock", "CollectorWorker.sendExpiredTracesInCache", .read, [], false⟩,
-  ⟨"InMemCollector.Clock", "CollectorWorker.sendExpiredTracesInCache$1", .read, [], false⟩,
-  ⟨"InMemCollector.Clock", "InMemCollector.ProcessSpanImmediately", .read, [], false⟩,
-  ⟨"InMemCollector.Clock", "InMemCollector.isReady", .read, [], false⟩,
-  ⟨"InMemCollector.Clock", "InMemCollector.monitor", .read, [], false⟩,
-  ⟨"InMemCollector.Clock", "InMemCollector.send", .read, [], false⟩,
-  ⟨"InMemCollector.Config", "CollectorWorker.collect", .read, [], false⟩,
-  ⟨"InMemCollector.Config", "CollectorWorker.makeDecision", .read, [], false⟩,
-  ⟨"InMemCollector.Config", "CollectorWorker.processSpan", .read, [], false⟩,
-  ⟨"InMemCollector.Config", "CollectorWorker.sendExpiredTracesInCache", .read, [], false⟩,
-  ⟨"InMemCollector.Config", "CollectorWorker.sendTracesEarly", .read, [], false⟩,
-  ⟨"InMemCollector.Config", "InMemCollector.ProcessSpanImmediately", .read, [], false⟩,
-  ⟨"InMemCollector.Config", "InMemCollector.Start", .read, [], false⟩,
-  ⟨"InMemCollector.Config", "InMemCollector.addAdditionalAttributes", .read, [], false⟩,
-  ⟨"InMemCollector.Config", "InMemCollector.checkAlloc", .read, [], false⟩,
-  ⟨"InMemCollector.Config", "InMemCollector.dealWithSentTrace", .read, [], false⟩,
-  ⟨"InMemCollector.Config", "InMemCollector.isReady", .read, [], false⟩,
-  ⟨"InMemCollector.Config", "InMemCollector.monitor", .read, [], false⟩,
-  ⟨"InMemCollector.Config", "InMemCollector.send", .read, [], false⟩,
-  ⟨"InMemCollector.Config", "InMemCollector.sendTraces", .read, [], false⟩,
-  ⟨"InMemCollector.Config", "NewCollectorWorker", .read, [], false⟩,
-  ⟨"InMemCollector.Health", "InMemCollector.Start", .read, [], false⟩,
-  ⟨"InMemCollector.Health", "InMemCollector.Stop", .read, [], false⟩,
-  ⟨"InMemCollector.Health", "InMemCollector.monitor", .read, [], false⟩,
-  ⟨"InMemCollector.Logger", "CollectorWorker.IsHealthy", .read, [], false⟩,
-  ⟨"InMemCollector.Logger", "CollectorWorker.makeDecision", .read, [], false⟩,
-  ⟨"InMemCollector.Logger", "InMemCollector.Start", .read, [], false⟩,
-  ⟨"InMemCollector.Logger", "InMemCollector.Start$1", .read, [], false⟩,
-  ⟨"InMemCollector.Logger", "InMemCollector.Stop", .read, [], false⟩,
-  ⟨"InMemCollector.Logger", "InMemCollector.checkAlloc", .read, [], false⟩,
-  ⟨"InMemCollector.Logger", "InMemCollector.dealWithSentTrace", .read, [], false⟩,
-  ⟨"InMemCollector.Logger", "InMemCollector.reloadConfigs", .read, [], false⟩,
-  ⟨"InMemCollector.Logger", "InMemCollector.send", .read, [], false⟩,
-  ⟨"InMemCollector.Logger", "InMemCollector.sendReloadSignal", .read, [], false⟩,
-  ⟨"InMemCollector.Logger", "NewCollectorWorker", .read, [], false⟩,
-  ⟨"InMemCollector.Metrics", "CollectorWorker.collect", .read, [], false⟩,
-  ⟨"InMemCollector.Metrics", "CollectorWorker.makeDecision", .read, [], false⟩,
-  ⟨"InMemCollector.Metrics", "CollectorWorker.processSpan", .read, [], false⟩,
-  ⟨"InMemCollector.Metrics", "CollectorWorker.sendExpiredTracesInCache$1", .read, [], false⟩,
-  ⟨"InMemCollector.Metrics", "InMemCollector.ProcessSpanImmediately", .read, [], false⟩,
-  ⟨"InMemCollector.Metrics", "InMemCollector.Start", .read, [], false⟩,
-  ⟨"InMemCollector.Metrics", "InMemCollector.checkAlloc", .read, [], false⟩,
-  ⟨"InMemCollector.Metrics", "InMemCollector.dealWithSentTrace", .read, [], false⟩,
-  ⟨"InMemCollector.Metrics", "InMemCollector.monitor", .read, [], false⟩,
-  ⟨"InMemCollector.Metrics", "InMemCollector.send", .read, [], false⟩,
-  ⟨"InMemCollector.Metrics", "InMemCollector.sendTraces", .read, [], false⟩,
-  ⟨"InMemCollector.Metrics", "NewCollectorWorker", .read, [], false⟩,
-  ⟨"InMemCollector.SamplerFactory", "CollectorWorker.makeDecision", .read, [], false⟩,
-  ⟨"InMemCollector.SamplerFactory", "InMemCollector.reloadConfigs", .read, [], false⟩,
-  ⟨"InMemCollector.Sharder", "InMemCollector.IsMyTrace", .read, [], false⟩,
-  ⟨"InMemCollector.StressRelief", "InMemCollector.GetStressedSampleRate", .read, [], false⟩,
-  ⟨"InMemCollector.StressRelief", "InMemCollector.ProcessSpanImmediately", .read, [], false⟩,
-  ⟨"InMemCollector.StressRelief", "InMemCollector.Start", .read, [], false⟩,
-  ⟨"InMemCollector.StressRelief", "InMemCollector.Stressed", .read, [], false⟩,
-  ⟨"InMemCollector.StressRelief", "InMemCollector.reloadConfigs", .read, [], false⟩,
-  ⟨"InMemCollector.Tracer", "CollectorWorker.collect", .read, [], false⟩,
-  ⟨"InMemCollector.Tracer", "CollectorWorker.makeDecision", .read, [], false⟩,
-  ⟨"InMemCollector.Tracer", "CollectorWorker.processSpan", .read, [], false⟩,
-  ⟨"InMemCollector.Tracer", "CollectorWorker.sendExpiredTracesInCache", .read, [], false⟩,
-  ⟨"InMemCollector.Tracer", "InMemCollector.ProcessSpanImmediately", .read, [], false⟩,
-  ⟨"InMemCollector.Tracer", "InMemCollector.dealWithSentTrace", .read, [], false⟩,
-  ⟨"InMemCollector.Tracer", "InMemCollector.send", .read, [], false⟩,
-  ⟨"InMemCollector.Tracer", "InMemCollector.sendTraces", .read, [], false⟩,
-  ⟨"InMemCollector.Transmission", "InMemCollector.ProcessSpanImmediately", .read, [], false⟩,
-  ⟨"InMemCollector.Transmission", "InMemCollector.dealWithSentTrace", .read, [], false⟩,
-  ⟨"InMemCollector.Transmission", "InMemCollector.sendTraces", .read, [], false⟩,
-  ⟨"InMemCollector.done", "InMemCollector.Start", .write, [], false⟩,
-  ⟨"InMemCollector.done", "InMemCollector.Stop", .read, [], false⟩,
-  ⟨"InMemCollector.done", "InMemCollector.monitor", .read, [], false⟩,
-  ⟨"InMemCollector.hostname", "InMemCollector.ProcessSpanImmediately", .read, [], false⟩,
-  ⟨"InMemCollector.hostname", "InMemCollector.Start", .write, [], false⟩,
-  ⟨"InMemCollector.hostname", "InMemCollector.dealWithSentTrace", .read, [], false⟩,
-  ⟨"InMemCollector.hostname", "InMemCollector.sendTraces", .read, [], false⟩,
-  ⟨"InMemCollector.memMetricSample", "InMemCollector.Start", .write, [], false⟩,
-  ⟨"InMemCollector.memMetricSample", "InMemCollector.checkAlloc", .read, [], false⟩,
-  ⟨"InMemCollector.monitorWG", "InMemCollector.Start", .atomic, [], false⟩,
-  ⟨"InMemCollector.monitorWG", "InMemCollector.Stop", .atomic, [], false⟩,
-  ⟨"InMemCollector.monitorWG", "InMemCollector.monitor", .atomic, [], false⟩,
-  ⟨"InMemCollector.reload", "InMemCollector.Start", .write, [], false⟩,
-  ⟨"InMemCollector.reload", "InMemCollector.monitor", .read, [], false⟩,
-  ⟨"InMemCollector.reload", "InMemCollector.sendReloadSignal", .read, [], false⟩,
-  ⟨"InMemCollector.sendTracesWG", "InMemCollector.Start", .atomic, [], false⟩,
-  ⟨"InMemCollector.sendTracesWG", "InMemCollector.Stop", .atomic, [], false⟩,
-  ⟨"InMemCollector.sendTracesWG", "InMemCollector.sendTraces", .atomic, [], false⟩,
-  ⟨"InMemCollector.tracesToSend", "InMemCollector.Start", .write, [], false⟩,
-  ⟨"InMemCollector.tracesToSend", "InMemCollector.Stop", .read, [], false⟩,
-  ⟨"InMemCollector.tracesToSend", "InMemCollector.send", .read, [], false⟩,
-  ⟨"InMemCollector.tracesToSend", "InMemCollector.sendTraces", .read, [], false⟩,
-  ⟨"InMemCollector.workers", "InMemCollector.AddSpan", .read, [], false⟩,
-  ⟨"InMemCollector.workers", "InMemCollector.AddSpanFromPeer", .read, [], false⟩,
-  ⟨"InMemCollector.workers", "InMemCollector.ProcessSpanImmediately", .read, [], false⟩,
-  ⟨"InMemCollector.workers", "InMemCollector.Start", .read, [], false⟩,
-  ⟨"InMemCollector.workers", "InMemCollector.Start", .write, [], false⟩,
-  ⟨"InMemCollector.workers", "InMemCollector.Stop", .read, [], false⟩,
-  ⟨"InMemCollector.workers", "InMemCollector.checkAlloc", .read, [], false⟩,
-  ⟨"InMemCollector.workers", "InMemCollector.getWorkerIDForTrace", .read, [], false⟩,
-  ⟨"InMemCollector.workers", "InMemCollector.isReady", .read, [], false⟩,
-  ⟨"InMemCollector.workers", "InMemCollector.monitor", .read, [], false⟩,
-  ⟨"InMemCollector.workers", "InMemCollector.reloadConfigs", .read, [], false⟩,
-  ⟨"InMemCollector.workersWG", "CollectorWorker.collect", .atomic, [], false⟩,
-  ⟨"InMemCollector.workersWG", "InMemCollector.Start", .atomic, [], false⟩,
-  ⟨"InMemCollector.workersWG", "InMemCollector.Stop", .atomic, [], false⟩,
-  ⟨"MultiMetrics.Config", "MultiMetrics.Start", .read, [], false⟩,
-  ⟨"MultiMetrics.OTelMetrics", "MultiMetrics.Start", .read, [], false⟩,
-  ⟨"MultiMetrics.PromMetrics", "MultiMetrics.Start", .read, [], false⟩,
-  ⟨"MultiMetrics.children", "MultiMetrics.AddChild", .read, [], false⟩,
-  ⟨"MultiMetrics.children", "MultiMetrics.AddChild", .write, [], false⟩,
-  ⟨"MultiMetrics.children", "MultiMetrics.Children", .read, [], false⟩,
-  ⟨"MultiMetrics.children", "MultiMetrics.Count", .read, [], false⟩,
-  ⟨"MultiMetrics.children", "MultiMetrics.Down", .read, [], false⟩,
-  ⟨"MultiMetrics.children", "MultiMetrics.Gauge", .read, [], false⟩,
-  ⟨"MultiMetrics.children", "MultiMetrics.Histogram", .read, [], false⟩,
-  ⟨"MultiMetrics.children", "MultiMetrics.Increment", .read, [], false⟩,
-  ⟨"MultiMetrics.children", "MultiMetrics.Register", .read, [], false⟩,
-  ⟨"MultiMetrics.children", "MultiMetrics.Up", .read, [], false⟩,
-  ⟨"MultiMetrics.counters", "MultiMetrics.Count", .atomic, [], false⟩,
-  ⟨"MultiMetrics.counters", "MultiMetrics.Get", .atomic, [], false⟩,
-  ⟨"MultiMetrics.counters", "MultiMetrics.Increment", .atomic, [], false⟩,
-  ⟨"MultiMetrics.counters", "MultiMetrics.Register", .atomic, [], false⟩,
-  ⟨"MultiMetrics.gauges", "MultiMetrics.Gauge", .atomic, [], false⟩,
-  ⟨"MultiMetrics.gauges", "MultiMetrics.Get", .atomic, [], false⟩,
-  ⟨"MultiMetrics.gauges", "MultiMetrics.Register", .atomic, [], false⟩,
-  ⟨"MultiMetrics.metricTypes", "MultiMetrics.Get", .atomic, [], false⟩,
-  ⟨"MultiMetrics.metricTypes", "MultiMetrics.Register", .atomic, [], false⟩,
-  ⟨"MultiMetrics.stores", "MultiMetrics.Get", .atomic, [], false⟩,
-  ⟨"MultiMetrics.stores", "MultiMetrics.Store", .atomic, [], false⟩,
-  ⟨"MultiMetrics.updowns", "MultiMetrics.Down", .atomic, [], false⟩,
-  ⟨"MultiMetrics.updowns", "MultiMetrics.Get", .atomic, [], false⟩,
-  ⟨"MultiMetrics.updowns", "MultiMetrics.Register", .atomic, [], false⟩,
-  ⟨"MultiMetrics.updowns", "MultiMetrics.Up", .atomic, [], false⟩,
-  ⟨"RedisPubsubPeers.Clock", "RedisPubsubPeers.Ready$1", .read, [], false⟩,
-  ⟨"RedisPubsubPeers.Config", "RedisPubsubPeers.GetInstanceID", .read, [], false⟩,
-  ⟨"RedisPubsubPeers.Config", "RedisPubsubPeers.GetPeers", .read, [], false⟩,
-  ⟨"RedisPubsubPeers.Config", "RedisPubsubPeers.Ready", .read, [], false⟩,
-  ⟨"RedisPubsubPeers.Config", "RedisPubsubPeers.Ready$1", .read, [], false⟩,
-  ⟨"RedisPubsubPeers.Config", "RedisPubsubPeers.Start", .read, [], false⟩,
-  ⟨"RedisPubsubPeers.Config", "RedisPubsubPeers.stop", .read, [], false⟩,
-  ⟨"RedisPubsubPeers.Done", "RedisPubsubPeers.Ready$1", .read, [], false⟩,
-  ⟨"RedisPubsubPeers.InstanceID", "RedisPubsubPeers.Ready$1", .read, [], false⟩,
-  ⟨"RedisPubsubPeers.InstanceID", "RedisPubsubPeers.Start", .read, [], false⟩,
-  ⟨"RedisPubsubPeers.InstanceID", "RedisPubsubPeers.stop", .read, [], false⟩,
-  ⟨"RedisPubsubPeers.Logger", "RedisPubsubPeers.GetInstanceID", .read, [], false⟩,
-  ⟨"RedisPubsubPeers.Logger", "RedisPubsubPeers.GetPeers", .read, [], false⟩,
-  ⟨"RedisPubsubPeers.Logger", "RedisPubsubPeers.Ready", .read, [], false⟩,
-  ⟨"RedisPubsubPeers.Logger", "RedisPubsubPeers.Ready$1", .read, [], false⟩,
-  ⟨"RedisPubsubPeers.Logger", "RedisPubsubPeers.Start", .read, [], false⟩,
-  ⟨"RedisPubsubPeers.Logger", "RedisPubsubPeers.Start", .write, [], false⟩,
-  ⟨"RedisPubsubPeers.Logger", "RedisPubsubPeers.stop", .read, [], false⟩,
-  ⟨"RedisPubsubPeers.Metrics", "RedisPubsubPeers.Start", .read, [], false⟩,
-  ⟨"RedisPubsubPeers.Metrics", "RedisPubsubPeers.Start", .write, [], false⟩,
-  ⟨"RedisPubsubPeers.Metrics", "RedisPubsubPeers.checkHash", .read, [], false⟩,
-  ⟨"RedisPubsubPeers.Metrics", "RedisPubsubPeers.listen", .read, [], false⟩,
-  ⟨"RedisPubsubPeers.PubSub", "RedisPubsubPeers.Ready$1", .read, [], false⟩,
-  ⟨"RedisPubsubPeers.PubSub", "RedisPubsubPeers.Start", .read, [], false⟩,
-  ⟨"RedisPubsubPeers.PubSub", "RedisPubsubPeers.stop", .read, [], false⟩,
-  ⟨"RedisPubsubPeers.callbacks", "RedisPubsubPeers.RegisterUpdatedPeersCallback", .read, [], false⟩,
-  ⟨"RedisPubsubPeers.callbacks", "RedisPubsubPeers.RegisterUpdatedPeersCallback", .write, [], false⟩,
-  ⟨"RedisPubsubPeers.callbacks", "RedisPubsubPeers.Start", .write, [], false⟩,
-  ⟨"RedisPubsubPeers.callbacks", "RedisPubsubPeers.checkHash", .read, [], false⟩,
-  ⟨"RedisPubsubPeers.hash", "RedisPubsubPeers.Ready$1", .read, [], false⟩,
-  ⟨"RedisPubsubPeers.hash", "RedisPubsubPeers.checkHash", .read, [], false⟩,
-  ⟨"RedisPubsubPeers.hash", "RedisPubsubPeers.checkHash", .write, [], false⟩,
-  ⟨"RedisPubsubPeers.peers", "RedisPubsubPeers.GetPeers", .read, [], false⟩,
-  ⟨"RedisPubsubPeers.peers", "RedisPubsubPeers.Ready$1", .read, [], false⟩,
-  ⟨"RedisPubsubPeers.peers", "RedisPubsubPeers.Start", .read, [], false⟩,
-  ⟨"RedisPubsubPeers.peers", "RedisPubsubPeers.Start", .write, [], false⟩,
-  ⟨"RedisPubsubPeers.peers", "RedisPubsubPeers.checkHash", .read, [], false⟩,
-  ⟨"RedisPubsubPeers.peers", "RedisPubsubPeers.listen", .read, [], false⟩,
-  ⟨"RedisPubsubPeers.sub", "RedisPubsubPeers.Start", .write, [], false⟩,
-  ⟨"RedisPubsubPeers.topic", "RedisPubsubPeers.Ready$1", .read, [], false⟩,
-  ⟨"RedisPubsubPeers.topic", "RedisPubsubPeers.Start", .read, [], false⟩,
-  ⟨"RedisPubsubPeers.topic", "RedisPubsubPeers.Start", .write, [], false⟩,
-  ⟨"RedisPubsubPeers.topic", "RedisPubsubPeers.stop", .read, [], false⟩,
-  ⟨"Router.Collector", "Router.processEvent", .read, [], false⟩,
-  ⟨"Router.Config", "LogsServer.Export", .read, [], false⟩,
-  ⟨"Router.Config", "Router.LnS", .read, [], false⟩,
-  ⟨"Router.Config", "Router.apiKeyProcessor$1", .read, [], false⟩,
-  ⟨"Router.Config", "Router.batch", .read, [], false⟩,
-  ⟨"Router.Config", "Router.getAllSamplerRules", .read, [], false⟩,
-  ⟨"Router.Config", "Router.getConfigMetadata", .read, [], false⟩,
-  ⟨"Router.Config", "Router.getSamplerRules", .read, [], false⟩,
-  ⟨"Router.Config", "Router.lookupEnvironment", .read, [], false⟩,
-  ⟨"Router.Config", "Router.postOTLPLogs", .read, [], false⟩,
-  ⟨"Router.Config", "Router.postOTLPTrace", .read, [], false⟩,
-  ⟨"Router.Config", "Router.processEvent", .read, [], false⟩,
-  ⟨"Router.Config", "Router.processOTLPRequest", .read, [], false⟩,
-  ⟨"Router.Config", "Router.processOTLPRequestBatchMsgp", .read, [], false⟩,
-  ⟨"Router.Config", "Router.proxy", .read, [], false⟩,
-  ⟨"Router.Config", "Router.queryTokenChecker$1", .read, [], false⟩,
-  ⟨"Router.Config", "Router.requestToEvent", .read, [], false⟩,
-  ⟨"Router.Config", "TraceServer.ExportTraceData", .read, [], false⟩,
-  ⟨"Router.Config", "customTraceExportHandler", .read, [], false⟩,
-  ⟨"Router.HTTPTransport", "Router.LnS", .read, [], false⟩,
-  ⟨"Router.Health", "Router.alive", .read, [], false⟩,
-  ⟨"Router.Health", "Router.ready", .read, [], false⟩,
-  ⟨"Router.Health", "Router.startGRPCHealthMonitor$2", .read, [], false⟩,
-  ⟨"Router.Logger", "Router.LnS", .read, [], false⟩,
-  ⟨"Router.Logger", "Router.handleOTLPFailureResponse", .read, [], false⟩,
-  ⟨"Router.Logger", "Router.handlerReturnWithError", .read, [], false⟩,
-  ⟨"Router.Logger", "Router.lookupEnvironment", .read, [], false⟩,
-  ⟨"Router.Logger", "Router.postOTLPTrace", .read, [], false⟩,
-  ⟨"Router.Logger", "Router.processOTLPRequest", .read, [], false⟩,
-  ⟨"Router.Logger", "Router.processOTLPRequestBatchMsgp", .read, [], false⟩,
-  ⟨"Router.Logger", "Router.proxy", .read, [], false⟩,
-  ⟨"Router.Logger", "Router.requestLogger$1", .read, [], false⟩,
-  ⟨"Router.Metrics", "LogsServer.Export", .read, [], false⟩,
-  ⟨"Router.Metrics", "Router.alive", .read, [], false⟩,
-  ⟨"Router.Metrics", "Router.batch", .read, [], false⟩,
-  ⟨"Router.Metrics", "Router.event", .read, [], false⟩,
-  ⟨"Router.Metrics", "Router.postOTLPLogs", .read, [], false⟩,
-  ⟨"Router.Metrics", "Router.postOTLPTrace", .read, [], false⟩,
-  ⟨"Router.Metrics", "Router.processEvent", .read, [], false⟩,
-  ⟨"Router.Metrics", "Router.processOTLPRequest", .read, [], false⟩,
-  ⟨"Router.Metrics", "Router.processOTLPRequestBatchMsgp", .read, [], false⟩,
-  ⟨"Router.Metrics", "Router.proxy", .read, [], false⟩,
-  ⟨"Router.Metrics", "Router.ready", .read, [], false⟩,
-  ⟨"Router.Metrics", "Router.registerMetricNames", .read, [], false⟩,
-  ⟨"Router.Metrics", "TraceServer.ExportTraceData", .read, [], false⟩,
-  ⟨"Router.PeerTransmission", "Router.processEvent", .read, [], false⟩,
-  ⟨"Router.Sharder", "Router.debugTrace", .read, [], false⟩,
-  ⟨"Router.Sharder", "Router.processEvent", .read, [], false⟩,
-  ⟨"Router.Tracer", "LogsServer.Export", .read, [], false⟩,
-  ⟨"Router.Tracer", "Router.postOTLPLogs", .read, [], false⟩,
-  ⟨"Router.Tracer", "Router.postOTLPTrace", .read, [], false⟩,
-  ⟨"Router.Tracer", "TraceServer.ExportTraceData", .read, [], false⟩,
-  ⟨"Router.UpstreamTransmission", "Router.processEvent", .read, [], false⟩,
-  ⟨"Router.doneWG", "Router.LnS", .atomic, [], false⟩,
-  ⟨"Router.doneWG", "Router.LnS$1", .atomic, [], false⟩,
-  ⟨"Router.doneWG", "Router.Stop", .atomic, [], false⟩,
-  ⟨"Router.doneWG", "Router.startGRPCHealthMonitor", .atomic, [], false⟩,
-  ⟨"Router.doneWG", "Router.startGRPCHealthMonitor$2", .atomic, [], false⟩,
-  ⟨"Router.donech", "Router.LnS", .write, [], false⟩,
-  ⟨"Router.donech", "Router.Stop", .read, [], false⟩,
-  ⟨"Router.donech", "Router.startGRPCHealthMonitor$2", .read, [], false⟩,
-  ⟨"Router.environmentCache", "Router.LnS", .write, [], false⟩,
-  ⟨"Router.environmentCache", "Router.SetEnvironmentCache", .write, [], false⟩,
-  ⟨"Router.environmentCache", "Router.getEnvironmentName", .read, [], false⟩,
-  ⟨"Router.environmentCache", "Router.getKeyID", .read, [], false⟩,
-  ⟨"Router.grpcServer", "Router.LnS", .read, [], false⟩,
-  ⟨"Router.grpcServer", "Router.LnS", .write, [], false⟩,
-  ⟨"Router.grpcServer", "Router.Stop", .read, [], false⟩,
-  ⟨"Router.hsrv", "Router.LnS", .read, [], false⟩,
-  ⟨"Router.hsrv", "Router.LnS", .write, [], false⟩,
-  ⟨"Router.hsrv", "Router.startGRPCHealthMonitor$1", .read, [], false⟩,
-  ⟨"Router.iopLogger", "Router.Check", .read, [], false⟩,
-  ⟨"Router.iopLogger", "Router.LnS", .read, [], false⟩,
-  ⟨"Router.iopLogger", "Router.LnS", .write, [], false⟩,
-  ⟨"Router.iopLogger", "Router.LnS$1", .read, [], false⟩,
-  ⟨"Router.iopLogger", "Router.Watch", .read, [], false⟩,
-  ⟨"Router.iopLogger", "Router.alive", .read, [], false⟩,
-  ⟨"Router.iopLogger", "Router.batch", .read, [], false⟩,
-  ⟨"Router.iopLogger", "Router.processEvent", .read, [], false⟩,
-  ⟨"Router.iopLogger", "Router.ready", .read, [], false⟩,
-  ⟨"Router.iopLogger", "Router.startGRPCHealthMonitor", .read, [], false⟩,
-  ⟨"Router.metricsNames", "LogsServer.Export", .read, [], false⟩,
-  ⟨"Router.metricsNames", "Router.batch", .read, [], false⟩,
-  ⟨"Router.metricsNames", "Router.event", .read, [], false⟩,
-  ⟨"Router.metricsNames", "Router.postOTLPLogs", .read, [], false⟩,
-  ⟨"Router.metricsNames", "Router.postOTLPTrace", .read, [], false⟩,
-  ⟨"Router.metricsNames", "Router.processEvent", .read, [], false⟩,
-  ⟨"Router.metricsNames", "Router.processOTLPRequest", .read, [], false⟩,
-  ⟨"Router.metricsNames", "Router.processOTLPRequestBatchMsgp", .read, [], false⟩,
-  ⟨"Router.metricsNames", "Router.proxy", .read, [], false⟩,
-  ⟨"Router.metricsNames", "Router.registerMetricNames", .write, [], false⟩,
-  ⟨"Router.metricsNames", "TraceServer.ExportTraceData", .read, [], false⟩,
-  ⟨"Router.proxyClient", "Router.LnS", .write, [], false⟩,
-  ⟨"Router.proxyClient", "Router.lookupEnvironment", .read, [], false⟩,
-  ⟨"Router.proxyClient", "Router.proxy", .read, [], false⟩,
-  ⟨"Router.routerType", "Router.LnS", .read, [], false⟩,
-  ⟨"Router.routerType", "Router.SetType", .write, [], false⟩,
-  ⟨"Router.routerType", "Router.processEvent", .read, [], false⟩,
-  ⟨"Router.routerType", "Router.registerMetricNames", .read, [], false⟩,
-  ⟨"Router.server", "Router.LnS", .write, [], false⟩,
-  ⟨"Router.server", "Router.LnS$1", .read, [], false⟩,
-  ⟨"Router.server", "Router.Stop", .read, [], false⟩,
-  ⟨"Router.versionStr", "Router.SetVersion", .write, [], false⟩,
-  ⟨"Router.versionStr", "Router.version", .read, [], false⟩,
-  ⟨"Router.zstdDecoder", "Router.LnS", .write, [], false⟩,
-  ⟨"Router.zstdDecoder", "Router.readZstdBody", .read, [], false⟩,
-  ⟨"StressRelief.Clock", "StressRelief.Recalc", .read, [("StressRelief.lock", .ex)], false⟩,
-  ⟨"StressRelief.Clock", "StressRelief.Start$2", .read, [], false⟩,
-  ⟨"StressRelief.Clock", "StressRelief.clusterStressLevel", .read, [("StressRelief.lock", .ex)], false⟩,
-  ⟨"StressRelief.Clock", "StressRelief.clusterStressLevel", .read, [], false⟩,
-  ⟨"StressRelief.Clock", "StressRelief.onStressLevelUpdate", .read, [("StressRelief.lock", .ex)], false⟩,
-  ⟨"StressRelief.Config", "StressRelief.UpdateFromConfig", .read, [("StressRelief.lock", .ex)], false⟩,
-  ⟨"StressRelief.Done", "StressRelief.Start$2", .read, [], false⟩,
-  ⟨"StressRelief.Health", "StressRelief.Start", .read, [], false⟩,
-  ⟨"StressRelief.Health", "StressRelief.Start$2", .read, [], false⟩,
-  ⟨"StressRelief.Logger", "StressRelief.Recalc", .read, [("StressRelief.lock", .ex)], false⟩,
-  ⟨"StressRelief.Logger", "StressRelief.Recalc", .read, [], false⟩,
-  ⟨"StressRelief.Logger", "StressRelief.Start", .read, [], false⟩,
-  ⟨"StressRelief.Logger", "StressRelief.Start$1", .read, [], false⟩,
-  ⟨"StressRelief.Logger", "StressRelief.Start$2", .read, [], false⟩,
-  ⟨"StressRelief.Logger", "StressRelief.UpdateFromConfig", .read, [("StressRelief.lock", .ex)], false⟩,
-  ⟨"StressRelief.Logger", "StressRelief.linear", .read, [], false⟩,
-  ⟨"StressRelief.Logger", "StressRelief.onStressLevelUpdate", .read, [], false⟩,
-  ⟨"StressRelief.Logger", "StressRelief.ratio", .read, [], false⟩,
-  ⟨"StressRelief.Logger", "StressRelief.sigmoid", .read, [], false⟩,
-  ⟨"StressRelief.Logger", "StressRelief.sqrt", .read, [], false⟩,
-  ⟨"StressRelief.Logger", "StressRelief.square", .read, [], false⟩,
-  ⟨"StressRelief.Peer", "StressRelief.Start", .read, [], false⟩,
-  ⟨"StressRelief.PubSub", "StressRelief.Start", .read, [], false⟩,
-  ⟨"StressRelief.PubSub", "StressRelief.Start$2", .read, [], false⟩,
-  ⟨"StressRelief.RefineryMetrics", "StressRelief.Recalc", .read, [("StressRelief.lock", .ex)], false⟩,
-  ⟨"StressRelief.RefineryMetrics", "StressRelief.Recalc", .read, [], false⟩,
-  ⟨"StressRelief.RefineryMetrics", "StressRelief.Start", .read, [], false⟩,
-  ⟨"StressRelief.RefineryMetrics", "StressRelief.ratio", .read, [], false⟩,
-  ⟨"StressRelief.activateLevel", "StressRelief.Recalc", .read, [("StressRelief.lock", .ex)], false⟩,
-  ⟨"StressRelief.activateLevel", "StressRelief.UpdateFromConfig", .read, [("StressRelief.lock", .ex)], false⟩,
-  ⟨"StressRelief.activateLevel", "StressRelief.UpdateFromConfig", .write, [("StressRelief.lock", .ex)], false⟩,
-  ⟨"StressRelief.algorithms", "StressRelief.Recalc", .read, [], false⟩,
-  ⟨"StressRelief.algorithms", "StressRelief.Start", .write, [], false⟩,
-  ⟨"StressRelief.deactivateLevel", "StressRelief.Recalc", .read, [("StressRelief.lock", .ex)], false⟩,
-  ⟨"StressRelief.deactivateLevel", "StressRelief.UpdateFromConfig", .read, [("StressRelief.lock", .ex)], false⟩,
-  ⟨"StressRelief.deactivateLevel", "StressRelief.UpdateFromConfig", .write, [("StressRelief.lock", .ex)], false⟩,
-  ⟨"StressRelief.disableStressLevelReport", "StressRelief.Start$2", .read, [], false⟩,
-  ⟨"StressRelief.formula", "StressRelief.Recalc", .read, [("StressRelief.lock", .ex)], false⟩,
-  ⟨"StressRelief.formula", "StressRelief.Recalc", .read, [], false⟩,
-  ⟨"StressRelief.formula", "StressRelief.Recalc", .write, [("StressRelief.lock", .ex)], false⟩,
-  ⟨"StressRelief.hostID", "StressRelief.Start", .write, [], false⟩,
-  ⟨"StressRelief.hostID", "StressRelief.Start$2", .read, [], false⟩,
-  ⟨"StressRelief.hostID", "StressRelief.clusterStressLevel", .read, [], false⟩,
-  ⟨"StressRelief.lock", "StressRelief.GetSampleRate", .atomic, [("StressRelief.lock", .sh)], false⟩,
-  ⟨"StressRelief.lock", "StressRelief.GetSampleRate", .atomic, [], false⟩,
-  ⟨"StressRelief.lock", "StressRelief.Recalc", .atomic, [("StressRelief.lock", .ex)], false⟩,
-  ⟨"StressRelief.lock", "StressRelief.Recalc", .atomic, [], false⟩,
-  ⟨"StressRelief.lock", "StressRelief.Stressed", .atomic, [("StressRelief.lock", .sh)], false⟩,
-  ⟨"StressRelief.lock", "StressRelief.Stressed", .atomic, [], false⟩,
-  ⟨"StressRelief.lock", "StressRelief.UpdateFromConfig", .atomic, [("StressRelief.lock", .ex)], false⟩,
-  ⟨"StressRelief.lock", "StressRelief.UpdateFromConfig", .atomic, [], false⟩,
-  ⟨"StressRelief.lock", "StressRelief.clusterStressLevel", .atomic, [("StressRelief.lock", .ex)], false⟩,
-  ⟨"StressRelief.lock", "StressRelief.clusterStressLevel", .atomic, [], false⟩,
-  ⟨"StressRelief.lock", "StressRelief.onStressLevelUpdate", .atomic, [("StressRelief.lock", .ex)], false⟩,
-  ⟨"StressRelief.lock", "StressRelief.onStressLevelUpdate", .atomic, [], false⟩,
-  ⟨"StressRelief.minDuration", "StressRelief.Recalc", .read, [("StressRelief.lock", .ex)], false⟩,
-  ⟨"StressRelief.minDuration", "StressRelief.UpdateFromConfig", .read, [("StressRelief.lock", .ex)], false⟩,
-  ⟨"StressRelief.minDuration", "StressRelief.UpdateFromConfig", .write, [("StressRelief.lock", .ex)], false⟩,
-  ⟨"StressRelief.mode", "StressRelief.Recalc", .read, [("StressRelief.lock", .ex)], false⟩,
-  ⟨"StressRelief.mode", "StressRelief.UpdateFromConfig", .read, [("StressRelief.lock", .ex)], false⟩,
-  ⟨"StressRelief.mode", "StressRelief.UpdateFromConfig", .write, [("StressRelief.lock", .ex)], false⟩,
-  ⟨"StressRelief.overallStressLevel", "StressRelief.Recalc", .read, [("StressRelief.lock", .ex)], false⟩,
-  ⟨"StressRelief.overallStressLevel", "StressRelief.Recalc", .write, [("StressRelief.lock", .ex)], false⟩,
-  ⟨"StressRelief.reason", "StressRelief.GetSampleRate", .read, [("StressRelief.lock", .sh)], false⟩,
-  ⟨"StressRelief.reason", "StressRelief.Recalc", .read, [("StressRelief.lock", .ex)], false⟩,
-  ⟨"StressRelief.reason", "StressRelief.Recalc", .write, [("StressRelief.lock", .ex)], false⟩,
-  ⟨"StressRelief.sampleRate", "StressRelief.GetSampleRate", .read, [("StressRelief.lock", .sh)], false⟩,
-  ⟨"StressRelief.sampleRate", "StressRelief.UpdateFromConfig", .read, [("StressRelief.lock", .ex)], false⟩,
-  ⟨"StressRelief.sampleRate", "StressRelief.UpdateFromConfig", .write, [("StressRelief.lock", .ex)], false⟩,
-  ⟨"StressRelief.stayOnUntil", "StressRelief.Recalc", .read, [("StressRelief.lock", .ex)], false⟩,
-  ⟨"StressRelief.stayOnUntil", "StressRelief.Recalc", .write, [("StressRelief.lock", .ex)], false⟩,
-  ⟨"StressRelief.stressLevels", "StressRelief.Start", .write, [], false⟩,
-  ⟨"StressRelief.stressLevels", "StressRelief.clusterStressLevel", .read, [("StressRelief.lock", .ex)], false⟩,
-  ⟨"StressRelief.stressLevels", "StressRelief.clusterStressLevel", .write, [("StressRelief.lock", .ex)], false⟩,
-  ⟨"StressRelief.stressLevels", "StressRelief.onStressLevelUpdate", .write, [("StressRelief.lock", .ex)], false⟩,
-  ⟨"StressRelief.stressed", "StressRelief.Recalc", .read, [("StressRelief.lock", .ex)], false⟩,
-  ⟨"StressRelief.stressed", "StressRelief.Recalc", .write, [("StressRelief.lock", .ex)], false⟩,
-  ⟨"StressRelief.stressed", "StressRelief.Stressed", .read, [("StressRelief.lock", .sh)], false⟩,
-  ⟨"StressRelief.topic", "StressRelief.Start", .read, [], false⟩,
-  ⟨"StressRelief.topic", "StressRelief.Start", .write, [], false⟩,
-  ⟨"StressRelief.topic", "StressRelief.Start$2", .read, [], false⟩,
-  ⟨"StressRelief.upperBound", "StressRelief.GetSampleRate", .read, [("StressRelief.lock", .sh)], false⟩,
-  ⟨"StressRelief.upperBound", "StressRelief.UpdateFromConfig", .write, [("StressRelief.lock", .ex)], false⟩,
-  ⟨"cuckooSentCache.cfg", "cuckooSentCache.monitor", .read, [], false⟩,
-  ⟨"cuckooSentCache.done", "cuckooSentCache.Resize", .read, [], false⟩,
-  ⟨"cuckooSentCache.done", "cuckooSentCache.Stop", .read, [], false⟩,
-  ⟨"cuckooSentCache.done", "cuckooSentCache.monitor", .read, [], false⟩,
-  ⟨"cuckooSentCache.dropped", "cuckooSentCache.CheckSpan", .read, [], false⟩,
-  ⟨"cuckooSentCache.dropped", "cuckooSentCache.CheckTrace", .read, [], false⟩,
-  ⟨"cuckooSentCache.dropped", "cuckooSentCache.Record", .read, [], false⟩,
-  ⟨"cuckooSentCache.dropped", "cuckooSentCache.Resize", .read, [], false⟩,
-  ⟨"cuckooSentCache.dropped", "cuckooSentCache.Stop", .read, [], false⟩,
-  ⟨"cuckooSentCache.dropped", "cuckooSentCache.monitor", .read, [], false⟩,
-  ⟨"cuckooSentCache.kept", "cuckooSentCache.CheckSpan", .read, [], false⟩,
-  ⟨"cuckooSentCache.kept", "cuckooSentCache.CheckTrace", .read, [], false⟩,
-  ⟨"cuckooSentCache.kept", "cuckooSentCache.Record", .read, [], false⟩,
-  ⟨"cuckooSentCache.kept", "cuckooSentCache.Resize", .read, [], false⟩,
-  ⟨"cuckooSentCache.kept", "cuckooSentCache.Resize", .write, [], false⟩,
-  ⟨"cuckooSentCache.keptReasons", "cuckooSentCache.CheckSpan", .read, [], false⟩,
-  ⟨"cuckooSentCache.keptReasons", "cuckooSentCache.CheckTrace", .read, [], false⟩,
-  ⟨"cuckooSentCache.keptReasons", "cuckooSentCache.Record", .read, [], false⟩,
-  ⟨"cuckooSentCache.met", "cuckooSentCache.monitor", .read, [], false⟩,
-  ⟨"cuckooSentCache.recentDroppedIDs", "cuckooSentCache.CheckSpan", .read, [], false⟩,
-  ⟨"cuckooSentCache.recentDroppedIDs", "cuckooSentCache.CheckTrace", .read, [], false⟩,
-  ⟨"cuckooSentCache.recentDroppedIDs", "cuckooSentCache.Record", .read, [], false⟩,
-  ⟨"cuckooSentCache.recentDroppedIDs", "cuckooSentCache.monitor", .read, [], false⟩,
-  ⟨"cuckooSentCache.shutdownWG", "NewCuckooSentCache", .atomic, [], true⟩,
-  ⟨"cuckooSentCache.shutdownWG", "cuckooSentCache.Resize", .atomic, [], false⟩,
-  ⟨"cuckooSentCache.shutdownWG", "cuckooSentCache.Stop", .atomic, [], false⟩,
-  ⟨"cuckooSentCache.shutdownWG", "cuckooSentCache.monitor", .atomic, [], false⟩,
-  ⟨"environmentCache.addItem()", "environmentCache.get", .write, [("environmentCache.mutex", .ex)], false⟩,
-  ⟨"environmentCache.getFn", "environmentCache.get", .read, [("environmentCache.mutex", .ex)], false⟩,
-  ⟨"environmentCache.items", "environmentCache.addItem", .write, [("environmentCache.mutex", .ex)], false⟩,
-  ⟨"environmentCache.items", "environmentCache.get", .read, [("environmentCache.mutex", .ex)], false⟩,
-  ⟨"environmentCache.items", "environmentCache.get", .read, [("environmentCache.mutex", .sh)], false⟩,
-  ⟨"environmentCache.mutex", "environmentCache.get", .atomic, [("environmentCache.mutex", .ex)], false⟩,
-  ⟨"environmentCache.mutex", "environmentCache.get", .atomic, [("environmentCache.mutex", .sh)], false⟩,
-  ⟨"environmentCache.mutex", "environmentCache.get", .atomic, [], false⟩,
-  ⟨"environmentCache.ttl", "environmentCache.get", .read, [("environmentCache.mutex", .ex)], false⟩,
-  ⟨"eventBatch.events", "DirectTransmission.EnqueueEvent", .read, [("eventBatch.mutex", .ex)], false⟩,
-  ⟨"eventBatch.events", "DirectTransmission.EnqueueEvent", .write, [("eventBatch.mutex", .ex)], false⟩,
-  ⟨"eventBatch.events", "DirectTransmission.Stop", .read, [], false⟩,
-  ⟨"eventBatch.events", "DirectTransmission.Stop$1", .read, [], false⟩,
-  ⟨"eventBatch.events", "DirectTransmission.dispatchStaleBatches", .read, [("eventBatch.mutex", .ex)], false⟩,
-  ⟨"eventBatch.events", "DirectTransmission.dispatchStaleBatches", .write, [("eventBatch.mutex", .ex)], false⟩,
-  ⟨"eventBatch.mutex", "DirectTransmission.EnqueueEvent", .atomic, [("eventBatch.mutex", .ex)], false⟩,
-  ⟨"eventBatch.mutex", "DirectTransmission.EnqueueEvent", .atomic, [], false⟩,
-  ⟨"eventBatch.mutex", "DirectTransmission.dispatchStaleBatches", .atomic, [("eventBatch.mutex", .ex)], false⟩,
-  ⟨"eventBatch.mutex", "DirectTransmission.dispatchStaleBatches", .atomic, [], false⟩,
-  ⟨"eventBatch.startTime", "DirectTransmission.EnqueueEvent", .write, [("eventBatch.mutex", .ex)], false⟩,
-  ⟨"eventBatch.startTime", "DirectTransmission.dispatchStaleBatches", .read, [("eventBatch.mutex", .ex)], false⟩,
-  ⟨"fileConfig.callbacks", "NewConfig", .write, [], true⟩,
-  ⟨"fileConfig.callbacks", "fileConfig.RegisterReloadCallback", .read, [("fileConfig.mux", .ex)], false⟩,
-  ⟨"fileConfig.callbacks", "fileConfig.RegisterReloadCallback", .write, [("fileConfig.mux", .ex)], false⟩,
-  ⟨"fileConfig.callbacks", "fileConfig.Reload", .read, [], false⟩,
-  ⟨"fileConfig.lastLoadTime", "fileConfig.GetConfigMetadata", .read, [], false⟩,
-  ⟨"fileConfig.mainConfig", "NewConfig", .read, [], true⟩,
-  ⟨"fileConfig.mainConfig", "fileConfig.GetAccessKeyConfig", .read, [("fileConfig.mux", .sh)], false⟩,
-  ⟨"fileConfig.mainConfig", "fileConfig.GetAddCountsToRoot", .read, [("fileConfig.mux", .sh)], false⟩,
-  ⟨"fileConfig.mainConfig", "fileConfig.GetAddHostMetadataToTrace", .read, [("fileConfig.mux", .sh)], false⟩,
-  ⟨"fileConfig.mainConfig", "fileConfig.GetAddRuleReasonToTrace", .read, [("fileConfig.mux", .sh)], false⟩,
-  ⟨"fileConfig.mainConfig", "fileConfig.GetAddSpanCountToRoot", .read, [("fileConfig.mux", .sh)], false⟩,
-  ⟨"fileConfig.mainConfig", "fileConfig.GetAdditionalAttributes", .read, [("fileConfig.mux", .sh)], false⟩,
-  ⟨"fileConfig.mainConfig", "fileConfig.GetAdditionalErrorFields", .read, [("fileConfig.mux", .sh)], false⟩,
-  ⟨"fileConfig.mainConfig", "fileConfig.GetAdditionalHeaders", .read, [("fileConfig.mux", .sh)], false⟩,
-  ⟨"fileConfig.mainConfig", "fileConfig.GetCollectionConfig", .read, [("fileConfig.mux", .sh)], false⟩,
-  ⟨"fileConfig.mainConfig", "fileConfig.GetCompressPeerCommunication", .read, [("fileConfig.mux", .sh)], false⟩,
-  ⟨"fileConfig.mainConfig", "fileConfig.GetDatasetPrefix", .read, [("fileConfig.mux", .sh)], false⟩,
-  ⟨"fileConfig.mainConfig", "fileConfig.GetDebugServiceAddr", .read, [("fileConfig.mux", .sh)], false⟩,
-  ⟨"fileConfig.mainConfig", "fileConfig.GetEnvironmentCacheTTL", .read, [("fileConfig.mux", .sh)], false⟩,
-  ⟨"fileConfig.mainConfig", "fileConfig.GetGRPCConfig", .read, [("fileConfig.mux", .sh)], false⟩,
-  ⟨"fileConfig.mainConfig", "fileConfig.GetGRPCEnabled", .read, [("fileConfig.mux", .sh)], false⟩,
-  ⟨"fileConfig.mainConfig", "fileConfig.GetGRPCListenAddr", .read, [("fileConfig.mux", .sh)], false⟩,
-  ⟨"fileConfig.mainConfig", "fileConfig.GetGeneralConfig", .read, [("fileConfig.mux", .sh)], false⟩,
-  ⟨"fileConfig.mainConfig", "fileConfig.GetHTTPIdleTimeout", .read, [("fileConfig.mux", .sh)], false⟩,
-  ⟨"fileConfig.mainConfig", "fileConfig.GetHealthCheckTimeout", .read, [("fileConfig.mux", .sh)], false⟩,
-  ⟨"fileConfig.mainConfig", "fileConfig.GetHoneycombAPI", .read, [("fileConfig.mux", .sh)], false⟩,
-  ⟨"fileConfig.mainConfig", "fileConfig.GetHoneycombLoggerConfig", .read, [("fileConfig.mux", .sh)], false⟩,
-  ⟨"fileConfig.mainConfig", "fileConfig.GetIdentifierInterfaceName", .read, [("fileConfig.mux", .sh)], false⟩,
-  ⟨"fileConfig.mainConfig", "fileConfig.GetIsDryRun", .read, [("fileConfig.mux", .sh)], false⟩,
-  ⟨"fileConfig.mainConfig", "fileConfig.GetListenAddr", .read, [("fileConfig.mux", .sh)], false⟩,
-  ⟨"fileConfig.mainConfig", "fileConfig.GetLoggerLevel", .read, [("fileConfig.mux", .sh)], false⟩,
-  ⟨"fileConfig.mainConfig", "fileConfig.GetLoggerType", .read, [("fileConfig.mux", .sh)], false⟩,
-  ⟨"fileConfig.mainConfig", "fileConfig.GetOTelMetricsConfig", .read, [("fileConfig.mux", .sh)], false⟩,
-  ⟨"fileConfig.mainConfig", "fileConfig.GetOTelTracingConfig", .read, [("fileConfig.mux", .sh)], false⟩,
-  ⟨"fileConfig.mainConfig", "fileConfig.GetOpAMPConfig", .read, [("fileConfig.mux", .sh)], false⟩,
-  ⟨"fileConfig.mainConfig", "fileConfig.GetParentIdFieldNames", .read, [("fileConfig.mux", .sh)], false⟩,
-  ⟨"fileConfig.mainConfig", "fileConfig.GetPeerListenAddr", .read, [("fileConfig.mux", .sh)], false⟩,
-  ⟨"fileConfig.mainConfig", "fileConfig.GetPeerManagementType", .read, [("fileConfig.mux", .sh)], false⟩,
-  ⟨"fileConfig.mainConfig", "fileConfig.GetPeerTimeout", .read, [("fileConfig.mux", .sh)], false⟩,
-  ⟨"fileConfig.mainConfig", "fileConfig.GetPeers", .read, [("fileConfig.mux", .sh)], false⟩,
-  ⟨"fileConfig.mainConfig", "fileConfig.GetPrometheusMetricsConfig", .read, [("fileConfig.mux", .sh)], false⟩,
-  ⟨"fileConfig.mainConfig", "fileConfig.GetQueryAuthToken", .read, [("fileConfig.mux", .sh)], false⟩,
-  ⟨"fileConfig.mainConfig", "fileConfig.GetRedisAuthCode", .read, [("fileConfig.mux", .sh)], false⟩,
-  ⟨"fileConfig.mainConfig", "fileConfig.GetRedisClusterHosts", .read, [("fileConfig.mux", .sh)], false⟩,
-  ⟨"fileConfig.mainConfig", "fileConfig.GetRedisDatabase", .read, [("fileConfig.mux", .sh)], false⟩,
-  ⟨"fileConfig.mainConfig", "fileConfig.GetRedisHost", .read, [("fileConfig.mux", .sh)], false⟩,
-  ⟨"fileConfig.mainConfig", "fileConfig.GetRedisIdentifier", .read, [("fileConfig.mux", .sh)], false⟩,
-  ⟨"fileConfig.mainConfig", "fileConfig.GetRedisPassword", .read, [("fileConfig.mux", .sh)], false⟩,
-  ⟨"fileConfig.mainConfig", "fileConfig.GetRedisPeerManagement", .read, [("fileConfig.mux", .sh)], false⟩,
-  ⟨"fileConfig.mainConfig", "fileConfig.GetRedisPrefix", .read, [("fileConfig.mux", .sh)], false⟩,
-  ⟨"fileConfig.mainConfig", "fileConfig.GetRedisUsername", .read, [("fileConfig.mux", .sh)], false⟩,
-  ⟨"fileConfig.mainConfig", "fileConfig.GetSampleCacheConfig", .read, [("fileConfig.mux", .sh)], false⟩,
-  ⟨"fileConfig.mainConfig", "fileConfig.GetStdoutLoggerConfig", .read, [("fileConfig.mux", .sh)], false⟩,
-  ⟨"fileConfig.mainConfig", "fileConfig.GetStressReliefConfig", .read, [("fileConfig.mux", .sh)], false⟩,
-  ⟨"fileConfig.mainConfig", "fileConfig.GetTraceIdFieldNames", .read, [("fileConfig.mux", .sh)], false⟩,
-  ⟨"fileConfig.mainConfig", "fileConfig.GetTracesConfig", .read, [("fileConfig.mux", .sh)], false⟩,
-  ⟨"fileConfig.mainConfig", "fileConfig.GetUseIPV6Identifier", .read, [("fileConfig.mux", .sh)], false⟩,
-  ⟨"fileConfig.mainConfig", "fileConfig.GetUseTLS", .read, [("fileConfig.mux", .sh)], false⟩,
-  ⟨"fileConfig.mainConfig", "fileConfig.GetUseTLSInsecure", .read, [("fileConfig.mux", .sh)], false⟩,
-  ⟨"fileConfig.mainConfig", "fileConfig.Reload", .read, [], true⟩,
-  ⟨"fileConfig.mainConfig", "fileConfig.Reload", .write, [("fileConfig.mux", .ex)], false⟩,
-  ⟨"fileConfig.mainHash", "fileConfig.GetConfigMetadata", .read, [], false⟩,
-  ⟨"fileConfig.mainHash", "fileConfig.GetHashes", .read, [("fileConfig.mux", .sh)], false⟩,
-  ⟨"fileConfig.mainHash", "fileConfig.Reload", .read, [], false⟩,
-  ⟨"fileConfig.mainHash", "fileConfig.Reload", .read, [], true⟩,
-  ⟨"fileConfig.mainHash", "fileConfig.Reload", .write, [("fileConfig.mux", .ex)], false⟩,
-  ⟨"fileConfig.mux", "fileConfig.GetAccessKeyConfig", .atomic, [("fileConfig.mux", .sh)], false⟩,
-  ⟨"fileConfig.mux", "fileConfig.GetAccessKeyConfig", .atomic, [], false⟩,
-  ⟨"fileConfig.mux", "fileConfig.GetAddCountsToRoot", .atomic, [("fileConfig.mux", .sh)], false⟩,
-  ⟨"fileConfig.mux", "fileConfig.GetAddCountsToRoot", .atomic, [], false⟩,
-  ⟨"fileConfig.mux", "fileConfig.GetAddHostMetadataToTrace", .atomic, [("fileConfig.mux", .sh)], false⟩,
-  ⟨"fileConfig.mux", "fileConfig.GetAddHostMetadataToTrace", .atomic, [], false⟩,
-  ⟨"fileConfig.mux", "fileConfig.GetAddRuleReasonToTrace", .atomic, [("fileConfig.mux", .sh)], false⟩,
-  ⟨"fileConfig.mux", "fileConfig.GetAddRuleReasonToTrace", .atomic, [], false⟩,
-  ⟨"fileConfig.mux", "fileConfig.GetAddSpanCountToRoot", .atomic, [("fileConfig.mux", .sh)], false⟩,
-  ⟨"fileConfig.mux", "fileConfig.GetAddSpanCountToRoot", .atomic, [], false⟩,
-  ⟨"fileConfig.mux", "fileConfig.GetAdditionalAttributes", .atomic, [("fileConfig.mux", .sh)], false⟩,
-  ⟨"fileConfig.mux", "fileConfig.GetAdditionalAttributes", .atomic, [], false⟩,
-  ⟨"fileConfig.mux", "fileConfig.GetAdditionalErrorFields", .atomic, [("fileConfig.mux", .sh)], false⟩,
-  ⟨"fileConfig.mux", "fileConfig.GetAdditionalErrorFields", .atomic, [], false⟩,
-  ⟨"fileConfig.mux", "fileConfig.GetAdditionalHeaders", .atomic, [("fileConfig.mux", .sh)], false⟩,
-  ⟨"fileConfig.mux", "fileConfig.GetAdditionalHeaders", .atomic, [], false⟩,
-  ⟨"fileConfig.mux", "fileConfig.GetAllSamplerRules", .atomic, [("fileConfig.mux", .sh)], false⟩,
-  ⟨"fileConfig.mux", "fileConfig.GetAllSamplerRules", .atomic, [], false⟩,
-  ⟨"fileConfig.mux", "fileConfig.GetCollectionConfig", .atomic, [("fileConfig.mux", .sh)], false⟩,
-  ⟨"fileConfig.mux", "fileConfig.GetCollectionConfig", .atomic, [], false⟩,
-  ⟨"fileConfig.mux", "fileConfig.GetCompressPeerCommunication", .atomic, [("fileConfig.mux", .sh)], false⟩,
-  ⟨"fileConfig.mux", "fileConfig.GetCompressPeerCommunication", .atomic, [], false⟩,
-  ⟨"fileConfig.mux", "fileConfig.GetDatasetPrefix", .atomic, [("fileConfig.mux", .sh)], false⟩,
-  ⟨"fileConfig.mux", "fileConfig.GetDatasetPrefix", .atomic, [], false⟩,
-  ⟨"fileConfig.mux", "fileConfig.GetDebugServiceAddr", .atomic, [("fileConfig.mux", .sh)], false⟩,
-  ⟨"fileConfig.mux", "fileConfig.GetDebugServiceAddr", .atomic, [], false⟩,
-  ⟨"fileConfig.mux", "fileConfig.GetEnvironmentCacheTTL", .atomic, [("fileConfig.mux", .sh)], false⟩,
-  ⟨"fileConfig.mux", "fileConfig.GetEnvironmentCacheTTL", .atomic, [], false⟩,
-  ⟨"fileConfig.mux", "fileConfig.GetGRPCConfig", .atomic, [("fileConfig.mux", .sh)], false⟩,
-  ⟨"fileConfig.mux", "fileConfig.GetGRPCConfig", .atomic, [], false⟩,
-  ⟨"fileConfig.mux", "fileConfig.GetGRPCEnabled", .atomic, [("fileConfig.mux", .sh)], false⟩,
-  ⟨"fileConfig.mux", "fileConfig.GetGRPCEnabled", .atomic, [], false⟩,
-  ⟨"fileConfig.mux", "fileConfig.GetGRPCListenAddr", .atomic, [("fileConfig.mux", .sh)], false⟩,
-  ⟨"fileConfig.mux", "fileConfig.GetGRPCListenAddr", .atomic, [], false⟩,
-  ⟨"fileConfig.mux", "fileConfig.GetGeneralConfig", .atomic, [("fileConfig.mux", .sh)], false⟩,
-  ⟨"fileConfig.mux", "fileConfig.GetGeneralConfig", .atomic, [], false⟩,
-  ⟨"fileConfig.mux", "fileConfig.GetHTTPIdleTimeout", .atomic, [("fileConfig.mux", .sh)], false⟩,
-  ⟨"fileConfig.mux", "fileConfig.GetHTTPIdleTimeout", .atomic, [], false⟩,
-  ⟨"fileConfig.mux", "fileConfig.GetHashes", .atomic, [("fileConfig.mux", .sh)], false⟩,
-  ⟨"fileConfig.mux", "fileConfig.GetHashes", .atomic, [], false⟩,
-  ⟨"fileConfig.mux", "fileConfig.GetHealthCheckTimeout", .atomic, [("fileConfig.mux", .sh)], false⟩,
-  ⟨"fileConfig.mux", "fileConfig.GetHealthCheckTimeout", .atomic, [], false⟩,
-  ⟨"fileConfig.mux", "fileConfig.GetHoneycombAPI", .atomic, [("fileConfig.mux", .sh)], false⟩,
-  ⟨"fileConfig.mux", "fileConfig.GetHoneycombAPI", .atomic, [], false⟩,
-  ⟨"fileConfig.mux", "fileConfig.GetHoneycombLoggerConfig", .atomic, [("fileConfig.mux", .sh)], false⟩,
-  ⟨"fileConfig.mux", "fileConfig.GetHoneycombLoggerConfig", .atomic, [], false⟩,
-  ⟨"fileConfig.mux", "fileConfig.GetIdentifierInterfaceName", .atomic, [("fileConfig.mux", .sh)], false⟩,
-  ⟨"fileConfig.mux", "fileConfig.GetIdentifierInterfaceName", .atomic, [], false⟩,
-  ⟨"fileConfig.mux", "fileConfig.GetIsDryRun", .atomic, [("fileConfig.mux", .sh)], false⟩,
-  ⟨"fileConfig.mux", "fileConfig.GetIsDryRun", .atomic, [], false⟩,
-  ⟨"fileConfig.mux", "fileConfig.GetListenAddr", .atomic, [("fileConfig.mux", .sh)], false⟩,
-  ⟨"fileConfig.mux", "fileConfig.GetListenAddr", .atomic, [], false⟩,
-  ⟨"fileConfig.mux", "fileConfig.GetLoggerLevel", .atomic, [("fileConfig.mux", .sh)], false⟩,
-  ⟨"fileConfig.mux", "fileConfig.GetLoggerLevel", .atomic, [], false⟩,
-  ⟨"fileConfig.mux", "fileConfig.GetLoggerType", .atomic, [("fileConfig.mux", .sh)], false⟩,
-  ⟨"fileConfig.mux", "fileConfig.GetLoggerType", .atomic, [], false⟩,
-  ⟨"fileConfig.mux", "fileConfig.GetOTelMetricsConfig", .atomic, [("fileConfig.mux", .sh)], false⟩,
-  ⟨"fileConfig.mux", "fileConfig.GetOTelMetricsConfig", .atomic, [], false⟩,
-  ⟨"fileConfig.mux", "fileConfig.GetOTelTracingConfig", .atomic, [("fileConfig.mux", .sh)], false⟩,
-  ⟨"fileConfig.mux", "fileConfig.GetOTelTracingConfig", .atomic, [], false⟩,
-  ⟨"fileConfig.mux", "fileConfig.GetOpAMPConfig", .atomic, [("fileConfig.mux", .sh)], false⟩,
-  ⟨"fileConfig.mux", "fileConfig.GetOpAMPConfig", .atomic, [], false⟩,
-  ⟨"fileConfig.mux", "fileConfig.GetParentIdFieldNames", .atomic, [("fileConfig.mux", .sh)], false⟩,
-  ⟨"fileConfig.mux", "fileConfig.GetParentIdFieldNames", .atomic, [], false⟩,
-  ⟨"fileConfig.mux", "fileConfig.GetPeerListenAddr", .atomic, [("fileConfig.mux", .sh)], false⟩,
-  ⟨"fileConfig.mux", "fileConfig.GetPeerListenAddr", .atomic, [], false⟩,
-  ⟨"fileConfig.mux", "fileConfig.GetPeerManagementType", .atomic, [("fileConfig.mux", .sh)], false⟩,
-  ⟨"fileConfig.mux", "fileConfig.GetPeerManagementType", .atomic, [], false⟩,
-  ⟨"fileConfig.mux", "fileConfig.GetPeerTimeout", .atomic, [("fileConfig.mux", .sh)], false⟩,
-  ⟨"fileConfig.mux", "fileConfig.GetPeerTimeout", .atomic, [], false⟩,
-  ⟨"fileConfig.mux", "fileConfig.GetPeers", .atomic, [("fileConfig.mux", .sh)], false⟩,
-  ⟨"fileConfig.mux", "fileConfig.GetPeers", .atomic, [], false⟩,
-  ⟨"fileConfig.mux", "fileConfig.GetPrometheusMetricsConfig", .atomic, [("fileConfig.mux", .sh)], false⟩,
-  ⟨"fileConfig.mux", "fileConfig.GetPrometheusMetricsConfig", .atomic, [], false⟩,
-  ⟨"fileConfig.mux", "fileConfig.GetQueryAuthToken", .atomic, [("fileConfig.mux", .sh)], false⟩,
-  ⟨"fileConfig.mux", "fileConfig.GetQueryAuthToken", .atomic, [], false⟩,
-  ⟨"fileConfig.mux", "fileConfig.GetRedisAuthCode", .atomic, [("fileConfig.mux", .sh)], false⟩,
-  ⟨"fileConfig.mux", "fileConfig.GetRedisAuthCode", .atomic, [], false⟩,
-  ⟨"fileConfig.mux", "fileConfig.GetRedisClusterHosts", .atomic, [("fileConfig.mux", .sh)], false⟩,
-  ⟨"fileConfig.mux", "fileConfig.GetRedisClusterHosts", .atomic, [], false⟩,
-  ⟨"fileConfig.mux", "fileConfig.GetRedisDatabase", .atomic, [("fileConfig.mux", .sh)], false⟩,
-  ⟨"fileConfig.mux", "fileConfig.GetRedisDatabase", .atomic, [], false⟩,
-  ⟨"fileConfig.mux", "fileConfig.GetRedisHost", .atomic, [("fileConfig.mux", .sh)], false⟩,
-  ⟨"fileConfig.mux", "fileConfig.GetRedisHost", .atomic, [], false⟩,
-  ⟨"fileConfig.mux", "fileConfig.GetRedisIdentifier", .atomic, [("fileConfig.mux", .sh)], false⟩,
-  ⟨"fileConfig.mux", "fileConfig.GetRedisIdentifier", .atomic, [], false⟩,
-  ⟨"fileConfig.mux", "fileConfig.GetRedisPassword", .atomic, [("fileConfig.mux", .sh)], false⟩,
-  ⟨"fileConfig.mux", "fileConfig.GetRedisPassword", .atomic, [], false⟩,
-  ⟨"fileConfig.mux", "fileConfig.GetRedisPeerManagement", .atomic, [("fileConfig.mux", .sh)], false⟩,
-  ⟨"fileConfig.mux", "fileConfig.GetRedisPeerManagement", .atomic, [], false⟩,
-  ⟨"fileConfig.mux", "fileConfig.GetRedisPrefix", .atomic, [("fileConfig.mux", .sh)], false⟩,
-  ⟨"fileConfig.mux", "fileConfig.GetRedisPrefix", .atomic, [], false⟩,
-  ⟨"fileConfig.mux", "fileConfig.GetRedisUsername", .atomic, [("fileConfig.mux", .sh)], false⟩,
-  ⟨"fileConfig.mux", "fileConfig.GetRedisUsername", .atomic, [], false⟩,
-  ⟨"fileConfig.mux", "fileConfig.GetSampleCacheConfig", .atomic, [("fileConfig.mux", .sh)], false⟩,
-  ⟨"fileConfig.mux", "fileConfig.GetSampleCacheConfig", .atomic, [], false⟩,
-  ⟨"fileConfig.mux", "fileConfig.GetSamplerConfigForDestName", .atomic, [("fileConfig.mux", .sh)], false⟩,
-  ⟨"fileConfig.mux", "fileConfig.GetSamplerConfigForDestName", .atomic, [], false⟩,
-  ⟨"fileConfig.mux", "fileConfig.GetSamplingKeyFieldsForDestName", .atomic, [("fileConfig.mux", .sh)], false⟩,
-  ⟨"fileConfig.mux", "fileConfig.GetSamplingKeyFieldsForDestName", .atomic, [], false⟩,
-  ⟨"fileConfig.mux", "fileConfig.GetStdoutLoggerConfig", .atomic, [("fileConfig.mux", .sh)], false⟩,
-  ⟨"fileConfig.mux", "fileConfig.GetStdoutLoggerConfig", .atomic, [], false⟩,
-  ⟨"fileConfig.mux", "fileConfig.GetStressReliefConfig", .atomic, [("fileConfig.mux", .sh)], false⟩,
-  ⟨"fileConfig.mux", "fileConfig.GetStressReliefConfig", .atomic, [], false⟩,
-  ⟨"fileConfig.mux", "fileConfig.GetTraceIdFieldNames", .atomic, [("fileConfig.mux", .sh)], false⟩,
-  ⟨"fileConfig.mux", "fileConfig.GetTraceIdFieldNames", .atomic, [], false⟩,
-  ⟨"fileConfig.mux", "fileConfig.GetTracesConfig", .atomic, [("fileConfig.mux", .sh)], false⟩,
-  ⟨"fileConfig.mux", "fileConfig.GetTracesConfig", .atomic, [], false⟩,
-  ⟨"fileConfig.mux", "fileConfig.GetUseIPV6Identifier", .atomic, [("fileConfig.mux", .sh)], false⟩,
-  ⟨"fileConfig.mux", "fileConfig.GetUseIPV6Identifier", .atomic, [], false⟩,
-  ⟨"fileConfig.mux", "fileConfig.GetUseTLS", .atomic, [("fileConfig.mux", .sh)], false⟩,
-  ⟨"fileConfig.mux", "fileConfig.GetUseTLS", .atomic, [], false⟩,
-  ⟨"fileConfig.mux", "fileConfig.GetUseTLSInsecure", .atomic, [("fileConfig.mux", .sh)], false⟩,
-  ⟨"fileConfig.mux", "fileConfig.GetUseTLSInsecure", .atomic, [], false⟩,
-  ⟨"fileConfig.mux", "fileConfig.RegisterReloadCallback", .atomic, [("fileConfig.mux", .ex)], false⟩,
-  ⟨"fileConfig.mux", "fileConfig.RegisterReloadCallback", .atomic, [], false⟩,
-  ⟨"fileConfig.mux", "fileConfig.Reload", .atomic, [("fileConfig.mux", .ex)], false⟩,
-  ⟨"fileConfig.mux", "fileConfig.Reload", .atomic, [], false⟩,
-  ⟨"fileConfig.opts", "fileConfig.GetConfigMetadata", .read, [], false⟩,
-  ⟨"fileConfig.opts", "fileConfig.Reload", .read, [], false⟩,
-  ⟨"fileConfig.rulesConfig", "NewConfig", .read, [], true⟩,
-  ⟨"fileConfig.rulesConfig", "fileConfig.GetAllSamplerRules", .read, [("fileConfig.mux", .sh)], false⟩,
-  ⟨"fileConfig.rulesConfig", "fileConfig.GetSamplerConfigForDestName", .read, [("fileConfig.mux", .sh)], false⟩,
-  ⟨"fileConfig.rulesConfig", "fileConfig.GetSamplingKeyFieldsForDestName", .read, [("fileConfig.mux", .sh)], false⟩,
-  ⟨"fileConfig.rulesConfig", "fileConfig.Reload", .read, [], true⟩,
-  ⟨"fileConfig.rulesConfig", "fileConfig.Reload", .write, [("fileConfig.mux", .ex)], false⟩,
-  ⟨"fileConfig.rulesHash", "fileConfig.GetConfigMetadata", .read, [], false⟩,
-  ⟨"fileConfig.rulesHash", "fileConfig.GetHashes", .read, [("fileConfig.mux", .sh)], false⟩,
-  ⟨"fileConfig.rulesHash", "fileConfig.Reload", .read, [], false⟩,
-  ⟨"fileConfig.rulesHash", "fileConfig.Reload", .read, [], true⟩,
-  ⟨"fileConfig.rulesHash", "fileConfig.Reload", .write, [("fileConfig.mux", .ex)], false⟩]
+  ⟨L.«InMemCollector.Config», F.«CollectorWorker.collect», .read, [], false⟩,
+  ⟨L.«InMemCollector.Config», F.«CollectorWorker.makeDecision», .read, [], false⟩,
+  ⟨L.«InMemCollector.Config», F.«CollectorWorker.processSpan», .read, [], false⟩,
+  ⟨L.«InMemCollector.Config», F.«CollectorWorker.sendExpiredTracesInCache», .read, [], false⟩,
+  ⟨L.«InMemCollector.Config», F.«CollectorWorker.sendTracesEarly», .read, [], false⟩,
+  ⟨L.«InMemCollector.Config», F.«InMemCollector.ProcessSpanImmediately», .read, [], false⟩,
+  ⟨L.«InMemCollector.Config», F.«InMemCollector.Start», .read, [], false⟩,
+  ⟨L.«InMemCollector.Config», F.«InMemCollector.addAdditionalAttributes», .read, [], false⟩,
+  ⟨L.«InMemCollector.Config», F.«InMemCollector.checkAlloc», .read, [], false⟩,
+  ⟨L.«InMemCollector.Config», F.«InMemCollector.dealWithSentTrace», .read, [], false⟩,
+  ⟨L.«InMemCollector.Config», F.«InMemCollector.isReady», .read, [], false⟩,
+  ⟨L.«InMemCollector.Config», F.«InMemCollector.monitor», .read, [], false⟩,
+  ⟨L.«InMemCollector.Config», F.«InMemCollector.sendTraces», .read, [], false⟩,
+  ⟨L.«InMemCollector.Config», F.«InMemCollector.send», .read, [], false⟩,
+  ⟨L.«InMemCollector.Config», F.«NewCollectorWorker», .read, [], false⟩,
+  ⟨L.«InMemCollector.Logger», F.«CollectorWorker.IsHealthy», .read, [], false⟩,
+  ⟨L.«InMemCollector.Logger», F.«CollectorWorker.makeDecision», .read, [], false⟩,
+  ⟨L.«InMemCollector.Logger», F.«InMemCollector.Start$1», .read, [], false⟩,
+  ⟨L.«InMemCollector.Logger», F.«InMemCollector.Start», .read, [], false⟩,
+  ⟨L.«InMemCollector.Logger», F.«InMemCollector.Stop», .read, [], false⟩,
+  ⟨L.«InMemCollector.Logger», F.«InMemCollector.checkAlloc», .read, [], false⟩,
+  ⟨L.«InMemCollector.Logger», F.«InMemCollector.dealWithSentTrace», .read, [], false⟩,
+  ⟨L.«InMemCollector.Logger», F.«InMemCollector.reloadConfigs», .read, [], false⟩,
+  ⟨L.«InMemCollector.Logger», F.«InMemCollector.sendReloadSignal», .read, [], false⟩,
+  ⟨L.«InMemCollector.Logger», F.«InMemCollector.send», .read, [], false⟩,
+  ⟨L.«InMemCollector.Logger», F.«NewCollectorWorker», .read, [], false⟩,
+  ⟨L.«InMemCollector.Clock», F.«CollectorWorker.collect», .read, [], false⟩,
+  ⟨L.«InMemCollector.Clock», F.«CollectorWorker.makeDecision», .read, [], false⟩,
+  ⟨L.«InMemCollector.Clock», F.«CollectorWorker.processSpan», .read, [], false⟩,
+  ⟨L.«InMemCollector.Clock», F.«CollectorWorker.sendExpiredTracesInCache$1», .read, [], false⟩,
+  ⟨L.«InMemCollector.Clock», F.«CollectorWorker.sendExpiredTracesInCache», .read, [], false⟩,
+  ⟨L.«InMemCollector.Clock», F.«InMemCollector.ProcessSpanImmediately», .read, [], false⟩,
+  ⟨L.«InMemCollector.Clock», F.«InMemCollector.isReady», .read, [], false⟩,
+  ⟨L.«InMemCollector.Clock», F.«InMemCollector.monitor», .read, [], false⟩,
+  ⟨L.«InMemCollector.Clock», F.«InMemCollector.send», .read, [], false⟩,
+  ⟨L.«InMemCollector.Tracer», F.«CollectorWorker.collect», .read, [], false⟩,
+  ⟨L.«InMemCollector.Tracer», F.«CollectorWorker.makeDecision», .read, [], false⟩,
+  ⟨L.«InMemCollector.Tracer», F.«CollectorWorker.processSpan», .read, [], false⟩,
+  ⟨L.«InMemCollector.Tracer», F.«CollectorWorker.sendExpiredTracesInCache», .read, [], false⟩,
+  ⟨L.«InMemCollector.Tracer», F.«InMemCollector.ProcessSpanImmediately», .read, [], false⟩,
+  ⟨L.«InMemCollector.Tracer», F.«InMemCollector.dealWithSentTrace», .read, [], false⟩,
+  ⟨L.«InMemCollector.Tracer», F.«InMemCollector.sendTraces», .read, [], false⟩,
+  ⟨L.«InMemCollector.Tracer», F.«InMemCollector.send», .read, [], false⟩,
+  ⟨L.«InMemCollector.Health», F.«InMemCollector.Start», .read, [], false⟩,
+  ⟨L.«InMemCollector.Health», F.«InMemCollector.Stop», .read, [], false⟩,
+  ⟨L.«InMemCollector.Health», F.«InMemCollector.monitor», .read, [], false⟩,
+  ⟨L.«InMemCollector.Sharder», F.«InMemCollector.IsMyTrace», .read, [], false⟩,
+  ⟨L.«InMemCollector.Transmission», F.«InMemCollector.ProcessSpanImmediately», .read, [], false⟩,
+  ⟨L.«InMemCollector.Transmission», F.«InMemCollector.dealWithSentTrace», .read, [], false⟩,
+  ⟨L.«InMemCollector.Transmission», F.«InMemCollector.sendTraces», .read, [], false⟩,
+  ⟨L.«InMemCollector.Metrics», F.«CollectorWorker.collect», .read, [], false⟩,
+  ⟨L.«InMemCollector.Metrics», F.«CollectorWorker.makeDecision», .read, [], false⟩,
+  ⟨L.«InMemCollector.Metrics», F.«CollectorWorker.processSpan», .read, [], false⟩,
+  ⟨L.«InMemCollector.Metrics», F.«CollectorWorker.sendExpiredTracesInCache$1», .read, [], false⟩,
+  ⟨L.«InMemCollector.Metrics», F.«InMemCollector.ProcessSpanImmediately», .read, [], false⟩,
+  ⟨L.«InMemCollector.Metrics», F.«InMemCollector.Start», .read, [], false⟩,
+  ⟨L.«InMemCollector.Metrics», F.«InMemCollector.checkAlloc», .read, [], false⟩,
+  ⟨L.«InMemCollector.Metrics», F.«InMemCollector.dealWithSentTrace», .read, [], false⟩,
+  ⟨L.«InMemCollector.Metrics», F.«InMemCollector.monitor», .read, [], false⟩,
+  ⟨L.«InMemCollector.Metrics», F.«InMemCollector.sendTraces», .read, [], false⟩,
+  ⟨L.«InMemCollector.Metrics», F.«InMemCollector.send», .read, [], false⟩,
+  ⟨L.«InMemCollector.Metrics», F.«NewCollectorWorker», .read, [], false⟩,
+  ⟨L.«InMemCollector.SamplerFactory», F.«CollectorWorker.makeDecision», .read, [], false⟩,
+  ⟨L.«InMemCollector.SamplerFactory», F.«InMemCollector.reloadConfigs», .read, [], false⟩,
+  ⟨L.«InMemCollector.StressRelief», F.«InMemCollector.GetStressedSampleRate», .read, [], false⟩,
+  ⟨L.«InMemCollector.StressRelief», F.«InMemCollector.ProcessSpanImmediately», .read, [], false⟩,
+  ⟨L.«InMemCollector.StressRelief», F.«InMemCollector.Start», .read, [], false⟩,
+  ⟨L.«InMemCollector.StressRelief», F.«InMemCollector.Stressed», .read, [], false⟩,
+  ⟨L.«InMemCollector.StressRelief», F.«InMemCollector.reloadConfigs», .read, [], false⟩,
+  ⟨L.«InMemCollector.BlockOnAddSpan», F.«CollectorWorker.addSpanFromPeer», .read, [], false⟩,
+  ⟨L.«InMemCollector.BlockOnAddSpan», F.«CollectorWorker.addSpan», .read, [], false⟩,
+  ⟨L.«InMemCollector.workers», F.«InMemCollector.AddSpanFromPeer», .read, [], false⟩,
+  ⟨L.«InMemCollector.workers», F.«InMemCollector.AddSpan», .read, [], false⟩,
+  ⟨L.«InMemCollector.workers», F.«InMemCollector.ProcessSpanImmediately», .read, [], false⟩,
+  ⟨L.«InMemCollector.workers», F.«InMemCollector.Start», .read, [], false⟩,
+  ⟨L.«InMemCollector.workers», F.«InMemCollector.Start», .write, [], false⟩,
+  ⟨L.«InMemCollector.workers», F.«InMemCollector.Stop», .read, [], false⟩,
+  ⟨L.«InMemCollector.workers», F.«InMemCollector.checkAlloc», .read, [], false⟩,
+  ⟨L.«InMemCollector.workers», F.«InMemCollector.getWorkerIDForTrace», .read, [], false⟩,
+  ⟨L.«InMemCollector.workers», F.«InMemCollector.isReady», .read, [], false⟩,
+  ⟨L.«InMemCollector.workers», F.«InMemCollector.monitor», .read, [], false⟩,
+  ⟨L.«InMemCollector.workers», F.«InMemCollector.reloadConfigs», .read, [], false⟩,
+  ⟨L.«InMemCollector.monitorWG», F.«InMemCollector.Start», .atomic, [], false⟩,
+  ⟨L.«InMemCollector.monitorWG», F.«InMemCollector.Stop», .atomic, [], false⟩,
+  ⟨L.«InMemCollector.monitorWG», F.«InMemCollector.monitor», .atomic, [], false⟩,
+  ⟨L.«InMemCollector.workersWG», F.«CollectorWorker.collect», .atomic, [], false⟩,
+  ⟨L.«InMemCollector.workersWG», F.«InMemCollector.Start», .atomic, [], false⟩,
+  ⟨L.«InMemCollector.workersWG», F.«InMemCollector.Stop», .atomic, [], false⟩,
+  ⟨L.«InMemCollector.sendTracesWG», F.«InMemCollector.Start», .atomic, [], false⟩,
+  ⟨L.«InMemCollector.sendTracesWG», F.«InMemCollector.Stop», .atomic, [], false⟩,
+  ⟨L.«InMemCollector.sendTracesWG», F.«InMemCollector.sendTraces», .atomic, [], false⟩,
+  ⟨L.«InMemCollector.reload», F.«InMemCollector.Start», .write, [], false⟩,
+  ⟨L.«InMemCollector.reload», F.«InMemCollector.monitor», .read, [], false⟩,
+  ⟨L.«InMemCollector.reload», F.«InMemCollector.sendReloadSignal», .read, [], false⟩,
+  ⟨L.«InMemCollector.tracesToSend», F.«InMemCollector.Start», .write, [], false⟩,
+  ⟨L.«InMemCollector.tracesToSend», F.«InMemCollector.Stop», .read, [], false⟩,
+  ⟨L.«InMemCollector.tracesToSend», F.«InMemCollector.sendTraces», .read, [], false⟩,
+  ⟨L.«InMemCollector.tracesToSend», F.«InMemCollector.send», .read, [], false⟩,
+  ⟨L.«InMemCollector.done», F.«InMemCollector.Start», .write, [], false⟩,
+  ⟨L.«InMemCollector.done», F.«InMemCollector.Stop», .read, [], false⟩,
+  ⟨L.«InMemCollector.done», F.«InMemCollector.monitor», .read, [], false⟩,
+  ⟨L.«InMemCollector.hostname», F.«InMemCollector.ProcessSpanImmediately», .read, [], false⟩,
+  ⟨L.«InMemCollector.hostname», F.«InMemCollector.Start», .write, [], false⟩,
+  ⟨L.«InMemCollector.hostname», F.«InMemCollector.dealWithSentTrace», .read, [], false⟩,
+  ⟨L.«InMemCollector.hostname», F.«InMemCollector.sendTraces», .read, [], false⟩,
+  ⟨L.«InMemCollector.memMetricSample», F.«InMemCollector.Start», .write, [], false⟩,
+  ⟨L.«InMemCollector.memMetricSample», F.«InMemCollector.checkAlloc», .read, [], false⟩,
+  ⟨L.«CollectorWorker.ID», F.«CollectorWorker.IsHealthy», .read, [], false⟩,
+  ⟨L.«CollectorWorker.ID», F.«CollectorWorker.collect», .read, [], false⟩,
+  ⟨L.«CollectorWorker.ID», F.«CollectorWorker.processSpan», .read, [], false⟩,
+  ⟨L.«CollectorWorker.ID», F.«CollectorWorker.sendExpiredTracesInCache», .read, [], false⟩,
+  ⟨L.«CollectorWorker.parent», F.«CollectorWorker.IsHealthy», .read, [], false⟩,
+  ⟨L.«CollectorWorker.parent», F.«CollectorWorker.addSpanFromPeer», .read, [], false⟩,
+  ⟨L.«CollectorWorker.parent», F.«CollectorWorker.addSpan», .read, [], false⟩,
+  ⟨L.«CollectorWorker.parent», F.«CollectorWorker.collect», .read, [], false⟩,
+  ⟨L.«CollectorWorker.parent», F.«CollectorWorker.makeDecision», .read, [], false⟩,
+  ⟨L.«CollectorWorker.parent», F.«CollectorWorker.processSpan», .read, [], false⟩,
+  ⟨L.«CollectorWorker.parent», F.«CollectorWorker.sendExpiredTracesInCache$1», .read, [], false⟩,
+  ⟨L.«CollectorWorker.parent», F.«CollectorWorker.sendExpiredTracesInCache», .read, [], false⟩,
+  ⟨L.«CollectorWorker.parent», F.«CollectorWorker.sendTracesEarly», .read, [], false⟩,
+  ⟨L.«CollectorWorker.incoming», F.«CollectorWorker.addSpan», .read, [], false⟩,
+  ⟨L.«CollectorWorker.incoming», F.«CollectorWorker.collect», .read, [], false⟩,
+  ⟨L.«CollectorWorker.incoming», F.«InMemCollector.Stop», .read, [], false⟩,
+  ⟨L.«CollectorWorker.incoming», F.«InMemCollector.monitor», .read, [], false⟩,
+  ⟨L.«CollectorWorker.fromPeer», F.«CollectorWorker.addSpanFromPeer», .read, [], false⟩,
+  ⟨L.«CollectorWorker.fromPeer», F.«CollectorWorker.collect», .read, [], false⟩,
+  ⟨L.«CollectorWorker.fromPeer», F.«InMemCollector.Stop», .read, [], false⟩,
+  ⟨L.«CollectorWorker.fromPeer», F.«InMemCollector.monitor», .read, [], false⟩,
+  ⟨L.«CollectorWorker.sendEarly», F.«CollectorWorker.collect», .read, [], false⟩,
+  ⟨L.«CollectorWorker.sendEarly», F.«InMemCollector.checkAlloc», .read, [], false⟩,
+  ⟨L.«CollectorWorker.pause», F.«CollectorWorker.collect», .read, [], false⟩,
+  ⟨L.«CollectorWorker.reload», F.«CollectorWorker.collect», .read, [], false⟩,
+  ⟨L.«CollectorWorker.reload», F.«InMemCollector.reloadConfigs», .read, [], false⟩,
+  ⟨L.«CollectorWorker.cache», F.«CollectorWorker.collect», .read, [], false⟩,
+  ⟨L.«CollectorWorker.cache», F.«CollectorWorker.processSpan», .read, [], false⟩,
+  ⟨L.«CollectorWorker.cache», F.«CollectorWorker.sendExpiredTracesInCache», .read, [], false⟩,
+  ⟨L.«CollectorWorker.cache», F.«CollectorWorker.sendTracesEarly», .read, [], false⟩,
+  ⟨L.«CollectorWorker.sampleCache», F.«CollectorWorker.Stop», .read, [], false⟩,
+  ⟨L.«CollectorWorker.sampleCache», F.«CollectorWorker.collect», .read, [], false⟩,
+  ⟨L.«CollectorWorker.sampleCache», F.«CollectorWorker.makeDecision», .read, [], false⟩,
+  ⟨L.«CollectorWorker.sampleCache», F.«CollectorWorker.processSpan», .read, [], false⟩,
+  ⟨L.«CollectorWorker.sampleCache», F.«InMemCollector.ProcessSpanImmediately», .read, [], false⟩,
+  ⟨L.«CollectorWorker.datasetSamplers», F.«CollectorWorker.collect», .write, [], false⟩,
+  ⟨L.«CollectorWorker.datasetSamplers», F.«CollectorWorker.makeDecision», .read, [], false⟩,
+  ⟨L.«CollectorWorker.datasetSamplers», F.«CollectorWorker.makeDecision», .write, [], false⟩,
+  ⟨L.«CollectorWorker.lastCacheSize», F.«CollectorWorker.GetCacheSize», .atomic, [], false⟩,
+  ⟨L.«CollectorWorker.lastCacheSize», F.«CollectorWorker.collect», .atomic, [], false⟩,
+  ⟨L.«CollectorWorker.lastCacheSize», F.«CollectorWorker.sendTracesEarly», .atomic, [], false⟩,
+  ⟨L.«CollectorWorker.localSpansWaiting», F.«CollectorWorker.addSpanFromPeer», .atomic, [], false⟩,
+  ⟨L.«CollectorWorker.localSpansWaiting», F.«CollectorWorker.addSpan», .atomic, [], false⟩,
+  ⟨L.«CollectorWorker.localSpansWaiting», F.«CollectorWorker.processSpan$1», .atomic, [], false⟩,
+  ⟨L.«CollectorWorker.localSpansWaiting», F.«InMemCollector.monitor», .atomic, [], false⟩,
+  ⟨L.«CollectorWorker.localSpanReceived», F.«CollectorWorker.addSpanFromPeer», .atomic, [], false⟩,
+  ⟨L.«CollectorWorker.localSpanReceived», F.«CollectorWorker.addSpan», .atomic, [], false⟩,
+  ⟨L.«CollectorWorker.localSpanReceived», F.«InMemCollector.monitor», .atomic, [], false⟩,
+  ⟨L.«CollectorWorker.localSpanProcessed», F.«CollectorWorker.getLastSpanProcessed», .read, [], false⟩,
+  ⟨L.«CollectorWorker.localSpanProcessed», F.«CollectorWorker.getLastSpanProcessed», .write, [], false⟩,
+  ⟨L.«CollectorWorker.localSpanProcessed», F.«CollectorWorker.processSpan$1», .write, [], false⟩,
+  ⟨L.«CollectorWorker.healthCheckInAt», F.«CollectorWorker.IsHealthy», .atomic, [], false⟩,
+  ⟨L.«CollectorWorker.healthCheckInAt», F.«CollectorWorker.collect», .atomic, [], false⟩,
+  ⟨L.«StressRelief.RefineryMetrics», F.«StressRelief.Recalc», .read, [(L.«StressRelief.lock», .ex)], false⟩,
+  ⟨L.«StressRelief.RefineryMetrics», F.«StressRelief.Recalc», .read, [], false⟩,
+  ⟨L.«StressRelief.RefineryMetrics», F.«StressRelief.Start», .read, [], false⟩,
+  ⟨L.«StressRelief.RefineryMetrics», F.«StressRelief.ratio», .read, [], false⟩,
+  ⟨L.«StressRelief.Config», F.«StressRelief.UpdateFromConfig», .read, [(L.«StressRelief.lock», .ex)], false⟩,
+  ⟨L.«StressRelief.Logger», F.«StressRelief.Recalc», .read, [(L.«StressRelief.lock», .ex)], false⟩,
+  ⟨L.«StressRelief.Logger», F.«StressRelief.Recalc», .read, [], false⟩,
+  ⟨L.«StressRelief.Logger», F.«StressRelief.Start$1», .read, [], false⟩,
+  ⟨L.«StressRelief.Logger», F.«StressRelief.Start$2», .read, [], false⟩,
+  ⟨L.«StressRelief.Logger», F.«StressRelief.Start», .read, [], false⟩,
+  ⟨L.«StressRelief.Logger», F.«StressRelief.UpdateFromConfig», .read, [(L.«StressRelief.lock», .ex)], false⟩,
+  ⟨L.«StressRelief.Logger», F.«StressRelief.linear», .read, [], false⟩,
+  ⟨L.«StressRelief.Logger», F.«StressRelief.onStressLevelUpdate», .read, [], false⟩,
+  ⟨L.«StressRelief.Logger», F.«StressRelief.ratio», .read, [], false⟩,
+  ⟨L.«StressRelief.Logger», F.«StressRelief.sigmoid», .read, [], false⟩,
+  ⟨L.«StressRelief.Logger», F.«StressRelief.sqrt», .read, [], false⟩,
+  ⟨L.«StressRelief.Logger», F.«StressRelief.square», .read, [], false⟩,
+  ⟨L.«StressRelief.Health», F.«StressRelief.Start$2», .read, [], false⟩,
+  ⟨L.«StressRelief.Health», F.«StressRelief.Start», .read, [], false⟩,
+  ⟨L.«StressRelief.PubSub», F.«StressRelief.Start$2», .read, [], false⟩,
+  ⟨L.«StressRelief.PubSub», F.«StressRelief.Start», .read, [], false⟩,
+  ⟨L.«StressRelief.Peer», F.«StressRelief.Start», .read, [], false⟩,
+  ⟨L.«StressRelief.Clock», F.«StressRelief.Recalc», .read, [(L.«StressRelief.lock», .ex)], false⟩,
+  ⟨L.«StressRelief.Clock», F.«StressRelief.Start$2», .read, [], false⟩,
+  ⟨L.«StressRelief.Clock», F.«StressRelief.clusterStressLevel», .read, [(L.«StressRelief.lock», .ex)], false⟩,
+  ⟨L.«StressRelief.Clock», F.«StressRelief.clusterStressLevel», .read, [], false⟩,
+  ⟨L.«StressRelief.Clock», F.«StressRelief.onStressLevelUpdate», .read, [(L.«StressRelief.lock», .ex)], false⟩,
+  ⟨L.«StressRelief.Done», F.«StressRelief.Start$2», .read, [], false⟩,
+  ⟨L.«StressRelief.mode», F.«StressRelief.Recalc», .read, [(L.«StressRelief.lock», .ex)], false⟩,
+  ⟨L.«StressRelief.mode», F.«StressRelief.UpdateFromConfig», .read, [(L.«StressRelief.lock», .ex)], false⟩,
+  ⟨L.«StressRelief.mode», F.«StressRelief.UpdateFromConfig», .write, [(L.«StressRelief.lock», .ex)], false⟩,
+  ⟨L.«StressRelief.hostID», F.«StressRelief.Start$2», .read, [], false⟩,
+  ⟨L.«StressRelief.hostID», F.«StressRelief.Start», .write, [], false⟩,
+  ⟨L.«StressRelief.hostID», F.«StressRelief.clusterStressLevel», .read, [], false⟩,
+  ⟨L.«StressRelief.activateLevel», F.«StressRelief.Recalc», .read, [(L.«StressRelief.lock», .ex)], false⟩,
+  ⟨L.«StressRelief.activateLevel», F.«StressRelief.UpdateFromConfig», .read, [(L.«StressRelief.lock», .ex)], false⟩,
+  ⟨L.«StressRelief.activateLevel», F.«StressRelief.UpdateFromConfig», .write, [(L.«StressRelief.lock», .ex)], false⟩,
+  ⟨L.«StressRelief.deactivateLevel», F.«StressRelief.Recalc», .read, [(L.«StressRelief.lock», .ex)], false⟩,
+  ⟨L.«StressRelief.deactivateLevel», F.«StressRelief.UpdateFromConfig», .read, [(L.«StressRelief.lock», .ex)], false⟩,
+  ⟨L.«StressRelief.deactivateLevel», F.«StressRelief.UpdateFromConfig», .write, [(L.«StressRelief.lock», .ex)], false⟩,
+  ⟨L.«StressRelief.sampleRate», F.«StressRelief.GetSampleRate», .read, [(L.«StressRelief.lock», .sh)], false⟩,
+  ⟨L.«StressRelief.sampleRate», F.«StressRelief.UpdateFromConfig», .read, [(L.«StressRelief.lock», .ex)], false⟩,
+  ⟨L.«StressRelief.sampleRate», F.«StressRelief.UpdateFromConfig», .write, [(L.«StressRelief.lock», .ex)], false⟩,
+  ⟨L.«StressRelief.upperBound», F.«StressRelief.GetSampleRate», .read, [(L.«StressRelief.lock», .sh)], false⟩,
+  ⟨L.«StressRelief.upperBound», F.«StressRelief.UpdateFromConfig», .write, [(L.«StressRelief.lock», .ex)], false⟩,
+  ⟨L.«StressRelief.overallStressLevel», F.«StressRelief.Recalc», .read, [(L.«StressRelief.lock», .ex)], false⟩,
+  ⟨L.«StressRelief.overallStressLevel», F.«StressRelief.Recalc», .write, [(L.«StressRelief.lock», .ex)], false⟩,
+  ⟨L.«StressRelief.reason», F.«StressRelief.GetSampleRate», .read, [(L.«StressRelief.lock», .sh)], false⟩,
+  ⟨L.«StressRelief.reason», F.«StressRelief.Recalc», .read, [(L.«StressRelief.lock», .ex)], false⟩,
+  ⟨L.«StressRelief.reason», F.«StressRelief.Recalc», .write, [(L.«StressRelief.lock», .ex)], false⟩,
+  ⟨L.«StressRelief.formula», F.«StressRelief.Recalc», .read, [(L.«StressRelief.lock», .ex)], false⟩,
+  ⟨L.«StressRelief.formula», F.«StressRelief.Recalc», .read, [], false⟩,
+  ⟨L.«StressRelief.formula», F.«StressRelief.Recalc», .write, [(L.«StressRelief.lock», .ex)], false⟩,
+  ⟨L.«StressRelief.stressed», F.«StressRelief.Recalc», .read, [(L.«StressRelief.lock», .ex)], false⟩,
+  ⟨L.«StressRelief.stressed», F.«StressRelief.Recalc», .write, [(L.«StressRelief.lock», .ex)], false⟩,
+  ⟨L.«StressRelief.stressed», F.«StressRelief.Stressed», .read, [(L.«StressRelief.lock», .sh)], false⟩,
+  ⟨L.«StressRelief.stayOnUntil», F.«StressRelief.Recalc», .read, [(L.«StressRelief.lock», .ex)], false⟩,
+  ⟨L.«StressRelief.stayOnUntil», F.«StressRelief.Recalc», .write, [(L.«StressRelief.lock», .ex)], false⟩,
+  ⟨L.«StressRelief.minDuration», F.«StressRelief.Recalc», .read, [(L.«StressRelief.lock», .ex)], false⟩,
+  ⟨L.«StressRelief.minDuration», F.«StressRelief.UpdateFromConfig», .read, [(L.«StressRelief.lock», .ex)], false⟩,
+  ⟨L.«StressRelief.minDuration», F.«StressRelief.UpdateFromConfig», .write, [(L.«StressRelief.lock», .ex)], false⟩,
+  ⟨L.«StressRelief.topic», F.«StressRelief.Start$2», .read, [], false⟩,
+  ⟨L.«StressRelief.topic», F.«StressRelief.Start», .read, [], false⟩,
+  ⟨L.«StressRelief.topic», F.«StressRelief.Start», .write, [], false⟩,
+  ⟨L.«StressRelief.algorithms», F.«StressRelief.Recalc», .read, [], false⟩,
+  ⟨L.«StressRelief.algorithms», F.«StressRelief.Start», .write, [], false⟩,
+  ⟨L.«StressRelief.lock», F.«StressRelief.GetSampleRate», .atomic, [(L.«StressRelief.lock», .sh)], false⟩,
+  ⟨L.«StressRelief.lock», F.«StressRelief.GetSampleRate», .atomic, [], false⟩,
+  ⟨L.«StressRelief.lock», F.«StressRelief.Recalc», .atomic, [(L.«StressRelief.lock», .ex)], false⟩,
+  ⟨L.«StressRelief.lock», F.«StressRelief.Recalc», .atomic, [], false⟩,
+  ⟨L.«StressRelief.lock», F.«StressRelief.Stressed», .atomic, [(L.«StressRelief.lock», .sh)], false⟩,
+  ⟨L.«StressRelief.lock», F.«StressRelief.Stressed», .atomic, [], false⟩,
+  ⟨L.«StressRelief.lock», F.«StressRelief.UpdateFromConfig», .atomic, [(L.«StressRelief.lock», .ex)], false⟩,
+  ⟨L.«StressRelief.lock», F.«StressRelief.UpdateFromConfig», .atomic, [], false⟩,
+  ⟨L.«StressRelief.lock», F.«StressRelief.clusterStressLevel», .atomic, [(L.«StressRelief.lock», .ex)], false⟩,
+  ⟨L.«StressRelief.lock», F.«StressRelief.clusterStressLevel», .atomic, [], false⟩,
+  ⟨L.«StressRelief.lock», F.«StressRelief.onStressLevelUpdate», .atomic, [(L.«StressRelief.lock», .ex)], false⟩,
+  ⟨L.«StressRelief.lock», F.«StressRelief.onStressLevelUpdate», .atomic, [], false⟩,
+  ⟨L.«StressRelief.stressLevels», F.«StressRelief.Start», .write, [], false⟩,
+  ⟨L.«StressRelief.stressLevels», F.«StressRelief.clusterStressLevel», .read, [(L.«StressRelief.lock», .ex)], false⟩,
+  ⟨L.«StressRelief.stressLevels», F.«StressRelief.clusterStressLevel», .write, [(L.«StressRelief.lock», .ex)], false⟩,
+  ⟨L.«StressRelief.stressLevels», F.«StressRelief.onStressLevelUpdate», .write, [(L.«StressRelief.lock», .ex)], false⟩,
+  ⟨L.«StressRelief.disableStressLevelReport», F.«StressRelief.Start$2», .read, [], false⟩,
+  ⟨L.«CuckooTraceChecker.current», F.«CuckooTraceChecker.Check», .read, [(L.«CuckooTraceChecker.mut», .sh)], false⟩,
+  ⟨L.«CuckooTraceChecker.current», F.«CuckooTraceChecker.Maintain», .read, [(L.«CuckooTraceChecker.mut», .sh)], false⟩,
+  ⟨L.«CuckooTraceChecker.current», F.«CuckooTraceChecker.Maintain», .write, [(L.«CuckooTraceChecker.mut», .ex)], false⟩,
+  ⟨L.«CuckooTraceChecker.current», F.«CuckooTraceChecker.drain», .read, [(L.«CuckooTraceChecker.mut», .ex)], false⟩,
+  ⟨L.«CuckooTraceChecker.current*», F.«CuckooTraceChecker.Check», .read, [(L.«CuckooTraceChecker.mut», .sh)], false⟩,
+  ⟨L.«CuckooTraceChecker.current*», F.«CuckooTraceChecker.Maintain», .read, [(L.«CuckooTraceChecker.mut», .sh)], false⟩,
+  ⟨L.«CuckooTraceChecker.current*», F.«CuckooTraceChecker.drain», .write, [(L.«CuckooTraceChecker.mut», .ex)], false⟩,
+  ⟨L.«CuckooTraceChecker.future», F.«CuckooTraceChecker.Maintain», .read, [(L.«CuckooTraceChecker.mut», .ex)], false⟩,
+  ⟨L.«CuckooTraceChecker.future», F.«CuckooTraceChecker.Maintain», .read, [(L.«CuckooTraceChecker.mut», .sh)], false⟩,
+  ⟨L.«CuckooTraceChecker.future», F.«CuckooTraceChecker.Maintain», .read, [], false⟩,
+  ⟨L.«CuckooTraceChecker.future», F.«CuckooTraceChecker.Maintain», .write, [(L.«CuckooTraceChecker.mut», .ex)], false⟩,
+  ⟨L.«CuckooTraceChecker.future», F.«CuckooTraceChecker.drain», .read, [(L.«CuckooTraceChecker.mut», .ex)], false⟩,
+  ⟨L.«CuckooTraceChecker.future*», F.«CuckooTraceChecker.Maintain», .read, [(L.«CuckooTraceChecker.mut», .sh)], false⟩,
+  ⟨L.«CuckooTraceChecker.future*», F.«CuckooTraceChecker.drain», .write, [(L.«CuckooTraceChecker.mut», .ex)], false⟩,
+  ⟨L.«CuckooTraceChecker.mut», F.«CuckooTraceChecker.Check», .atomic, [(L.«CuckooTraceChecker.mut», .sh)], false⟩,
+  ⟨L.«CuckooTraceChecker.mut», F.«CuckooTraceChecker.Check», .atomic, [], false⟩,
+  ⟨L.«CuckooTraceChecker.mut», F.«CuckooTraceChecker.Maintain», .atomic, [(L.«CuckooTraceChecker.mut», .ex)], false⟩,
+  ⟨L.«CuckooTraceChecker.mut», F.«CuckooTraceChecker.Maintain», .atomic, [(L.«CuckooTraceChecker.mut», .sh)], false⟩,
+  ⟨L.«CuckooTraceChecker.mut», F.«CuckooTraceChecker.Maintain», .atomic, [], false⟩,
+  ⟨L.«CuckooTraceChecker.mut», F.«CuckooTraceChecker.SetNextCapacity», .atomic, [(L.«CuckooTraceChecker.mut», .ex)], false⟩,
+  ⟨L.«CuckooTraceChecker.mut», F.«CuckooTraceChecker.SetNextCapacity», .atomic, [], false⟩,
+  ⟨L.«CuckooTraceChecker.mut», F.«CuckooTraceChecker.drain», .atomic, [(L.«CuckooTraceChecker.mut», .ex)], false⟩,
+  ⟨L.«CuckooTraceChecker.mut», F.«CuckooTraceChecker.drain», .atomic, [], false⟩,
+  ⟨L.«CuckooTraceChecker.capacity», F.«CuckooTraceChecker.Maintain», .read, [(L.«CuckooTraceChecker.mut», .ex)], false⟩,
+  ⟨L.«CuckooTraceChecker.capacity», F.«CuckooTraceChecker.Maintain», .read, [(L.«CuckooTraceChecker.mut», .sh)], false⟩,
+  ⟨L.«CuckooTraceChecker.capacity», F.«CuckooTraceChecker.SetNextCapacity», .write, [(L.«CuckooTraceChecker.mut», .ex)], false⟩,
+  ⟨L.«CuckooTraceChecker.met», F.«CuckooTraceChecker.Add», .read, [], false⟩,
+  ⟨L.«CuckooTraceChecker.met», F.«CuckooTraceChecker.Maintain», .read, [(L.«CuckooTraceChecker.mut», .sh)], false⟩,
+  ⟨L.«CuckooTraceChecker.met», F.«CuckooTraceChecker.drain», .read, [], false⟩,
+  ⟨L.«CuckooTraceChecker.addch», F.«CuckooTraceChecker.Add», .read, [], false⟩,
+  ⟨L.«CuckooTraceChecker.addch», F.«CuckooTraceChecker.Stop», .read, [], false⟩,
+  ⟨L.«CuckooTraceChecker.addch», F.«CuckooTraceChecker.drain», .read, [(L.«CuckooTraceChecker.mut», .ex)], false⟩,
+  ⟨L.«CuckooTraceChecker.addch», F.«CuckooTraceChecker.drain», .read, [], false⟩,
+  ⟨L.«CuckooTraceChecker.addch», F.«NewCuckooTraceChecker$1», .read, [], false⟩,
+  ⟨L.«CuckooTraceChecker.done», F.«CuckooTraceChecker.Stop», .read, [], false⟩,
+  ⟨L.«CuckooTraceChecker.done», F.«NewCuckooTraceChecker$1», .read, [], false⟩,
+  ⟨L.«CuckooTraceChecker.shutdownWG», F.«CuckooTraceChecker.Stop», .atomic, [], false⟩,
+  ⟨L.«CuckooTraceChecker.shutdownWG», F.«NewCuckooTraceChecker$1», .atomic, [], false⟩,
+  ⟨L.«CuckooTraceChecker.shutdownWG», F.«NewCuckooTraceChecker», .atomic, [], true⟩,
+  ⟨L.«cuckooSentCache.met», F.«cuckooSentCache.monitor», .read, [], false⟩,
+  ⟨L.«cuckooSentCache.kept», F.«cuckooSentCache.CheckSpan», .read, [], false⟩,
+  ⟨L.«cuckooSentCache.kept», F.«cuckooSentCache.CheckTrace», .read, [], false⟩,
+  ⟨L.«cuckooSentCache.kept», F.«cuckooSentCache.Record», .read, [], false⟩,
+  ⟨L.«cuckooSentCache.kept», F.«cuckooSentCache.Resize», .read, [], false⟩,
+  ⟨L.«cuckooSentCache.kept», F.«cuckooSentCache.Resize», .write, [], false⟩,
+  ⟨L.«cuckooSentCache.dropped», F.«cuckooSentCache.CheckSpan», .read, [], false⟩,
+  ⟨L.«cuckooSentCache.dropped», F.«cuckooSentCache.CheckTrace», .read, [], false⟩,
+  ⟨L.«cuckooSentCache.dropped», F.«cuckooSentCache.Record», .read, [], false⟩,
+  ⟨L.«cuckooSentCache.dropped», F.«cuckooSentCache.Resize», .read, [], false⟩,
+  ⟨L.«cuckooSentCache.dropped», F.«cuckooSentCache.Stop», .read, [], false⟩,
+  ⟨L.«cuckooSentCache.dropped», F.«cuckooSentCache.monitor», .read, [], false⟩,
+  ⟨L.«cuckooSentCache.recentDroppedIDs», F.«cuckooSentCache.CheckSpan», .read, [], false⟩,
+  ⟨L.«cuckooSentCache.recentDroppedIDs», F.«cuckooSentCache.CheckTrace», .read, [], false⟩,
+  ⟨L.«cuckooSentCache.recentDroppedIDs», F.«cuckooSentCache.Record», .read, [], false⟩,
+  ⟨L.«cuckooSentCache.recentDroppedIDs», F.«cuckooSentCache.monitor», .read, [], false⟩,
+  ⟨L.«cuckooSentCache.cfg», F.«cuckooSentCache.monitor», .read, [], false⟩,
+  ⟨L.«cuckooSentCache.done», F.«cuckooSentCache.Resize», .read, [], false⟩,
+  ⟨L.«cuckooSentCache.done», F.«cuckooSentCache.Stop», .read, [], false⟩,
+  ⟨L.«cuckooSentCache.done», F.«cuckooSentCache.monitor», .read, [], false⟩,
+  ⟨L.«cuckooSentCache.shutdownWG», F.«NewCuckooSentCache», .atomic, [], true⟩,
+  ⟨L.«cuckooSentCache.shutdownWG», F.«cuckooSentCache.Resize», .atomic, [], false⟩,
+  ⟨L.«cuckooSentCache.shutdownWG», F.«cuckooSentCache.Stop», .atomic, [], false⟩,
+  ⟨L.«cuckooSentCache.shutdownWG», F.«cuckooSentCache.monitor», .atomic, [], false⟩,
+  ⟨L.«cuckooSentCache.keptReasons», F.«cuckooSentCache.CheckSpan», .read, [], false⟩,
+  ⟨L.«cuckooSentCache.keptReasons», F.«cuckooSentCache.CheckTrace», .read, [], false⟩,
+  ⟨L.«cuckooSentCache.keptReasons», F.«cuckooSentCache.Record», .read, [], false⟩,
+  ⟨L.«Router.Config», F.«LogsServer.Export», .read, [], false⟩,
+  ⟨L.«Router.Config», F.«Router.LnS», .read, [], false⟩,
+  ⟨L.«Router.Config», F.«Router.apiKeyProcessor$1», .read, [], false⟩,
+  ⟨L.«Router.Config», F.«Router.batch», .read, [], false⟩,
+  ⟨L.«Router.Config», F.«Router.getAllSamplerRules», .read, [], false⟩,
+  ⟨L.«Router.Config», F.«Router.getConfigMetadata», .read, [], false⟩,
+  ⟨L.«Router.Config», F.«Router.getSamplerRules», .read, [], false⟩,
+  ⟨L.«Router.Config», F.«Router.lookupEnvironment», .read, [], false⟩,
+  ⟨L.«Router.Config», F.«Router.postOTLPLogs», .read, [], false⟩,
+  ⟨L.«Router.Config», F.«Router.postOTLPTrace», .read, [], false⟩,
+  ⟨L.«Router.Config», F.«Router.processEvent», .read, [], false⟩,
+  ⟨L.«Router.Config», F.«Router.processOTLPRequestBatchMsgp», .read, [], false⟩,
+  ⟨L.«Router.Config», F.«Router.processOTLPRequest», .read, [], false⟩,
+  ⟨L.«Router.Config», F.«Router.proxy», .read, [], false⟩,
+  ⟨L.«Router.Config», F.«Router.queryTokenChecker$1», .read, [], false⟩,
+  ⟨L.«Router.Config», F.«Router.requestToEvent», .read, [], false⟩,
+  ⟨L.«Router.Config», F.«TraceServer.ExportTraceData», .read, [], false⟩,
+  ⟨L.«Router.Config», F.«customTraceExportHandler», .read, [], false⟩,
+  ⟨L.«Router.Logger», F.«Router.LnS», .read, [], false⟩,
+  ⟨L.«Router.Logger», F.«Router.handleOTLPFailureResponse», .read, [], false⟩,
+  ⟨L.«Router.Logger», F.«Router.handlerReturnWithError», .read, [], false⟩,
+  ⟨L.«Router.Logger», F.«Router.lookupEnvironment», .read, [], false⟩,
+  ⟨L.«Router.Logger», F.«Router.postOTLPTrace», .read, [], false⟩,
+  ⟨L.«Router.Logger», F.«Router.processOTLPRequestBatchMsgp», .read, [], false⟩,
+  ⟨L.«Router.Logger», F.«Router.processOTLPRequest», .read, [], false⟩,
+  ⟨L.«Router.Logger», F.«Router.proxy», .read, [], false⟩,
+  ⟨L.«Router.Logger», F.«Router.requestLogger$1», .read, [], false⟩,
+  ⟨L.«Router.Health», F.«Router.alive», .read, [], false⟩,
+  ⟨L.«Router.Health», F.«Router.ready», .read, [], false⟩,
+  ⟨L.«Router.Health», F.«Router.startGRPCHealthMonitor$2», .read, [], false⟩,
+  ⟨L.«Router.HTTPTransport», F.«Router.LnS», .read, [], false⟩,
+  ⟨L.«Router.UpstreamTransmission», F.«Router.processEvent», .read, [], false⟩,
+  ⟨L.«Router.PeerTransmission», F.«Router.processEvent», .read, [], false⟩,
+  ⟨L.«Router.Sharder», F.«Router.debugTrace», .read, [], false⟩,
+  ⟨L.«Router.Sharder», F.«Router.processEvent», .read, [], false⟩,
+  ⟨L.«Router.Collector», F.«Router.processEvent», .read, [], false⟩,
+  ⟨L.«Router.Metrics», F.«LogsServer.Export», .read, [], false⟩,
+  ⟨L.«Router.Metrics», F.«Router.alive», .read, [], false⟩,
+  ⟨L.«Router.Metrics», F.«Router.batch», .read, [], false⟩,
+  ⟨L.«Router.Metrics», F.«Router.event», .read, [], false⟩,
+  ⟨L.«Router.Metrics», F.«Router.postOTLPLogs», .read, [], false⟩,
+  ⟨L.«Router.Metrics», F.«Router.postOTLPTrace», .read, [], false⟩,
+  ⟨L.«Router.Metrics», F.«Router.processEvent», .read, [], false⟩,
+  ⟨L.«Router.Metrics», F.«Router.processOTLPRequestBatchMsgp», .read, [], false⟩,
+  ⟨L.«Router.Metrics», F.«Router.processOTLPRequest», .read, [], false⟩,
+  ⟨L.«Router.Metrics», F.«Router.proxy», .read, [], false⟩,
+  ⟨L.«Router.Metrics», F.«Router.ready», .read, [], false⟩,
+  ⟨L.«Router.Metrics», F.«Router.registerMetricNames», .read, [], false⟩,
+  ⟨L.«Router.Metrics», F.«TraceServer.ExportTraceData», .read, [], false⟩,
+  ⟨L.«Router.Tracer», F.«LogsServer.Export», .read, [], false⟩,
+  ⟨L.«Router.Tracer», F.«Router.postOTLPLogs», .read, [], false⟩,
+  ⟨L.«Router.Tracer», F.«Router.postOTLPTrace», .read, [], false⟩,
+  ⟨L.«Router.Tracer», F.«TraceServer.ExportTraceData», .read, [], false⟩,
+  ⟨L.«Router.versionStr», F.«Router.SetVersion», .write, [], false⟩,
+  ⟨L.«Router.versionStr», F.«Router.version», .read, [], false⟩,
+  ⟨L.«Router.proxyClient», F.«Router.LnS», .write, [], false⟩,
+  ⟨L.«Router.proxyClient», F.«Router.lookupEnvironment», .read, [], false⟩,
+  ⟨L.«Router.proxyClient», F.«Router.proxy», .read, [], false⟩,
+  ⟨L.«Router.routerType», F.«Router.LnS», .read, [], false⟩,
+  ⟨L.«Router.routerType», F.«Router.SetType», .write, [], false⟩,
+  ⟨L.«Router.routerType», F.«Router.processEvent», .read, [], false⟩,
+  ⟨L.«Router.routerType», F.«Router.registerMetricNames», .read, [], false⟩,
+  ⟨L.«Router.iopLogger», F.«Router.Check», .read, [], false⟩,
+  ⟨L.«Router.iopLogger», F.«Router.LnS$1», .read, [], false⟩,
+  ⟨L.«Router.iopLogger», F.«Router.LnS», .read, [], false⟩,
+  ⟨L.«Router.iopLogger», F.«Router.LnS», .write, [], false⟩,
+  ⟨L.«Router.iopLogger», F.«Router.Watch», .read, [], false⟩,
+  ⟨L.«Router.iopLogger», F.«Router.alive», .read, [], false⟩,
+  ⟨L.«Router.iopLogger», F.«Router.batch», .read, [], false⟩,
+  ⟨L.«Router.iopLogger», F.«Router.processEvent», .read, [], false⟩,
+  ⟨L.«Router.iopLogger», F.«Router.ready», .read, [], false⟩,
+  ⟨L.«Router.iopLogger», F.«Router.startGRPCHealthMonitor», .read, [], false⟩,
+  ⟨L.«Router.zstdDecoder», F.«Router.LnS», .write, [], false⟩,
+  ⟨L.«Router.zstdDecoder», F.«Router.readZstdBody», .read, [], false⟩,
+  ⟨L.«Router.server», F.«Router.LnS$1», .read, [], false⟩,
+  ⟨L.«Router.server», F.«Router.LnS», .write, [], false⟩,
+  ⟨L.«Router.server», F.«Router.Stop», .read, [], false⟩,
+  ⟨L.«Router.grpcServer», F.«Router.LnS», .read, [], false⟩,
+  ⟨L.«Router.grpcServer», F.«Router.LnS», .write, [], false⟩,
+  ⟨L.«Router.grpcServer», F.«Router.Stop», .read, [], false⟩,
+  ⟨L.«Router.doneWG», F.«Router.LnS$1», .atomic, [], false⟩,
+  ⟨L.«Router.doneWG», F.«Router.LnS», .atomic, [], false⟩,
+  ⟨L.«Router.doneWG», F.«Router.Stop», .atomic, [], false⟩,
+  ⟨L.«Router.doneWG», F.«Router.startGRPCHealthMonitor$2», .atomic, [], false⟩,
+  ⟨L.«Router.doneWG», F.«Router.startGRPCHealthMonitor», .atomic, [], false⟩,
+  ⟨L.«Router.donech», F.«Router.LnS», .write, [], false⟩,
+  ⟨L.«Router.donech», F.«Router.Stop», .read, [], false⟩,
+  ⟨L.«Router.donech», F.«Router.startGRPCHealthMonitor$2», .read, [], false⟩,
+  ⟨L.«Router.environmentCache», F.«Router.LnS», .write, [], false⟩,
+  ⟨L.«Router.environmentCache», F.«Router.SetEnvironmentCache», .write, [], false⟩,
+  ⟨L.«Router.environmentCache», F.«Router.getEnvironmentName», .read, [], false⟩,
+  ⟨L.«Router.environmentCache», F.«Router.getKeyID», .read, [], false⟩,
+  ⟨L.«Router.hsrv», F.«Router.LnS», .read, [], false⟩,
+  ⟨L.«Router.hsrv», F.«Router.LnS», .write, [], false⟩,
+  ⟨L.«Router.hsrv», F.«Router.startGRPCHealthMonitor$1», .read, [], false⟩,
+  ⟨L.«Router.metricsNames», F.«LogsServer.Export», .read, [], false⟩,
+  ⟨L.«Router.metricsNames», F.«Router.batch», .read, [], false⟩,
+  ⟨L.«Router.metricsNames», F.«Router.event», .read, [], false⟩,
+  ⟨L.«Router.metricsNames», F.«Router.postOTLPLogs», .read, [], false⟩,
+  ⟨L.«Router.metricsNames», F.«Router.postOTLPTrace», .read, [], false⟩,
+  ⟨L.«Router.metricsNames», F.«Router.processEvent», .read, [], false⟩,
+  ⟨L.«Router.metricsNames», F.«Router.processOTLPRequestBatchMsgp», .read, [], false⟩,
+  ⟨L.«Router.metricsNames», F.«Router.processOTLPRequest», .read, [], false⟩,
+  ⟨L.«Router.metricsNames», F.«Router.proxy», .read, [], false⟩,
+  ⟨L.«Router.metricsNames», F.«Router.registerMetricNames», .write, [], false⟩,
+  ⟨L.«Router.metricsNames», F.«TraceServer.ExportTraceData», .read, [], false⟩,
+  ⟨L.«environmentCache.mutex», F.«environmentCache.get», .atomic, [(L.«environmentCache.mutex», .ex)], false⟩,
+  ⟨L.«environmentCache.mutex», F.«environmentCache.get», .atomic, [(L.«environmentCache.mutex», .sh)], false⟩,
+  ⟨L.«environmentCache.mutex», F.«environmentCache.get», .atomic, [], false⟩,
+  ⟨L.«environmentCache.items», F.«environmentCache.addItem», .write, [(L.«environmentCache.mutex», .ex)], false⟩,
+  ⟨L.«environmentCache.items», F.«environmentCache.get», .read, [(L.«environmentCache.mutex», .ex)], false⟩,
+  ⟨L.«environmentCache.items», F.«environmentCache.get», .read, [(L.«environmentCache.mutex», .sh)], false⟩,
+  ⟨L.«environmentCache.ttl», F.«environmentCache.get», .read, [(L.«environmentCache.mutex», .ex)], false⟩,
+  ⟨L.«environmentCache.getFn», F.«environmentCache.get», .read, [(L.«environmentCache.mutex», .ex)], false⟩,
+  ⟨L.«eventBatch.mutex», F.«DirectTransmission.EnqueueEvent», .atomic, [(L.«eventBatch.mutex», .ex)], false⟩,
+  ⟨L.«eventBatch.mutex», F.«DirectTransmission.EnqueueEvent», .atomic, [], false⟩,
+  ⟨L.«eventBatch.mutex», F.«DirectTransmission.dispatchStaleBatches», .atomic, [(L.«eventBatch.mutex», .ex)], false⟩,
+  ⟨L.«eventBatch.mutex», F.«DirectTransmission.dispatchStaleBatches», .atomic, [], false⟩,
+  ⟨L.«eventBatch.events», F.«DirectTransmission.EnqueueEvent», .read, [(L.«eventBatch.mutex», .ex)], false⟩,
+  ⟨L.«eventBatch.events», F.«DirectTransmission.EnqueueEvent», .write, [(L.«eventBatch.mutex», .ex)], false⟩,
+  ⟨L.«eventBatch.events», F.«DirectTransmission.Stop$1», .read, [], false⟩,
+  ⟨L.«eventBatch.events», F.«DirectTransmission.Stop», .read, [], false⟩,
+  ⟨L.«eventBatch.events», F.«DirectTransmission.dispatchStaleBatches», .read, [(L.«eventBatch.mutex», .ex)], false⟩,
+  ⟨L.«eventBatch.events», F.«DirectTransmission.dispatchStaleBatches», .write, [(L.«eventBatch.mutex», .ex)], false⟩,
+  ⟨L.«eventBatch.startTime», F.«DirectTransmission.EnqueueEvent», .write, [(L.«eventBatch.mutex», .ex)], false⟩,
+  ⟨L.«eventBatch.startTime», F.«DirectTransmission.dispatchStaleBatches», .read, [(L.«eventBatch.mutex», .ex)], false⟩,
+  ⟨L.«DirectTransmission.Config», F.«DirectTransmission.handleError», .read, [], false⟩,
+  ⟨L.«DirectTransmission.Logger», F.«DirectTransmission.EnqueueEvent», .read, [], false⟩,
+  ⟨L.«DirectTransmission.Logger», F.«DirectTransmission.Start», .read, [], false⟩,
+  ⟨L.«DirectTransmission.Logger», F.«DirectTransmission.handleError», .read, [], false⟩,
+  ⟨L.«DirectTransmission.Logger», F.«DirectTransmission.sendBatch», .read, [], false⟩,
+  ⟨L.«DirectTransmission.Version», F.«DirectTransmission.Start», .read, [], false⟩,
+  ⟨L.«DirectTransmission.Metrics», F.«DirectTransmission.EnqueueEvent», .read, [], false⟩,
+  ⟨L.«DirectTransmission.Metrics», F.«DirectTransmission.dispatchStaleBatches», .read, [], false⟩,
+  ⟨L.«DirectTransmission.Metrics», F.«DirectTransmission.handleBatchFailure», .read, [], false⟩,
+  ⟨L.«DirectTransmission.Metrics», F.«DirectTransmission.handleEventError», .read, [], false⟩,
+  ⟨L.«DirectTransmission.Metrics», F.«DirectTransmission.registerMetrics», .read, [], false⟩,
+  ⟨L.«DirectTransmission.Metrics», F.«DirectTransmission.sendBatch», .read, [], false⟩,
+  ⟨L.«DirectTransmission.Transport», F.«DirectTransmission.Start», .read, [], false⟩,
+  ⟨L.«DirectTransmission.Clock», F.«DirectTransmission.EnqueueEvent», .read, [], false⟩,
+  ⟨L.«DirectTransmission.Clock», F.«DirectTransmission.dispatchStaleBatches», .read, [], false⟩,
+  ⟨L.«DirectTransmission.Clock», F.«DirectTransmission.sendBatch», .read, [], false⟩,
+  ⟨L.«DirectTransmission.transmitType», F.«DirectTransmission.Start», .read, [], false⟩,
+  ⟨L.«DirectTransmission.transmitType», F.«DirectTransmission.registerMetrics», .read, [], false⟩,
+  ⟨L.«DirectTransmission.enableCompression», F.«DirectTransmission.sendBatch», .read, [], false⟩,
+  ⟨L.«DirectTransmission.maxBatchSize», F.«DirectTransmission.EnqueueEvent», .read, [], false⟩,
+  ⟨L.«DirectTransmission.batchTimeout», F.«DirectTransmission.dispatchStaleBatches», .read, [], false⟩,
+  ⟨L.«DirectTransmission.batchSendTimeout», F.«DirectTransmission.Start», .read, [], false⟩,
+  ⟨L.«DirectTransmission.additionalHeaders», F.«DirectTransmission.sendBatch», .read, [], false⟩,
+  ⟨L.«DirectTransmission.eventBatches», F.«DirectTransmission.EnqueueEvent», .read, [(L.«DirectTransmission.batchMutex», .ex)], false⟩,
+  ⟨L.«DirectTransmission.eventBatches», F.«DirectTransmission.EnqueueEvent», .read, [(L.«DirectTransmission.batchMutex», .sh)], false⟩,
+  ⟨L.«DirectTransmission.eventBatches», F.«DirectTransmission.EnqueueEvent», .write, [(L.«DirectTransmission.batchMutex», .ex)], false⟩,
+  ⟨L.«DirectTransmission.eventBatches», F.«DirectTransmission.Stop», .read, [], false⟩,
+  ⟨L.«DirectTransmission.eventBatches», F.«DirectTransmission.Stop», .write, [], false⟩,
+  ⟨L.«DirectTransmission.eventBatches», F.«DirectTransmission.dispatchStaleBatches», .read, [(L.«DirectTransmission.batchMutex», .sh)], false⟩,
+  ⟨L.«DirectTransmission.batchMutex», F.«DirectTransmission.EnqueueEvent», .atomic, [(L.«DirectTransmission.batchMutex», .ex)], false⟩,
+  ⟨L.«DirectTransmission.batchMutex», F.«DirectTransmission.EnqueueEvent», .atomic, [(L.«DirectTransmission.batchMutex», .sh)], false⟩,
+  ⟨L.«DirectTransmission.batchMutex», F.«DirectTransmission.EnqueueEvent», .atomic, [], false⟩,
+  ⟨L.«DirectTransmission.batchMutex», F.«DirectTransmission.dispatchStaleBatches», .atomic, [(L.«DirectTransmission.batchMutex», .sh)], false⟩,
+  ⟨L.«DirectTransmission.batchMutex», F.«DirectTransmission.dispatchStaleBatches», .atomic, [], false⟩,
+  ⟨L.«DirectTransmission.dispatchPool», F.«DirectTransmission.EnqueueEvent», .read, [], false⟩,
+  ⟨L.«DirectTransmission.dispatchPool», F.«DirectTransmission.Start», .write, [], false⟩,
+  ⟨L.«DirectTransmission.dispatchPool», F.«DirectTransmission.Stop», .read, [], false⟩,
+  ⟨L.«DirectTransmission.dispatchPool», F.«DirectTransmission.Stop», .write, [], false⟩,
+  ⟨L.«DirectTransmission.dispatchPool», F.«DirectTransmission.dispatchStaleBatches», .read, [], false⟩,
+  ⟨L.«DirectTransmission.stop», F.«DirectTransmission.Stop», .read, [], false⟩,
+  ⟨L.«DirectTransmission.stop», F.«DirectTransmission.Stop», .write, [], false⟩,
+  ⟨L.«DirectTransmission.stop», F.«DirectTransmission.dispatchStaleBatches», .read, [], false⟩,
+  ⟨L.«DirectTransmission.stopWG», F.«DirectTransmission.Start», .atomic, [], false⟩,
+  ⟨L.«DirectTransmission.stopWG», F.«DirectTransmission.Stop», .atomic, [], false⟩,
+  ⟨L.«DirectTransmission.stopWG», F.«DirectTransmission.dispatchStaleBatches», .atomic, [], false⟩,
+  ⟨L.«DirectTransmission.httpClient», F.«DirectTransmission.Start», .write, [], false⟩,
+  ⟨L.«DirectTransmission.httpClient», F.«DirectTransmission.sendBatch», .read, [], false⟩,
+  ⟨L.«DirectTransmission.userAgent», F.«DirectTransmission.Start», .write, [], false⟩,
+  ⟨L.«DirectTransmission.userAgent», F.«DirectTransmission.sendBatch», .read, [], false⟩,
+  ⟨L.«DirectTransmission.metricKeys», F.«DirectTransmission.EnqueueEvent», .read, [], false⟩,
+  ⟨L.«DirectTransmission.metricKeys», F.«DirectTransmission.dispatchStaleBatches», .read, [], false⟩,
+  ⟨L.«DirectTransmission.metricKeys», F.«DirectTransmission.handleBatchFailure», .read, [], false⟩,
+  ⟨L.«DirectTransmission.metricKeys», F.«DirectTransmission.handleEventError», .read, [], false⟩,
+  ⟨L.«DirectTransmission.metricKeys», F.«DirectTransmission.registerMetrics», .write, [], false⟩,
+  ⟨L.«DirectTransmission.metricKeys», F.«DirectTransmission.sendBatch», .read, [], false⟩,
+  ⟨L.«RedisPubsubPeers.Config», F.«RedisPubsubPeers.GetInstanceID», .read, [], false⟩,
+  ⟨L.«RedisPubsubPeers.Config», F.«RedisPubsubPeers.GetPeers», .read, [], false⟩,
+  ⟨L.«RedisPubsubPeers.Config», F.«RedisPubsubPeers.Ready$1», .read, [], false⟩,
+  ⟨L.«RedisPubsubPeers.Config», F.«RedisPubsubPeers.Ready», .read, [], false⟩,
+  ⟨L.«RedisPubsubPeers.Config», F.«RedisPubsubPeers.Start», .read, [], false⟩,
+  ⟨L.«RedisPubsubPeers.Config», F.«RedisPubsubPeers.stop», .read, [], false⟩,
+  ⟨L.«RedisPubsubPeers.Metrics», F.«RedisPubsubPeers.Start», .read, [], false⟩,
+  ⟨L.«RedisPubsubPeers.Metrics», F.«RedisPubsubPeers.Start», .write, [], false⟩,
+  ⟨L.«RedisPubsubPeers.Metrics», F.«RedisPubsubPeers.checkHash», .read, [], false⟩,
+  ⟨L.«RedisPubsubPeers.Metrics», F.«RedisPubsubPeers.listen», .read, [], false⟩,
+  ⟨L.«RedisPubsubPeers.Logger», F.«RedisPubsubPeers.GetInstanceID», .read, [], false⟩,
+  ⟨L.«RedisPubsubPeers.Logger», F.«RedisPubsubPeers.GetPeers», .read, [], false⟩,
+  ⟨L.«RedisPubsubPeers.Logger», F.«RedisPubsubPeers.Ready$1», .read, [], false⟩,
+  ⟨L.«RedisPubsubPeers.Logger», F.«RedisPubsubPeers.Ready», .read, [], false⟩,
+  ⟨L.«RedisPubsubPeers.Logger», F.«RedisPubsubPeers.Start», .read, [], false⟩,
+  ⟨L.«RedisPubsubPeers.Logger», F.«RedisPubsubPeers.Start», .write, [], false⟩,
+  ⟨L.«RedisPubsubPeers.Logger», F.«RedisPubsubPeers.stop», .read, [], false⟩,
+  ⟨L.«RedisPubsubPeers.PubSub», F.«RedisPubsubPeers.Ready$1», .read, [], false⟩,
+  ⟨L.«RedisPubsubPeers.PubSub», F.«RedisPubsubPeers.Start», .read, [], false⟩,
+  ⟨L.«RedisPubsubPeers.PubSub», F.«RedisPubsubPeers.stop», .read, [], false⟩,
+  ⟨L.«RedisPubsubPeers.Clock», F.«RedisPubsubPeers.Ready$1», .read, [], false⟩,
+  ⟨L.«RedisPubsubPeers.InstanceID», F.«RedisPubsubPeers.Ready$1», .read, [], false⟩,
+  ⟨L.«RedisPubsubPeers.InstanceID», F.«RedisPubsubPeers.Start», .read, [], false⟩,
+  ⟨L.«RedisPubsubPeers.InstanceID», F.«RedisPubsubPeers.stop», .read, [], false⟩,
+  ⟨L.«RedisPubsubPeers.Done», F.«RedisPubsubPeers.Ready$1», .read, [], false⟩,
+  ⟨L.«RedisPubsubPeers.peers», F.«RedisPubsubPeers.GetPeers», .read, [], false⟩,
+  ⟨L.«RedisPubsubPeers.peers», F.«RedisPubsubPeers.Ready$1», .read, [], false⟩,
+  ⟨L.«RedisPubsubPeers.peers», F.«RedisPubsubPeers.Start», .read, [], false⟩,
+  ⟨L.«RedisPubsubPeers.peers», F.«RedisPubsubPeers.Start», .write, [], false⟩,
+  ⟨L.«RedisPubsubPeers.peers», F.«RedisPubsubPeers.checkHash», .read, [], false⟩,
+  ⟨L.«RedisPubsubPeers.peers», F.«RedisPubsubPeers.listen», .read, [], false⟩,
+  ⟨L.«RedisPubsubPeers.hash», F.«RedisPubsubPeers.Ready$1», .read, [], false⟩,
+  ⟨L.«RedisPubsubPeers.hash», F.«RedisPubsubPeers.checkHash», .read, [], false⟩,
+  ⟨L.«RedisPubsubPeers.hash», F.«RedisPubsubPeers.checkHash», .write, [], false⟩,
+  ⟨L.«RedisPubsubPeers.callbacks», F.«RedisPubsubPeers.RegisterUpdatedPeersCallback», .read, [], false⟩,
+  ⟨L.«RedisPubsubPeers.callbacks», F.«RedisPubsubPeers.RegisterUpdatedPeersCallback», .write, [], false⟩,
+  ⟨L.«RedisPubsubPeers.callbacks», F.«RedisPubsubPeers.Start», .write, [], false⟩,
+  ⟨L.«RedisPubsubPeers.callbacks», F.«RedisPubsubPeers.checkHash», .read, [], false⟩,
+  ⟨L.«RedisPubsubPeers.sub», F.«RedisPubsubPeers.Start», .write, [], false⟩,
+  ⟨L.«RedisPubsubPeers.topic», F.«RedisPubsubPeers.Ready$1», .read, [], false⟩,
+  ⟨L.«RedisPubsubPeers.topic», F.«RedisPubsubPeers.Start», .read, [], false⟩,
+  ⟨L.«RedisPubsubPeers.topic», F.«RedisPubsubPeers.Start», .write, [], false⟩,
+  ⟨L.«RedisPubsubPeers.topic», F.«RedisPubsubPeers.stop», .read, [], false⟩,
+  ⟨L.«fileConfig.mainConfig», F.«NewConfig», .read, [], true⟩,
+  ⟨L.«fileConfig.mainConfig», F.«fileConfig.GetAccessKeyConfig», .read, [(L.«fileConfig.mux», .sh)], false⟩,
+  ⟨L.«fileConfig.mainConfig», F.«fileConfig.GetAddCountsToRoot», .read, [(L.«fileConfig.mux», .sh)], false⟩,
+  ⟨L.«fileConfig.mainConfig», F.«fileConfig.GetAddHostMetadataToTrace», .read, [(L.«fileConfig.mux», .sh)], false⟩,
+  ⟨L.«fileConfig.mainConfig», F.«fileConfig.GetAddRuleReasonToTrace», .read, [(L.«fileConfig.mux», .sh)], false⟩,
+  ⟨L.«fileConfig.mainConfig», F.«fileConfig.GetAddSpanCountToRoot», .read, [(L.«fileConfig.mux», .sh)], false⟩,
+  ⟨L.«fileConfig.mainConfig», F.«fileConfig.GetAdditionalAttributes», .read, [(L.«fileConfig.mux», .sh)], false⟩,
+  ⟨L.«fileConfig.mainConfig», F.«fileConfig.GetAdditionalErrorFields», .read, [(L.«fileConfig.mux», .sh)], false⟩,
+  ⟨L.«fileConfig.mainConfig», F.«fileConfig.GetAdditionalHeaders», .read, [(L.«fileConfig.mux», .sh)], false⟩,
+  ⟨L.«fileConfig.mainConfig», F.«fileConfig.GetCollectionConfig», .read, [(L.«fileConfig.mux», .sh)], false⟩,
+  ⟨L.«fileConfig.mainConfig», F.«fileConfig.GetCompressPeerCommunication», .read, [(L.«fileConfig.mux», .sh)], false⟩,
+  ⟨L.«fileConfig.mainConfig», F.«fileConfig.GetDatasetPrefix», .read, [(L.«fileConfig.mux», .sh)], false⟩,
+  ⟨L.«fileConfig.mainConfig», F.«fileConfig.GetDebugServiceAddr», .read, [(L.«fileConfig.mux», .sh)], false⟩,
+  ⟨L.«fileConfig.mainConfig», F.«fileConfig.GetEnvironmentCacheTTL», .read, [(L.«fileConfig.mux», .sh)], false⟩,
+  ⟨L.«fileConfig.mainConfig», F.«fileConfig.GetGRPCConfig», .read, [(L.«fileConfig.mux», .sh)], false⟩,
+  ⟨L.«fileConfig.mainConfig», F.«fileConfig.GetGRPCEnabled», .read, [(L.«fileConfig.mux», .sh)], false⟩,
+  ⟨L.«fileConfig.mainConfig», F.«fileConfig.GetGRPCListenAddr», .read, [(L.«fileConfig.mux», .sh)], false⟩,
+  ⟨L.«fileConfig.mainConfig», F.«fileConfig.GetGeneralConfig», .read, [(L.«fileConfig.mux», .sh)], false⟩,
+  ⟨L.«fileConfig.mainConfig», F.«fileConfig.GetHTTPIdleTimeout», .read, [(L.«fileConfig.mux», .sh)], false⟩,
+  ⟨L.«fileConfig.mainConfig», F.«fileConfig.GetHealthCheckTimeout», .read, [(L.«fileConfig.mux», .sh)], false⟩,
+  ⟨L.«fileConfig.mainConfig», F.«fileConfig.GetHoneycombAPI», .read, [(L.«fileConfig.mux», .sh)], false⟩,
+  ⟨L.«fileConfig.mainConfig», F.«fileConfig.GetHoneycombLoggerConfig», .read, [(L.«fileConfig.mux», .sh)], false⟩,
+  ⟨L.«fileConfig.mainConfig», F.«fileConfig.GetIdentifierInterfaceName», .read, [(L.«fileConfig.mux», .sh)], false⟩,
+  ⟨L.«fileConfig.mainConfig», F.«fileConfig.GetIsDryRun», .read, [(L.«fileConfig.mux», .sh)], false⟩,
+  ⟨L.«fileConfig.mainConfig», F.«fileConfig.GetListenAddr», .read, [(L.«fileConfig.mux», .sh)], false⟩,
+  ⟨L.«fileConfig.mainConfig», F.«fileConfig.GetLoggerLevel», .read, [(L.«fileConfig.mux», .sh)], false⟩,
+  ⟨L.«fileConfig.mainConfig», F.«fileConfig.GetLoggerType», .read, [(L.«fileConfig.mux», .sh)], false⟩,
+  ⟨L.«fileConfig.mainConfig», F.«fileConfig.GetOTelMetricsConfig», .read, [(L.«fileConfig.mux», .sh)], false⟩,
+  ⟨L.«fileConfig.mainConfig», F.«fileConfig.GetOTelTracingConfig», .read, [(L.«fileConfig.mux», .sh)], false⟩,
+  ⟨L.«fileConfig.mainConfig», F.«fileConfig.GetOpAMPConfig», .read, [(L.«fileConfig.mux», .sh)], false⟩,
+  ⟨L.«fileConfig.mainConfig», F.«fileConfig.GetParentIdFieldNames», .read, [(L.«fileConfig.mux», .sh)], false⟩,
+  ⟨L.«fileConfig.mainConfig», F.«fileConfig.GetPeerListenAddr», .read, [(L.«fileConfig.mux», .sh)], false⟩,
+  ⟨L.«fileConfig.mainConfig», F.«fileConfig.GetPeerManagementType», .read, [(L.«fileConfig.mux», .sh)], false⟩,
+  ⟨L.«fileConfig.mainConfig», F.«fileConfig.GetPeerTimeout», .read, [(L.«fileConfig.mux», .sh)], false⟩,
+  ⟨L.«fileConfig.mainConfig», F.«fileConfig.GetPeers», .read, [(L.«fileConfig.mux», .sh)], false⟩,
+  ⟨L.«fileConfig.mainConfig», F.«fileConfig.GetPrometheusMetricsConfig», .read, [(L.«fileConfig.mux», .sh)], false⟩,
+  ⟨L.«fileConfig.mainConfig», F.«fileConfig.GetQueryAuthToken», .read, [(L.«fileConfig.mux», .sh)], false⟩,
+  ⟨L.«fileConfig.mainConfig», F.«fileConfig.GetRedisAuthCode», .read, [(L.«fileConfig.mux», .sh)], false⟩,
+  ⟨L.«fileConfig.mainConfig», F.«fileConfig.GetRedisClusterHosts», .read, [(L.«fileConfig.mux», .sh)], false⟩,
+  ⟨L.«fileConfig.mainConfig», F.«fileConfig.GetRedisDatabase», .read, [(L.«fileConfig.mux», .sh)], false⟩,
+  ⟨L.«fileConfig.mainConfig», F.«fileConfig.GetRedisHost», .read, [(L.«fileConfig.mux», .sh)], false⟩,
+  ⟨L.«fileConfig.mainConfig», F.«fileConfig.GetRedisIdentifier», .read, [(L.«fileConfig.mux», .sh)], false⟩,
+  ⟨L.«fileConfig.mainConfig», F.«fileConfig.GetRedisPassword», .read, [(L.«fileConfig.mux», .sh)], false⟩,
+  ⟨L.«fileConfig.mainConfig», F.«fileConfig.GetRedisPeerManagement», .read, [(L.«fileConfig.mux», .sh)], false⟩,
+  ⟨L.«fileConfig.mainConfig», F.«fileConfig.GetRedisPrefix», .read, [(L.«fileConfig.mux», .sh)], false⟩,
+  ⟨L.«fileConfig.mainConfig», F.«fileConfig.GetRedisUsername», .read, [(L.«fileConfig.mux», .sh)], false⟩,
+  ⟨L.«fileConfig.mainConfig», F.«fileConfig.GetSampleCacheConfig», .read, [(L.«fileConfig.mux», .sh)], false⟩,
+  ⟨L.«fileConfig.mainConfig», F.«fileConfig.GetStdoutLoggerConfig», .read, [(L.«fileConfig.mux», .sh)], false⟩,
+  ⟨L.«fileConfig.mainConfig», F.«fileConfig.GetStressReliefConfig», .read, [(L.«fileConfig.mux», .sh)], false⟩,
+  ⟨L.«fileConfig.mainConfig», F.«fileConfig.GetTraceIdFieldNames», .read, [(L.«fileConfig.mux», .sh)], false⟩,
+  ⟨L.«fileConfig.mainConfig», F.«fileConfig.GetTracesConfig», .read, [(L.«fileConfig.mux», .sh)], false⟩,
+  ⟨L.«fileConfig.mainConfig», F.«fileConfig.GetUseIPV6Identifier», .read, [(L.«fileConfig.mux», .sh)], false⟩,
+  ⟨L.«fileConfig.mainConfig», F.«fileConfig.GetUseTLSInsecure», .read, [(L.«fileConfig.mux», .sh)], false⟩,
+  ⟨L.«fileConfig.mainConfig», F.«fileConfig.GetUseTLS», .read, [(L.«fileConfig.mux», .sh)], false⟩,
+  ⟨L.«fileConfig.mainConfig», F.«fileConfig.Reload», .read, [], true⟩,
+  ⟨L.«fileConfig.mainConfig», F.«fileConfig.Reload», .write, [(L.«fileConfig.mux», .ex)], false⟩,
+  ⟨L.«fileConfig.mainHash», F.«fileConfig.GetConfigMetadata», .read, [], false⟩,
+  ⟨L.«fileConfig.mainHash», F.«fileConfig.GetHashes», .read, [(L.«fileConfig.mux», .sh)], false⟩,
+  ⟨L.«fileConfig.mainHash», F.«fileConfig.Reload», .read, [], false⟩,
+  ⟨L.«fileConfig.mainHash», F.«fileConfig.Reload», .read, [], true⟩,
+  ⟨L.«fileConfig.mainHash», F.«fileConfig.Reload», .write, [(L.«fileConfig.mux», .ex)], false⟩,
+  ⟨L.«fileConfig.rulesConfig», F.«NewConfig», .read, [], true⟩,
+  ⟨L.«fileConfig.rulesConfig», F.«fileConfig.GetAllSamplerRules», .read, [(L.«fileConfig.mux», .sh)], false⟩,
+  ⟨L.«fileConfig.rulesConfig», F.«fileConfig.GetSamplerConfigForDestName», .read, [(L.«fileConfig.mux», .sh)], false⟩,
+  ⟨L.«fileConfig.rulesConfig», F.«fileConfig.GetSamplingKeyFieldsForDestName», .read, [(L.«fileConfig.mux», .sh)], false⟩,
+  ⟨L.«fileConfig.rulesConfig», F.«fileConfig.Reload», .read, [], true⟩,
+  ⟨L.«fileConfig.rulesConfig», F.«fileConfig.Reload», .write, [(L.«fileConfig.mux», .ex)], false⟩,
+  ⟨L.«fileConfig.rulesHash», F.«fileConfig.GetConfigMetadata», .read, [], false⟩,
+  ⟨L.«fileConfig.rulesHash», F.«fileConfig.GetHashes», .read, [(L.«fileConfig.mux», .sh)], false⟩,
+  ⟨L.«fileConfig.rulesHash», F.«fileConfig.Reload», .read, [], false⟩,
+  ⟨L.«fileConfig.rulesHash», F.«fileConfig.Reload», .read, [], true⟩,
+  ⟨L.«fileConfig.rulesHash», F.«fileConfig.Reload», .write, [(L.«fileConfig.mux», .ex)], false⟩,
+  ⟨L.«fileConfig.opts», F.«fileConfig.GetConfigMetadata», .read, [], false⟩,
+  ⟨L.«fileConfig.opts», F.«fileConfig.Reload», .read, [], false⟩,
+  ⟨L.«fileConfig.callbacks», F.«NewConfig», .write, [], true⟩,
+  ⟨L.«fileConfig.callbacks», F.«fileConfig.RegisterReloadCallback», .read, [(L.«fileConfig.mux», .ex)], false⟩,
+  ⟨L.«fileConfig.callbacks», F.«fileConfig.RegisterReloadCallback», .write, [(L.«fileConfig.mux», .ex)], false⟩,
+  ⟨L.«fileConfig.callbacks», F.«fileConfig.Reload», .read, [], false⟩,
+  ⟨L.«fileConfig.mux», F.«fileConfig.GetAccessKeyConfig», .atomic, [(L.«fileConfig.mux», .sh)], false⟩,
+  ⟨L.«fileConfig.mux», F.«fileConfig.GetAccessKeyConfig», .atomic, [], false⟩,
+  ⟨L.«fileConfig.mux», F.«fileConfig.GetAddCountsToRoot», .atomic, [(L.«fileConfig.mux», .sh)], false⟩,
+  ⟨L.«fileConfig.mux», F.«fileConfig.GetAddCountsToRoot», .atomic, [], false⟩,
+  ⟨L.«fileConfig.mux», F.«fileConfig.GetAddHostMetadataToTrace», .atomic, [(L.«fileConfig.mux», .sh)], false⟩,
+  ⟨L.«fileConfig.mux», F.«fileConfig.GetAddHostMetadataToTrace», .atomic, [], false⟩,
+  ⟨L.«fileConfig.mux», F.«fileConfig.GetAddRuleReasonToTrace», .atomic, [(L.«fileConfig.mux», .sh)], false⟩,
+  ⟨L.«fileConfig.mux», F.«fileConfig.GetAddRuleReasonToTrace», .atomic, [], false⟩,
+  ⟨L.«fileConfig.mux», F.«fileConfig.GetAddSpanCountToRoot», .atomic, [(L.«fileConfig.mux», .sh)], false⟩,
+  ⟨L.«fileConfig.mux», F.«fileConfig.GetAddSpanCountToRoot», .atomic, [], false⟩,
+  ⟨L.«fileConfig.mux», F.«fileConfig.GetAdditionalAttributes», .atomic, [(L.«fileConfig.mux», .sh)], false⟩,
+  ⟨L.«fileConfig.mux», F.«fileConfig.GetAdditionalAttributes», .atomic, [], false⟩,
+  ⟨L.«fileConfig.mux», F.«fileConfig.GetAdditionalErrorFields», .atomic, [(L.«fileConfig.mux», .sh)], false⟩,
+  ⟨L.«fileConfig.mux», F.«fileConfig.GetAdditionalErrorFields», .atomic, [], false⟩,
+  ⟨L.«fileConfig.mux», F.«fileConfig.GetAdditionalHeaders», .atomic, [(L.«fileConfig.mux», .sh)], false⟩,
+  ⟨L.«fileConfig.mux», F.«fileConfig.GetAdditionalHeaders», .atomic, [], false⟩,
+  ⟨L.«fileConfig.mux», F.«fileConfig.GetAllSamplerRules», .atomic, [(L.«fileConfig.mux», .sh)], false⟩,
+  ⟨L.«fileConfig.mux», F.«fileConfig.GetAllSamplerRules», .atomic, [], false⟩,
+  ⟨L.«fileConfig.mux», F.«fileConfig.GetCollectionConfig», .atomic, [(L.«fileConfig.mux», .sh)], false⟩,
+  ⟨L.«fileConfig.mux», F.«fileConfig.GetCollectionConfig», .atomic, [], false⟩,
+  ⟨L.«fileConfig.mux», F.«fileConfig.GetCompressPeerCommunication», .atomic, [(L.«fileConfig.mux», .sh)], false⟩,
+  ⟨L.«fileConfig.mux», F.«fileConfig.GetCompressPeerCommunication», .atomic, [], false⟩,
+  ⟨L.«fileConfig.mux», F.«fileConfig.GetDatasetPrefix», .atomic, [(L.«fileConfig.mux», .sh)], false⟩,
+  ⟨L.«fileConfig.mux», F.«fileConfig.GetDatasetPrefix», .atomic, [], false⟩,
+  ⟨L.«fileConfig.mux», F.«fileConfig.GetDebugServiceAddr», .atomic, [(L.«fileConfig.mux», .sh)], false⟩,
+  ⟨L.«fileConfig.mux», F.«fileConfig.GetDebugServiceAddr», .atomic, [], false⟩,
+  ⟨L.«fileConfig.mux», F.«fileConfig.GetEnvironmentCacheTTL», .atomic, [(L.«fileConfig.mux», .sh)], false⟩,
+  ⟨L.«fileConfig.mux», F.«fileConfig.GetEnvironmentCacheTTL», .atomic, [], false⟩,
+  ⟨L.«fileConfig.mux», F.«fileConfig.GetGRPCConfig», .atomic, [(L.«fileConfig.mux», .sh)], false⟩,
+  ⟨L.«fileConfig.mux», F.«fileConfig.GetGRPCConfig», .atomic, [], false⟩,
+  ⟨L.«fileConfig.mux», F.«fileConfig.GetGRPCEnabled», .atomic, [(L.«fileConfig.mux», .sh)], false⟩,
+  ⟨L.«fileConfig.mux», F.«fileConfig.GetGRPCEnabled», .atomic, [], false⟩,
+  ⟨L.«fileConfig.mux», F.«fileConfig.GetGRPCListenAddr», .atomic, [(L.«fileConfig.mux», .sh)], false⟩,
+  ⟨L.«fileConfig.mux», F.«fileConfig.GetGRPCListenAddr», .atomic, [], false⟩,
+  ⟨L.«fileConfig.mux», F.«fileConfig.GetGeneralConfig», .atomic, [(L.«fileConfig.mux», .sh)], false⟩,
+  ⟨L.«fileConfig.mux», F.«fileConfig.GetGeneralConfig», .atomic, [], false⟩,
+  ⟨L.«fileConfig.mux», F.«fileConfig.GetHTTPIdleTimeout», .atomic, [(L.«fileConfig.mux», .sh)], false⟩,
+  ⟨L.«fileConfig.mux», F.«fileConfig.GetHTTPIdleTimeout», .atomic, [], false⟩,
+  ⟨L.«fileConfig.mux», F.«fileConfig.GetHashes», .atomic, [(L.«fileConfig.mux», .sh)], false⟩,
+  ⟨L.«fileConfig.mux», F.«fileConfig.GetHashes», .atomic, [], false⟩,
+  ⟨L.«fileConfig.mux», F.«fileConfig.GetHealthCheckTimeout», .atomic, [(L.«fileConfig.mux», .sh)], false⟩,
+  ⟨L.«fileConfig.mux», F.«fileConfig.GetHealthCheckTimeout», .atomic, [], false⟩,
+  ⟨L.«fileConfig.mux», F.«fileConfig.GetHoneycombAPI», .atomic, [(L.«fileConfig.mux», .sh)], false⟩,
+  ⟨L.«fileConfig.mux», F.«fileConfig.GetHoneycombAPI», .atomic, [], false⟩,
+  ⟨L.«fileConfig.mux», F.«fileConfig.GetHoneycombLoggerConfig», .atomic, [(L.«fileConfig.mux», .sh)], false⟩,
+  ⟨L.«fileConfig.mux», F.«fileConfig.GetHoneycombLoggerConfig», .atomic, [], false⟩,
+  ⟨L.«fileConfig.mux», F.«fileConfig.GetIdentifierInterfaceName», .atomic, [(L.«fileConfig.mux», .sh)], false⟩,
+  ⟨L.«fileConfig.mux», F.«fileConfig.GetIdentifierInterfaceName», .atomic, [], false⟩,
+  ⟨L.«fileConfig.mux», F.«fileConfig.GetIsDryRun», .atomic, [(L.«fileConfig.mux», .sh)], false⟩,
+  ⟨L.«fileConfig.mux», F.«fileConfig.GetIsDryRun», .atomic, [], false⟩,
+  ⟨L.«fileConfig.mux», F.«fileConfig.GetListenAddr», .atomic, [(L.«fileConfig.mux», .sh)], false⟩,
+  ⟨L.«fileConfig.mux», F.«fileConfig.GetListenAddr», .atomic, [], false⟩,
+  ⟨L.«fileConfig.mux», F.«fileConfig.GetLoggerLevel», .atomic, [(L.«fileConfig.mux», .sh)], false⟩,
+  ⟨L.«fileConfig.mux», F.«fileConfig.GetLoggerLevel», .atomic, [], false⟩,
+  ⟨L.«fileConfig.mux», F.«fileConfig.GetLoggerType», .atomic, [(L.«fileConfig.mux», .sh)], false⟩,
+  ⟨L.«fileConfig.mux», F.«fileConfig.GetLoggerType», .atomic, [], false⟩,
+  ⟨L.«fileConfig.mux», F.«fileConfig.GetOTelMetricsConfig», .atomic, [(L.«fileConfig.mux», .sh)], false⟩,
+  ⟨L.«fileConfig.mux», F.«fileConfig.GetOTelMetricsConfig», .atomic, [], false⟩,
+  ⟨L.«fileConfig.mux», F.«fileConfig.GetOTelTracingConfig», .atomic, [(L.«fileConfig.mux», .sh)], false⟩,
+  ⟨L.«fileConfig.mux», F.«fileConfig.GetOTelTracingConfig», .atomic, [], false⟩,
+  ⟨L.«fileConfig.mux», F.«fileConfig.GetOpAMPConfig», .atomic, [(L.«fileConfig.mux», .sh)], false⟩,
+  ⟨L.«fileConfig.mux», F.«fileConfig.GetOpAMPConfig», .atomic, [], false⟩,
+  ⟨L.«fileConfig.mux», F.«fileConfig.GetParentIdFieldNames», .atomic, [(L.«fileConfig.mux», .sh)], false⟩,
+  ⟨L.«fileConfig.mux», F.«fileConfig.GetParentIdFieldNames», .atomic, [], false⟩,
+  ⟨L.«fileConfig.mux», F.«fileConfig.GetPeerListenAddr», .atomic, [(L.«fileConfig.mux», .sh)], false⟩,
+  ⟨L.«fileConfig.mux», F.«fileConfig.GetPeerListenAddr», .atomic, [], false⟩,
+  ⟨L.«fileConfig.mux», F.«fileConfig.GetPeerManagementType», .atomic, [(L.«fileConfig.mux», .sh)], false⟩,
+  ⟨L.«fileConfig.mux», F.«fileConfig.GetPeerManagementType», .atomic, [], false⟩,
+  ⟨L.«fileConfig.mux», F.«fileConfig.GetPeerTimeout», .atomic, [(L.«fileConfig.mux», .sh)], false⟩,
+  ⟨L.«fileConfig.mux», F.«fileConfig.GetPeerTimeout», .atomic, [], false⟩,
+  ⟨L.«fileConfig.mux», F.«fileConfig.GetPeers», .atomic, [(L.«fileConfig.mux», .sh)], false⟩,
+  ⟨L.«fileConfig.mux», F.«fileConfig.GetPeers», .atomic, [], false⟩,
+  ⟨L.«fileConfig.mux», F.«fileConfig.GetPrometheusMetricsConfig», .atomic, [(L.«fileConfig.mux», .sh)], false⟩,
+  ⟨L.«fileConfig.mux», F.«fileConfig.GetPrometheusMetricsConfig», .atomic, [], false⟩,
+  ⟨L.«fileConfig.mux», F.«fileConfig.GetQueryAuthToken», .atomic, [(L.«fileConfig.mux», .sh)], false⟩,
+  ⟨L.«fileConfig.mux», F.«fileConfig.GetQueryAuthToken», .atomic, [], false⟩,
+  ⟨L.«fileConfig.mux», F.«fileConfig.GetRedisAuthCode», .atomic, [(L.«fileConfig.mux», .sh)], false⟩,
+  ⟨L.«fileConfig.mux», F.«fileConfig.GetRedisAuthCode», .atomic, [], false⟩,
+  ⟨L.«fileConfig.mux», F.«fileConfig.GetRedisClusterHosts», .atomic, [(L.«fileConfig.mux», .sh)], false⟩,
+  ⟨L.«fileConfig.mux», F.«fileConfig.GetRedisClusterHosts», .atomic, [], false⟩,
+  ⟨L.«fileConfig.mux», F.«fileConfig.GetRedisDatabase», .atomic, [(L.«fileConfig.mux», .sh)], false⟩,
+  ⟨L.«fileConfig.mux», F.«fileConfig.GetRedisDatabase», .atomic, [], false⟩,
+  ⟨L.«fileConfig.mux», F.«fileConfig.GetRedisHost», .atomic, [(L.«fileConfig.mux», .sh)], false⟩,
+  ⟨L.«fileConfig.mux», F.«fileConfig.GetRedisHost», .atomic, [], false⟩,
+  ⟨L.«fileConfig.mux», F.«fileConfig.GetRedisIdentifier», .atomic, [(L.«fileConfig.mux», .sh)], false⟩,
+  ⟨L.«fileConfig.mux», F.«fileConfig.GetRedisIdentifier», .atomic, [], false⟩,
+  ⟨L.«fileConfig.mux», F.«fileConfig.GetRedisPassword», .atomic, [(L.«fileConfig.mux», .sh)], false⟩,
+  ⟨L.«fileConfig.mux», F.«fileConfig.GetRedisPassword», .atomic, [], false⟩,
+  ⟨L.«fileConfig.mux», F.«fileConfig.GetRedisPeerManagement», .atomic, [(L.«fileConfig.mux», .sh)], false⟩,
+  ⟨L.«fileConfig.mux», F.«fileConfig.GetRedisPeerManagement», .atomic, [], false⟩,
+  ⟨L.«fileConfig.mux», F.«fileConfig.GetRedisPrefix», .atomic, [(L.«fileConfig.mux», .sh)], false⟩,
+  ⟨L.«fileConfig.mux», F.«fileConfig.GetRedisPrefix», .atomic, [], false⟩,
+  ⟨L.«fileConfig.mux», F.«fileConfig.GetRedisUsername», .atomic, [(L.«fileConfig.mux», .sh)], false⟩,
+  ⟨L.«fileConfig.mux», F.«fileConfig.GetRedisUsername», .atomic, [], false⟩,
+  ⟨L.«fileConfig.mux», F.«fileConfig.GetSampleCacheConfig», .atomic, [(L.«fileConfig.mux», .sh)], false⟩,
+  ⟨L.«fileConfig.mux», F.«fileConfig.GetSampleCacheConfig», .atomic, [], false⟩,
+  ⟨L.«fileConfig.mux», F.«fileConfig.GetSamplerConfigForDestName», .atomic, [(L.«fileConfig.mux», .sh)], false⟩,
+  ⟨L.«fileConfig.mux», F.«fileConfig.GetSamplerConfigForDestName», .atomic, [], false⟩,
+  ⟨L.«fileConfig.mux», F.«fileConfig.GetSamplingKeyFieldsForDestName», .atomic, [(L.«fileConfig.mux», .sh)], false⟩,
+  ⟨L.«fileConfig.mux», F.«fileConfig.GetSamplingKeyFieldsForDestName», .atomic, [], false⟩,
+  ⟨L.«fileConfig.mux», F.«fileConfig.GetStdoutLoggerConfig», .atomic, [(L.«fileConfig.mux», .sh)], false⟩,
+  ⟨L.«fileConfig.mux», F.«fileConfig.GetStdoutLoggerConfig», .atomic, [], false⟩,
+  ⟨L.«fileConfig.mux», F.«fileConfig.GetStressReliefConfig», .atomic, [(L.«fileConfig.mux», .sh)], false⟩,
+  ⟨L.«fileConfig.mux», F.«fileConfig.GetStressReliefConfig», .atomic, [], false⟩,
+  ⟨L.«fileConfig.mux», F.«fileConfig.GetTraceIdFieldNames», .atomic, [(L.«fileConfig.mux», .sh)], false⟩,
+  ⟨L.«fileConfig.mux», F.«fileConfig.GetTraceIdFieldNames», .atomic, [], false⟩,
+  ⟨L.«fileConfig.mux», F.«fileConfig.GetTracesConfig», .atomic, [(L.«fileConfig.mux», .sh)], false⟩,
+  ⟨L.«fileConfig.mux», F.«fileConfig.GetTracesConfig», .atomic, [], false⟩,
+  ⟨L.«fileConfig.mux», F.«fileConfig.GetUseIPV6Identifier», .atomic, [(L.«fileConfig.mux», .sh)], false⟩,
+  ⟨L.«fileConfig.mux», F.«fileConfig.GetUseIPV6Identifier», .atomic, [], false⟩,
+  ⟨L.«fileConfig.mux», F.«fileConfig.GetUseTLSInsecure», .atomic, [(L.«fileConfig.mux», .sh)], false⟩,
+  ⟨L.«fileConfig.mux», F.«fileConfig.GetUseTLSInsecure», .atomic, [], false⟩,
+  ⟨L.«fileConfig.mux», F.«fileConfig.GetUseTLS», .atomic, [(L.«fileConfig.mux», .sh)], false⟩,
+  ⟨L.«fileConfig.mux», F.«fileConfig.GetUseTLS», .atomic, [], false⟩,
+  ⟨L.«fileConfig.mux», F.«fileConfig.RegisterReloadCallback», .atomic, [(L.«fileConfig.mux», .ex)], false⟩,
+  ⟨L.«fileConfig.mux», F.«fileConfig.RegisterReloadCallback», .atomic, [], false⟩,
+  ⟨L.«fileConfig.mux», F.«fileConfig.Reload», .atomic, [(L.«fileConfig.mux», .ex)], false⟩,
+  ⟨L.«fileConfig.mux», F.«fileConfig.Reload», .atomic, [], false⟩,
+  ⟨L.«fileConfig.lastLoadTime», F.«fileConfig.GetConfigMetadata», .read, [], false⟩,
+  ⟨L.«ConfigWatcher.Config», F.«ConfigWatcher.ReloadCallback», .read, [], false⟩,
+  ⟨L.«ConfigWatcher.Config», F.«ConfigWatcher.Start», .read, [], false⟩,
+  ⟨L.«ConfigWatcher.Config», F.«ConfigWatcher.SubscriptionListener», .read, [], false⟩,
+  ⟨L.«ConfigWatcher.Config», F.«ConfigWatcher.monitor», .read, [], false⟩,
+  ⟨L.«ConfigWatcher.Logger», F.«ConfigWatcher.SubscriptionListener», .read, [], false⟩,
+  ⟨L.«ConfigWatcher.Logger», F.«ConfigWatcher.monitor», .read, [], false⟩,
+  ⟨L.«ConfigWatcher.PubSub», F.«ConfigWatcher.ReloadCallback», .read, [], false⟩,
+  ⟨L.«ConfigWatcher.PubSub», F.«ConfigWatcher.Start», .read, [], false⟩,
+  ⟨L.«ConfigWatcher.Tracer», F.«ConfigWatcher.ReloadCallback», .read, [], false⟩,
+  ⟨L.«ConfigWatcher.Tracer», F.«ConfigWatcher.Start», .read, [], false⟩,
+  ⟨L.«ConfigWatcher.Tracer», F.«ConfigWatcher.Start», .write, [], false⟩,
+  ⟨L.«ConfigWatcher.Tracer», F.«ConfigWatcher.SubscriptionListener», .read, [], false⟩,
+  ⟨L.«ConfigWatcher.subscr», F.«ConfigWatcher.Start», .write, [], false⟩,
+  ⟨L.«ConfigWatcher.subscr», F.«ConfigWatcher.Stop», .read, [], false⟩,
+  ⟨L.«ConfigWatcher.msgTime», F.«ConfigWatcher.ReloadCallback», .read, [(L.«ConfigWatcher.mut», .sh)], false⟩,
+  ⟨L.«ConfigWatcher.msgTime», F.«ConfigWatcher.SubscriptionListener», .write, [(L.«ConfigWatcher.mut», .ex)], false⟩,
+  ⟨L.«ConfigWatcher.done», F.«ConfigWatcher.Stop», .read, [], false⟩,
+  ⟨L.«ConfigWatcher.done», F.«ConfigWatcher.monitor», .read, [], false⟩,
+  ⟨L.«ConfigWatcher.done», F.«ConfigWatcher.monitor», .write, [], false⟩,
+  ⟨L.«ConfigWatcher.mut», F.«ConfigWatcher.ReloadCallback», .atomic, [(L.«ConfigWatcher.mut», .sh)], false⟩,
+  ⟨L.«ConfigWatcher.mut», F.«ConfigWatcher.ReloadCallback», .atomic, [], false⟩,
+  ⟨L.«ConfigWatcher.mut», F.«ConfigWatcher.SubscriptionListener», .atomic, [(L.«ConfigWatcher.mut», .ex)], false⟩,
+  ⟨L.«ConfigWatcher.mut», F.«ConfigWatcher.SubscriptionListener», .atomic, [], false⟩,
+  ⟨L.«ConfigWatcher.topic», F.«ConfigWatcher.ReloadCallback», .read, [], false⟩,
+  ⟨L.«ConfigWatcher.topic», F.«ConfigWatcher.Start», .read, [], false⟩,
+  ⟨L.«ConfigWatcher.topic», F.«ConfigWatcher.Start», .write, [], false⟩,
+  ⟨L.«MultiMetrics.Config», F.«MultiMetrics.Start», .read, [], false⟩,
+  ⟨L.«MultiMetrics.PromMetrics», F.«MultiMetrics.Start», .read, [], false⟩,
+  ⟨L.«MultiMetrics.OTelMetrics», F.«MultiMetrics.Start», .read, [], false⟩,
+  ⟨L.«MultiMetrics.children», F.«MultiMetrics.AddChild», .read, [], false⟩,
+  ⟨L.«MultiMetrics.children», F.«MultiMetrics.AddChild», .write, [], false⟩,
+  ⟨L.«MultiMetrics.children», F.«MultiMetrics.Children», .read, [], false⟩,
+  ⟨L.«MultiMetrics.children», F.«MultiMetrics.Count», .read, [], false⟩,
+  ⟨L.«MultiMetrics.children», F.«MultiMetrics.Down», .read, [], false⟩,
+  ⟨L.«MultiMetrics.children», F.«MultiMetrics.Gauge», .read, [], false⟩,
+  ⟨L.«MultiMetrics.children», F.«MultiMetrics.Histogram», .read, [], false⟩,
+  ⟨L.«MultiMetrics.children», F.«MultiMetrics.Increment», .read, [], false⟩,
+  ⟨L.«MultiMetrics.children», F.«MultiMetrics.Register», .read, [], false⟩,
+  ⟨L.«MultiMetrics.children», F.«MultiMetrics.Up», .read, [], false⟩,
+  ⟨L.«MultiMetrics.counters», F.«MultiMetrics.Count», .atomic, [], false⟩,
+  ⟨L.«MultiMetrics.counters», F.«MultiMetrics.Get», .atomic, [], false⟩,
+  ⟨L.«MultiMetrics.counters», F.«MultiMetrics.Increment», .atomic, [], false⟩,
+  ⟨L.«MultiMetrics.counters», F.«MultiMetrics.Register», .atomic, [], false⟩,
+  ⟨L.«MultiMetrics.gauges», F.«MultiMetrics.Gauge», .atomic, [], false⟩,
+  ⟨L.«MultiMetrics.gauges», F.«MultiMetrics.Get», .atomic, [], false⟩,
+  ⟨L.«MultiMetrics.gauges», F.«MultiMetrics.Register», .atomic, [], false⟩,
+  ⟨L.«MultiMetrics.updowns», F.«MultiMetrics.Down», .atomic, [], false⟩,
+  ⟨L.«MultiMetrics.updowns», F.«MultiMetrics.Get», .atomic, [], false⟩,
+  ⟨L.«MultiMetrics.updowns», F.«MultiMetrics.Register», .atomic, [], false⟩,
+  ⟨L.«MultiMetrics.updowns», F.«MultiMetrics.Up», .atomic, [], false⟩,
+  ⟨L.«MultiMetrics.stores», F.«MultiMetrics.Get», .atomic, [], false⟩,
+  ⟨L.«MultiMetrics.stores», F.«MultiMetrics.Store», .atomic, [], false⟩,
+  ⟨L.«MultiMetrics.metricTypes», F.«MultiMetrics.Get», .atomic, [], false⟩,
+  ⟨L.«MultiMetrics.metricTypes», F.«MultiMetrics.Register», .atomic, [], false⟩,
+  ⟨L.«environmentCache.addItem()», F.«environmentCache.get», .write, [(L.«environmentCache.mutex», .ex)], false⟩]
 
 /-- selectors named like a tracked field whose base expression has a type the stub importer
     cannot resolve (field name, function) -/
